@@ -3,13 +3,18 @@
      unsettled deliveries on its channel (consumer_ledger_reachable; CL_step for one label);
    - Part 3 (amqp-0-9-1 dialect): the count of the connection-wide prefetch window equals the number of unsettled
      deliveries of all the connection's channels (conn_ledger_reachable; NL_step);
-   - Part 4/5 (both dialects): the byte count of the channel window equals the body bytes of the channel's unsettled
-     deliveries (byte_ledger_reachable; BL_step), because every message a delivery, a queue or the store refers to is
-     complete (RCI_step);
+   - Part 4/5 (both dialects, any repair switches): the byte count of the channel window equals the body bytes of the
+     channel's unsettled deliveries (byte_ledger_reachable; BL_step), because every message a delivery, a queue or the
+     store refers to is complete (RCI_step);
+   - Part 6 (amqp-rabbit): the byte count of each consumer's own window equals the body bytes of that consumer's unsettled
+     deliveries (consumer_byte_ledger_reachable; YB_step) - Part 2 with sizes for counts, names prefixed y/Y;
+   - Part 7 (amqp-0-9-1): the byte count of the connection-wide window equals the body bytes of all the connection's
+     unsettled deliveries (conn_byte_ledger_reachable; ZB_step) - Part 3 with sizes, names prefixed z/Z; it needs the
+     channel numbers of a connection to be distinct (KD_step);
    as long as no channel / connection is at the edge of the uint16 / uint32 counter (finding F32), for the repaired
    close-ok / channel-state / class checks (fx_closeok_releases, fx_chan_open, fx_stage: without them a channel
    number can be re-opened over live consumers or unsettled deliveries, see the _refuted examples in Props/C06_ledgers.v).
-   Part 0 is one proof of "every label keeps I" (D2_step / D_step) for any state predicate I that the broker's
+   Part 0 is one proof of "every label keeps I" (D2_step_any / D2_step / D_step) for any state predicate I that the broker's
    primitives keep; Part 1 the auxiliary invariant "a closed channel, and channel 0, hold nothing" (CB_step). *)
 From Coq Require Import List String NArith ZArith Bool Lia ZifyBool ZifyN.
 From RecordUpdate Require Import RecordUpdate.
@@ -83,12 +88,18 @@ Proof.
     apply msg_size_upd_msg; reflexivity.
 Qed.
 
+(* ... each only if the corresponding check is switched on *)
+Definition cguard (fx : fixes) (s : state) (c h : N) (m : meth) : Prop :=
+  (fx_stage fx = true -> Bool.eqb (is_conn_class m) (h =? 0) = true) /\
+  (fx_chan_open fx = true ->
+   negb (is_conn_class m) && negb (chan_usable s c h) && negb (match m with MChannelOpen => true | _ => false end) = false).
+Lemma cguard_guard fx s c h m : fx_stage fx = true -> fx_chan_open fx = true -> cguard fx s c h m -> guard s c h m.
+Proof. intros A B [G1 G2]. split; auto. Qed.
+
 Section Dispatch2.
 Variables (cfg : config) (fx : fixes).
 Variable I : state -> Prop.
 Variable Gu : state -> N -> Prop.   (* what the message of a publish must satisfy when it is pushed *)
-Hypothesis Hst : fx_stage fx = true.
-Hypothesis Hco : fx_chan_open fx = true.
 Hypothesis I_chan_close : forall s c h, I s -> I (channel_close cfg s c h).
 Hypothesis I_del : forall b s qn iu ie, I s -> I (fst (fst (vhost_delete_queue b s qn iu ie))).
 Hypothesis I_delconn : forall s c, I s -> I (s <| conns := adel N.eqb c (conns s) |>).
@@ -179,19 +190,21 @@ Proof.
 Qed.
 
 Lemma D_generic st s c h m :
-  (guard s c h m -> I (fst (fst (handle_method cfg fx s c h m)))) ->
+  (cguard fx s c h m -> I (fst (fst (handle_method cfg fx s c h m)))) ->
   I s -> I (fst (step_generic cfg fx st s c h m)).
 Proof.
-  intros Hm H. unfold step_generic. rewrite Hst, Hco. cbn [andb].
+  intros Hm H. unfold step_generic.
   destruct (fx_discard_closing fx && _ && _)%bool; [exact H|].
-  destruct (negb (Bool.eqb _ _)) eqn:E1; [apply D_apply_err_st; exact H|].
-  destruct (negb (stage_allows _ _)); [apply D_apply_err_st; exact H|].
-  destruct (_ && _ && _)%bool eqn:E2; [apply D_apply_err; exact H|].
-  apply D_apply_err_st. apply Hm. split; [|exact E2]. apply Bool.negb_false_iff in E1. exact E1.
+  destruct (fx_stage fx && negb (Bool.eqb _ _))%bool eqn:E1; [apply D_apply_err_st; exact H|].
+  destruct (fx_stage fx && negb (stage_allows _ _))%bool; [apply D_apply_err_st; exact H|].
+  destruct (fx_chan_open fx && _ && _ && _)%bool eqn:E2; [apply D_apply_err; exact H|].
+  apply D_apply_err_st. apply Hm. split.
+  - intros Hs. rewrite Hs in E1. cbn [andb] in E1. apply Bool.negb_false_iff in E1. exact E1.
+  - intros Hc. rewrite Hc in E2. cbn [andb] in E2. exact E2.
 Qed.
 
-Theorem D2_step s l :
-  (forall c h m, guard (ensure_chan s c h) c h m -> I (ensure_chan s c h) -> I (fst (fst (handle_method cfg fx (ensure_chan s c h) c h m)))) ->
+Theorem D2_step_any s l :
+  (forall c h m, cguard fx (ensure_chan s c h) c h m -> I (ensure_chan s c h) -> I (fst (fst (handle_method cfg fx (ensure_chan s c h) c h m)))) ->
   (forall c h tag, I (fst (consumer_turn cfg fx s c h tag))) ->
   (forall c h ch u m mid size pers, get_chan (ensure_chan s c h) c h = Some ch -> ch_cur ch = Some u -> get_msg (ensure_chan s c h) u = Some m ->
      m_has_header m = false -> I (ensure_chan s c h) ->
@@ -269,12 +282,56 @@ Proof.
 Qed.
 End Dispatch2.
 
+
+(* the same with both checks switched on (the form other developments use) *)
+Theorem D2_step (cfg : config) (fx : fixes) (I : state -> Prop) (Gu : state -> N -> Prop)
+  (Hst : fx_stage fx = true) (Hco : fx_chan_open fx = true)
+  (I_chan_close : forall s c h, I s -> I (channel_close cfg s c h))
+  (I_del : forall b s qn iu ie, I s -> I (fst (fst (vhost_delete_queue b s qn iu ie))))
+  (I_delconn : forall s c, I s -> I (s <| conns := adel N.eqb c (conns s) |>))
+  (I_closing : forall s c h, I s -> I (upd_chan s c h (fun ch => ch <| ch_status := ChClosing |>)))
+  (I_ensure : forall s c h, I s -> I (ensure_chan s c h))
+  (I_cur : forall s c h, I s -> I (upd_chan s c h (fun ch => ch <| ch_cur := None |>)))
+  (I_add_confirm : forall s c h t, I s -> I (add_confirm s c h t))
+  (I_wake : forall s c h tag, I s -> I (fst (wake_consumer s c h tag)))
+  (I_newconn : forall s c st, get_conn s c = None -> I s ->
+     I (s <| conns := aset N.eqb c {| cn_chans := [(0, channel0 <| ch_status := ChNew |>)]; cn_qos := qos0; cn_stage := st |} (conns s) |>))
+  (I_restart : forall s, I s -> I (fst (restart cfg s)))
+  (I_tick : forall s c h ch, get_chan s c h = Some ch -> I s ->
+     I (set_chan s c h (ch <| ch_ticker := false |>)) /\ I (set_chan s c h (ch <| ch_confirmq := [] |>)))
+  (I_push : forall s qn u, Gu s u -> I s -> I (queue_push s qn u))
+  (Gu_push : forall s qn u v, Gu s v -> Gu (queue_push s qn u) v)
+  (Gu_addc : forall s c h t v, Gu s v -> Gu (add_confirm s c h t) v)
+  (I_exp : forall s u z, I s -> I (upd_msg s u (fun m => m <| m_expected := z |>)))
+  (Gu_exp : forall s u z v, Gu s v -> Gu (upd_msg s u (fun m => m <| m_expected := z |>)) v)
+  (I_qmeta : forall s qn qu qu', get_queue s qn = Some qu -> q_ready qu' = q_ready qu -> I s -> I (set_queue s qn qu'))
+  (I_autodel : forall s rest, I s -> I (s <| autodel := rest |>))
+  (I_relay : forall s rest, I s -> I (s <| relay := rest |>))
+  (I_persist : forall s, I s -> I (fst (step cfg fx s LPersistTick)))
+  s l :
+  (forall c h m, guard (ensure_chan s c h) c h m -> I (ensure_chan s c h) -> I (fst (fst (handle_method cfg fx (ensure_chan s c h) c h m)))) ->
+  (forall c h tag, I (fst (consumer_turn cfg fx s c h tag))) ->
+  (forall c h ch u m mid size pers, get_chan (ensure_chan s c h) c h = Some ch -> ch_cur ch = Some u -> get_msg (ensure_chan s c h) u = Some m ->
+     m_has_header m = false -> I (ensure_chan s c h) ->
+     I (upd_msg (ensure_chan s c h) u (fun m => m <| m_has_header := true |> <| m_hsize := size |> <| m_pers := pers |> <| m_mid := mid |>)) /\
+     (size = 0 -> Gu (upd_msg (ensure_chan s c h) u (fun m => m <| m_has_header := true |> <| m_hsize := size |> <| m_pers := pers |> <| m_mid := mid |>)) u)) ->
+  (forall c h ch u m len, get_chan (ensure_chan s c h) c h = Some ch -> ch_cur ch = Some u -> get_msg (ensure_chan s c h) u = Some m ->
+     m_has_header m = true -> (m_hsize m <? m_size m + len) = false -> I (ensure_chan s c h) ->
+     I (upd_msg (ensure_chan s c h) u (fun m => m <| m_body ::= fun b => b ++ [len] |> <| m_size ::= fun z => z + len |>)) /\
+     ((m_size m + len <? m_hsize m) = false ->
+      Gu (upd_msg (ensure_chan s c h) u (fun m => m <| m_body ::= fun b => b ++ [len] |> <| m_size ::= fun z => z + len |>)) u)) ->
+  I s -> I (fst (step cfg fx s l)).
+Proof.
+  intros Hm Hturn Hhdr Hbody H.
+  apply (D2_step_any cfg fx I Gu I_chan_close I_del I_delconn I_closing I_ensure I_cur I_add_confirm I_wake I_newconn I_restart I_tick
+           I_push Gu_push Gu_addc I_exp Gu_exp I_qmeta I_autodel I_relay I_persist); auto.
+  intros c h m Hg. apply Hm. apply (cguard_guard fx); auto.
+Qed.
+
 (* the same for a predicate that reads the connections and the message sizes only *)
 Section Dispatch.
 Variables (cfg : config) (fx : fixes).
 Variable I : state -> Prop.
-Hypothesis Hst : fx_stage fx = true.
-Hypothesis Hco : fx_chan_open fx = true.
 Hypothesis I_frame : forall s s', conns s' = conns s -> (forall x, msg_size s' x = msg_size s x) -> I s -> I s'.
 Hypothesis I_chan_close : forall s c h, I s -> I (channel_close cfg s c h).
 Hypothesis I_del : forall b s qn iu ie, I s -> I (fst (fst (vhost_delete_queue b s qn iu ie))).
@@ -291,7 +348,7 @@ Hypothesis I_tick : forall s c h ch, get_chan s c h = Some ch -> I s ->
   I (set_chan s c h (ch <| ch_ticker := false |>)) /\ I (set_chan s c h (ch <| ch_confirmq := [] |>)).
 
 Theorem D_step s l :
-  (forall c h m, guard (ensure_chan s c h) c h m -> I (ensure_chan s c h) -> I (fst (fst (handle_method cfg fx (ensure_chan s c h) c h m)))) ->
+  (forall c h m, cguard fx (ensure_chan s c h) c h m -> I (ensure_chan s c h) -> I (fst (fst (handle_method cfg fx (ensure_chan s c h) c h m)))) ->
   (forall c h tag, I (fst (consumer_turn cfg fx s c h tag))) ->
   (forall c h ch u m len, get_chan (ensure_chan s c h) c h = Some ch -> ch_cur ch = Some u -> get_msg (ensure_chan s c h) u = Some m ->
      (m_hsize m <? m_size m + len) = false -> I (ensure_chan s c h) ->
@@ -299,7 +356,7 @@ Theorem D_step s l :
   I s -> I (fst (step cfg fx s l)).
 Proof.
   intros Hm Hturn Hbody H.
-  apply (D2_step cfg fx I (fun _ _ => True) Hst Hco I_chan_close I_del I_delconn I_closing I_ensure I_cur I_add_confirm I_wake I_newconn
+  apply (D2_step_any cfg fx I (fun _ _ => True) I_chan_close I_del I_delconn I_closing I_ensure I_cur I_add_confirm I_wake I_newconn
            (fun s0 _ => I_restart s0) I_tick); auto.
   - intros s0 qn u _ H0. eapply I_frame; [apply (proj1 conns_queue_ops)|intros; apply msg_size_queue_push|exact H0].
   - intros s0 u z H0. eapply I_frame; [apply conns_upd_msg|intros; apply msg_size_upd_msg; reflexivity|exact H0].
@@ -569,8 +626,8 @@ Proof.
     + repeat match goal with |- context [if ?b then _ else _] => destruct b end; cbn [fst]; auto.
     + destruct passive; [destruct nowait; exact H|]. cbn [fst]. repeat same_conns. auto.
   - destruct (alookup _ _ _); [|exact H]. destruct (seqb ex ""); [exact H|].
-    destruct (queue_found s q); [|exact H]. destruct (locked _ _); [exact H|]. destruct (bad_xmatch _); [exact H|]. cbn [fst]. same_conns. auto.
-  - destruct (alookup _ _ _); [|exact H]. destruct (queue_found s q); [|exact H]. destruct (locked _ _); [exact H|]. destruct (bad_xmatch _); [exact H|]. cbn [fst]. same_conns. auto.
+    destruct (queue_found s q); [|exact H]. destruct (locked _ _); [exact H|]. destruct (bad_xmatch _); [exact H|]. destruct (extype_eqb _ ExTopic && bad_pattern _)%bool; [exact H|]. cbn [fst]. same_conns. auto.
+  - destruct (alookup _ _ _); [|exact H]. destruct (queue_found s q); [|exact H]. destruct (locked _ _); [exact H|]. destruct (bad_xmatch _); [exact H|]. destruct (extype_eqb _ ExTopic && bad_pattern _)%bool; [exact H|]. cbn [fst]. same_conns. auto.
   - destruct (queue_found s q) as [qu|]; [|exact H]. destruct (locked _ _); [exact H|]. cbn [fst].
     repeat (first [assumption | same_conns | match goal with |- allch _ (if ?b then _ else _) => destruct b end]).
   - destruct (queue_found s q); [|exact H]. destruct (locked _ _); [exact H|].
@@ -677,9 +734,9 @@ Qed.
 
 Theorem CB_step s l : CB s -> CB (fst (step cfg fx s l)).
 Proof.
-  intros H. apply (D_step cfg fx CB Hst Hco (fun s0 s' E _ => CB_conns s0 s' E) CB_chan_close CB_del CB_delconn CB_closing CB_ensure CB_cur
+  intros H. apply (D_step cfg fx CB (fun s0 s' E _ => CB_conns s0 s' E) CB_chan_close CB_del CB_delconn CB_closing CB_ensure CB_cur
                      CB_add_confirm CB_wake CB_newconn CB_restart CB_tick); auto.
-  - intros c h m Hg [A B]. split; [apply CI_handle_method; auto|apply BI_handle_method; auto].
+  - intros c h m Hg [A B]. apply (cguard_guard _ _ _ _ _ Hst Hco) in Hg. split; [apply CI_handle_method; auto|apply BI_handle_method; auto].
   - intros c h tag. destruct H as [A B]. split; [apply CI_consumer_turn; auto|apply BI_consumer_turn; auto].
   - intros c h ch u m len _ _ _ _. apply CB_conns. apply conns_upd_msg.
 Qed.
@@ -1367,8 +1424,8 @@ Proof.
     + repeat match goal with |- context [if ?b then _ else _] => destruct b end; cbn [fst]; auto.
     + destruct passive; [destruct nowait; exact H|]. cbn [fst]. repeat same_conns. auto.
   - destruct (alookup _ _ _); [|exact H]. destruct (seqb ex ""); [exact H|].
-    destruct (queue_found s q); [|exact H]. destruct (locked _ _); [exact H|]. destruct (bad_xmatch _); [exact H|]. cbn [fst]. same_conns. auto.
-  - destruct (alookup _ _ _); [|exact H]. destruct (queue_found s q); [|exact H]. destruct (locked _ _); [exact H|]. destruct (bad_xmatch _); [exact H|]. cbn [fst]. same_conns. auto.
+    destruct (queue_found s q); [|exact H]. destruct (locked _ _); [exact H|]. destruct (bad_xmatch _); [exact H|]. destruct (extype_eqb _ ExTopic && bad_pattern _)%bool; [exact H|]. cbn [fst]. same_conns. auto.
+  - destruct (alookup _ _ _); [|exact H]. destruct (queue_found s q); [|exact H]. destruct (locked _ _); [exact H|]. destruct (bad_xmatch _); [exact H|]. destruct (extype_eqb _ ExTopic && bad_pattern _)%bool; [exact H|]. cbn [fst]. same_conns. auto.
   - destruct (queue_found s q) as [qu|]; [|exact H]. destruct (locked _ _); [exact H|]. cbn [fst].
     repeat (first [assumption | same_conns | match goal with |- allch _ (if ?b then _ else _) => destruct b end]).
   - destruct (queue_found s q); [|exact H]. destruct (locked _ _); [exact H|].
@@ -1444,7 +1501,7 @@ Theorem CL_step s l : CB s -> Small s -> CL s -> CL (fst (step cfg fx s l)).
 Proof.
   intros Hcb Hsm H.
   assert (X : CBL (fst (step cfg fx s l))); [|exact (proj2 X)].
-  apply (D_step cfg fx CBL Hst Hco).
+  apply (D_step cfg fx CBL).
   - intros s0 s' E _ [A B]. split; [eapply CB_conns; eauto|eapply allch_same_conns; eauto].
   - intros s0 c h [A B]. split; [apply CB_chan_close; auto|]. destruct A. apply CL_channel_close; auto.
   - intros b s0 qn iu ie [A B]. split; [apply CB_del; auto|apply (V_vhost_delete_queue CLP CLP_vkeep); auto].
@@ -1458,7 +1515,7 @@ Proof.
   - intros s0. split; [apply CB_restart|apply allch_restart].
   - intros s0 c h ch E [A B]. destruct (CB_tick s0 c h ch E A) as [T1 T2]. destruct (V_tick CLP CLP_vkeep s0 c h ch E B) as [T3 T4].
     split; split; auto.
-  - intros c h m Hg [[A B] C]. split; [split; [apply CI_handle_method; auto|apply BI_handle_method; auto]|apply CL_handle_method; auto].
+  - intros c h m Hg [[A B] C]. apply (cguard_guard _ _ _ _ _ Hst Hco) in Hg. split; [split; [apply CI_handle_method; auto|apply BI_handle_method; auto]|apply CL_handle_method; auto].
   - intros c h tag. destruct Hcb as [A B]. split; [split; [apply CI_consumer_turn; auto|apply BI_consumer_turn; auto]|apply CL_consumer_turn; auto].
   - intros c h ch u m len _ _ _ _ [A B]. split; [eapply CB_conns; [apply conns_upd_msg|exact A]|eapply allch_same_conns; [apply conns_upd_msg|exact B]].
   - split; auto.
@@ -2020,8 +2077,8 @@ Proof.
     + repeat match goal with |- context [if ?b then _ else _] => destruct b end; cbn [fst]; auto.
     + destruct passive; [destruct nowait; exact H|]. cbn [fst]. repeat nsame. auto.
   - destruct (alookup _ _ _); [|exact H]. destruct (seqb ex ""); [exact H|].
-    destruct (queue_found s q); [|exact H]. destruct (locked _ _); [exact H|]. destruct (bad_xmatch _); [exact H|]. cbn [fst]. nsame. auto.
-  - destruct (alookup _ _ _); [|exact H]. destruct (queue_found s q); [|exact H]. destruct (locked _ _); [exact H|]. destruct (bad_xmatch _); [exact H|]. cbn [fst]. nsame. auto.
+    destruct (queue_found s q); [|exact H]. destruct (locked _ _); [exact H|]. destruct (bad_xmatch _); [exact H|]. destruct (extype_eqb _ ExTopic && bad_pattern _)%bool; [exact H|]. cbn [fst]. nsame. auto.
+  - destruct (alookup _ _ _); [|exact H]. destruct (queue_found s q); [|exact H]. destruct (locked _ _); [exact H|]. destruct (bad_xmatch _); [exact H|]. destruct (extype_eqb _ ExTopic && bad_pattern _)%bool; [exact H|]. cbn [fst]. nsame. auto.
   - destruct (queue_found s q) as [qu|]; [|exact H]. destruct (locked _ _); [exact H|]. cbn [fst].
     repeat (first [assumption | nsame | match goal with |- allcn _ (if ?b then _ else _) => destruct b end]).
   - destruct (queue_found s q); [|exact H]. destruct (locked _ _); [exact H|].
@@ -2115,7 +2172,7 @@ Theorem NL_step s l : CB s -> SmallC s -> NL s -> NL (fst (step cfg fx s l)).
 Proof.
   intros Hcb Hsm H.
   assert (X : CBN (fst (step cfg fx s l))); [|exact (proj2 X)].
-  apply (D_step cfg fx CBN Hst Hco).
+  apply (D_step cfg fx CBN).
   - intros s0 s' E _ [A B]. split; [eapply CB_conns; eauto|eapply allcn_same_conns; eauto].
   - intros s0 c h [A B]. split; [apply CB_chan_close; auto|]. destruct A. apply NL_channel_close; auto.
   - intros b s0 qn iu ie [A B]. split; [apply CB_del; auto|apply (N_vhost_delete_queue NLP NLP_keep); auto].
@@ -2129,7 +2186,7 @@ Proof.
   - intros s0. split; [apply CB_restart|apply allcn_restart].
   - intros s0 c h ch E [A B]. destruct (CB_tick s0 c h ch E A) as [T1 T2]. destruct (N_tick NLP NLP_keep s0 c h ch E B) as [T3 T4].
     split; split; auto.
-  - intros c h m Hg [[A B] C]. split; [split; [apply CI_handle_method; auto|apply BI_handle_method; auto]|].
+  - intros c h m Hg [[A B] C]. apply (cguard_guard _ _ _ _ _ Hst Hco) in Hg. split; [split; [apply CI_handle_method; auto|apply BI_handle_method; auto]|].
     apply NL_handle_method; auto. apply SmallC_ensure. exact Hsm.
   - intros c h tag. destruct Hcb as [A B]. split; [split; [apply CI_consumer_turn; auto|apply BI_consumer_turn; auto]|apply NL_consumer_turn; auto].
   - intros c h ch u m len _ _ _ _ [A B]. split; [eapply CB_conns; [apply conns_upd_msg|exact A]|eapply allcn_same_conns; [apply conns_upd_msg|exact B]].
@@ -2825,8 +2882,8 @@ Proof.
     + repeat match goal with |- context [if ?b then _ else _] => destruct b end; cbn [fst]; auto.
     + destruct passive; [destruct nowait; exact H|]. cbn [fst]. repeat same_conns. auto.
   - destruct (alookup _ _ _); [|exact H]. destruct (seqb ex ""); [exact H|].
-    destruct (queue_found s q); [|exact H]. destruct (locked _ _); [exact H|]. destruct (bad_xmatch _); [exact H|]. cbn [fst]. same_conns. auto.
-  - destruct (alookup _ _ _); [|exact H]. destruct (queue_found s q); [|exact H]. destruct (locked _ _); [exact H|]. destruct (bad_xmatch _); [exact H|]. cbn [fst]. same_conns. auto.
+    destruct (queue_found s q); [|exact H]. destruct (locked _ _); [exact H|]. destruct (bad_xmatch _); [exact H|]. destruct (extype_eqb _ ExTopic && bad_pattern _)%bool; [exact H|]. cbn [fst]. same_conns. auto.
+  - destruct (alookup _ _ _); [|exact H]. destruct (queue_found s q); [|exact H]. destruct (locked _ _); [exact H|]. destruct (bad_xmatch _); [exact H|]. destruct (extype_eqb _ ExTopic && bad_pattern _)%bool; [exact H|]. cbn [fst]. same_conns. auto.
   - destruct (queue_found s q) as [qu|]; [|exact H]. destruct (locked _ _); [exact H|]. cbn [fst].
     repeat (first [assumption | same_conns | match goal with |- allch _ (if ?b then _ else _) => destruct b end]).
   - destruct (queue_found s q); [|exact H]. destruct (locked _ _); [exact H|].
@@ -2913,9 +2970,9 @@ Proof.
     + repeat match goal with |- context [if ?b then _ else _] => destruct b end; cbn [fst]; apply szeq_refl.
     + destruct passive; [destruct nowait; apply szeq_refl|]. cbn [fst]. apply szeq_heap. reflexivity.
   - destruct (alookup _ _ _); [|apply szeq_refl]. destruct (seqb ex ""); [apply szeq_refl|].
-    destruct (queue_found s q); [|apply szeq_refl]. destruct (locked _ _); [apply szeq_refl|]. destruct (bad_xmatch _); [apply szeq_refl|]. apply szeq_heap; reflexivity.
+    destruct (queue_found s q); [|apply szeq_refl]. destruct (locked _ _); [apply szeq_refl|]. destruct (bad_xmatch _); [apply szeq_refl|]. destruct (extype_eqb _ ExTopic && bad_pattern _)%bool; [apply szeq_refl|]. apply szeq_heap; reflexivity.
   - destruct (alookup _ _ _); [|apply szeq_refl]. destruct (queue_found s q); [|apply szeq_refl]. destruct (locked _ _); [apply szeq_refl|].
-    destruct (bad_xmatch _); [apply szeq_refl|]. apply szeq_heap; reflexivity.
+    destruct (bad_xmatch _); [apply szeq_refl|]. destruct (extype_eqb _ ExTopic && bad_pattern _)%bool; [apply szeq_refl|]. apply szeq_heap; reflexivity.
   - destruct (queue_found s q) as [qu|]; [|apply szeq_refl]. destruct (locked _ _); [apply szeq_refl|]. cbn [fst].
     apply szeq_heap. destruct (q_durable qu); reflexivity.
   - destruct (queue_found s q); [|apply szeq_refl]. destruct (locked _ _); [apply szeq_refl|].
@@ -3016,12 +3073,11 @@ Definition CBY (s : state) : Prop := CI s /\ BL s.
 
 (* one step: the byte count of every channel window equals the body bytes of the channel's unsettled deliveries *)
 Theorem BL_step cfg fx s l :
-  cfg_rollback cfg = true -> fx_stage fx = true -> fx_chan_open fx = true ->
-  CI s -> UC s -> SmallB s -> BL s -> BL (fst (step cfg fx s l)).
+  cfg_rollback cfg = true -> CI s -> UC s -> SmallB s -> BL s -> BL (fst (step cfg fx s l)).
 Proof.
-  intros Hrb Hst Hco Hci Huc Hsm H.
+  intros Hrb Hci Huc Hsm H.
   assert (X : CBY (fst (step cfg fx s l))); [|exact (proj2 X)].
-  apply (D_step cfg fx CBY Hst Hco).
+  apply (D_step cfg fx CBY).
   - intros s0 s' E Esz [A B]. split; [eapply allch_same_conns; eauto|]. eapply BL_lift; [exact Esz|eapply allch_same_conns; eauto].
   - intros s0 c h [A B]. split; [apply CI_channel_close; auto|].
     eapply BL_lift; [apply szeq_channel_close|apply B_channel_close; auto; apply SZ_self].
@@ -3055,11 +3111,11 @@ Qed.
 Fixpoint bytes_along (cfg : config) (fx : fixes) (s : state) (ls : list label) : Prop :=
   (UC s /\ SmallB s) /\ match ls with [] => True | l :: t => bytes_along cfg fx (fst (step cfg fx s l)) t end.
 
-Theorem BL_run cfg fx ls : cfg_rollback cfg = true -> fx_stage fx = true -> fx_chan_open fx = true ->
+Theorem BL_run cfg fx ls : cfg_rollback cfg = true ->
   forall s, CI s -> BL s -> bytes_along cfg fx s ls -> BL (fst (run cfg fx s ls)).
 Proof.
-  intros Hrb Hst Hco. induction ls as [|l t IH]; intros s Hci H Hs; cbn [run]; auto.
-  destruct Hs as [[Hu Hs] Ht]. pose proof (BL_step cfg fx s l Hrb Hst Hco Hci Hu Hs H) as H1. pose proof (CI_step cfg fx s l Hci) as C1.
+  intros Hrb. induction ls as [|l t IH]; intros s Hci H Hs; cbn [run]; auto.
+  destruct Hs as [[Hu Hs] Ht]. pose proof (BL_step cfg fx s l Hrb Hci Hu Hs H) as H1. pose proof (CI_step cfg fx s l Hci) as C1.
   destruct (step cfg fx s l) as [s1 e1]. cbn [fst] in *. specialize (IH s1 C1 H1 Ht).
   destruct (run cfg fx s1 t) as [s2 e2]. exact IH.
 Qed.
@@ -3069,12 +3125,12 @@ Proof. intros c h ch Hg. unfold get_chan, get_conn in Hg. cbn in Hg. discriminat
 (* the byte ledger in every state of a run along which every unsettled delivery names a complete message (UC) and no
    delivery would wrap the uint32 byte counter (SmallB); Part 5 shows that UC always holds (byte_ledger_reachable) *)
 Theorem byte_ledger_reachable_partial cfg fx ls c h ch :
-  cfg_rollback cfg = true -> fx_stage fx = true -> fx_chan_open fx = true ->
+  cfg_rollback cfg = true ->
   bytes_along cfg fx (init cfg) ls ->
   get_chan (fst (run cfg fx (init cfg) ls)) c h = Some ch ->
   cs (ch_qos ch) = bsum (msz (fst (run cfg fx (init cfg) ls))) (ch_unacked ch).
 Proof.
-  intros Hrb Hst Hco Hs Hg. pose proof (BL_run cfg fx ls Hrb Hst Hco (init cfg) (CI_init cfg) (BL_init cfg) Hs _ _ _ Hg) as Hl.
+  intros Hrb Hs Hg. pose proof (BL_run cfg fx ls Hrb (init cfg) (CI_init cfg) (BL_init cfg) Hs _ _ _ Hg) as Hl.
   unfold BLP, bl in Hl. lia.
 Qed.
 
@@ -3260,9 +3316,9 @@ Proof.
     + repeat match goal with |- context [if ?b then _ else _] => destruct b end; cbn [fst]; apply veq_refl.
     + destruct passive; [destruct nowait; apply veq_refl|]. cbn [fst]. apply veq_hn. reflexivity.
   - destruct (alookup _ _ _); [|apply veq_refl]. destruct (seqb ex ""); [apply veq_refl|].
-    destruct (queue_found s q); [|apply veq_refl]. destruct (locked _ _); [apply veq_refl|]. destruct (bad_xmatch _); [apply veq_refl|]. apply veq_hn; reflexivity.
+    destruct (queue_found s q); [|apply veq_refl]. destruct (locked _ _); [apply veq_refl|]. destruct (bad_xmatch _); [apply veq_refl|]. destruct (extype_eqb _ ExTopic && bad_pattern _)%bool; [apply veq_refl|]. apply veq_hn; reflexivity.
   - destruct (alookup _ _ _); [|apply veq_refl]. destruct (queue_found s q); [|apply veq_refl]. destruct (locked _ _); [apply veq_refl|].
-    destruct (bad_xmatch _); [apply veq_refl|]. apply veq_hn; reflexivity.
+    destruct (bad_xmatch _); [apply veq_refl|]. destruct (extype_eqb _ ExTopic && bad_pattern _)%bool; [apply veq_refl|]. apply veq_hn; reflexivity.
   - destruct (queue_found s q) as [qu|]; [|apply veq_refl]. destruct (locked _ _); [apply veq_refl|]. cbn [fst].
     apply veq_hn. destruct (q_durable qu); reflexivity.
   - destruct (queue_found s q); [|apply veq_refl]. destruct (locked _ _); [apply veq_refl|].
@@ -3610,9 +3666,9 @@ Proof.
       match goal with |- IG ?G0 (set ?proj ?f ?st) => apply (IG_same G0 st); [reflexivity|reflexivity|] end.
       apply IG_set_queue; [intros x []|]. eapply IG_same; [| |exact H]; reflexivity.
   - destruct (alookup _ _ _); [|exact H]. destruct (seqb ex ""); [exact H|].
-    destruct (queue_found s q); [|exact H]. destruct (locked _ _); [exact H|]. destruct (bad_xmatch _); [exact H|]. cbn [fst].
+    destruct (queue_found s q); [|exact H]. destruct (locked _ _); [exact H|]. destruct (bad_xmatch _); [exact H|]. destruct (extype_eqb _ ExTopic && bad_pattern _)%bool; [exact H|]. cbn [fst].
     eapply IG_same; [| |exact H]; reflexivity.
-  - destruct (alookup _ _ _); [|exact H]. destruct (queue_found s q); [|exact H]. destruct (locked _ _); [exact H|]. destruct (bad_xmatch _); [exact H|]. cbn [fst].
+  - destruct (alookup _ _ _); [|exact H]. destruct (queue_found s q); [|exact H]. destruct (locked _ _); [exact H|]. destruct (bad_xmatch _); [exact H|]. destruct (extype_eqb _ ExTopic && bad_pattern _)%bool; [exact H|]. cbn [fst].
     eapply IG_same; [| |exact H]; reflexivity.
   - (* MQPurge *)
     destruct (queue_found s q) as [qu|]; [|exact H]. destruct (locked _ _); [exact H|]. cbn [fst].
@@ -3807,10 +3863,10 @@ Proof.
       destruct (x =? next_uid s) eqn:E1; [apply N.eqb_eq in E1; lia|]. apply B. exact Hg.
 Qed.
 
-Theorem RCI_step cfg fx s l : fx_stage fx = true -> fx_chan_open fx = true -> RCI s -> RCI (fst (step cfg fx s l)).
+Theorem RCI_step cfg fx s l : RCI s -> RCI (fst (step cfg fx s l)).
 Proof.
-  intros Hst Hco H.
-  apply (D2_step cfg fx RCI Ref Hst Hco).
+  intros H.
+  apply (D2_step_any cfg fx RCI Ref).
   - intros s0 c h [A B]. eapply RCI_lift; [apply veq_channel_close|exact A|apply IG_channel_close; exact B].
   - intros b s0 qn iu ie [A B]. eapply RCI_lift; [apply veq_hn, hn_vhost_delete_queue|exact A|apply IG_vhost_delete_queue; exact B].
   - intros s0 c [A B]. eapply RCI_lift; [apply veq_hn; reflexivity|exact A|].
@@ -3867,10 +3923,10 @@ Proof.
   - exact H.
 Qed.
 
-Theorem RCI_run cfg fx ls : fx_stage fx = true -> fx_chan_open fx = true -> forall s, RCI s -> RCI (fst (run cfg fx s ls)).
+Theorem RCI_run cfg fx ls : forall s, RCI s -> RCI (fst (run cfg fx s ls)).
 Proof.
-  intros Hst Hco. induction ls as [|l t IH]; intros s H; simpl; auto.
-  pose proof (RCI_step cfg fx s l Hst Hco H) as H1.
+  induction ls as [|l t IH]; intros s H; simpl; auto.
+  pose proof (RCI_step cfg fx s l H) as H1.
   destruct (step cfg fx s l) as [s1 e1]. cbn [fst] in H1.
   specialize (IH s1 H1). destruct (run cfg fx s1 t) as [s2 e2]. exact IH.
 Qed.
@@ -3891,10 +3947,10 @@ Qed.
 Fixpoint smallb_along (cfg : config) (fx : fixes) (s : state) (ls : list label) : Prop :=
   SmallB s /\ match ls with [] => True | l :: t => smallb_along cfg fx (fst (step cfg fx s l)) t end.
 
-Lemma bytes_along_of_small cfg fx ls : fx_stage fx = true -> fx_chan_open fx = true ->
+Lemma bytes_along_of_small cfg fx ls :
   forall s, RCI s -> smallb_along cfg fx s ls -> bytes_along cfg fx s ls.
 Proof.
-  intros Hst Hco. induction ls as [|l t IH]; intros s Hr Hs; cbn [smallb_along bytes_along] in *.
+  induction ls as [|l t IH]; intros s Hr Hs; cbn [smallb_along bytes_along] in *.
   - split; auto. split; [apply RCI_UC; exact Hr|exact (proj1 Hs)].
   - destruct Hs as [Hs Ht]. split; [split; [apply RCI_UC; exact Hr|exact Hs]|]. apply IH; auto. apply RCI_step; auto.
 Qed.
@@ -3903,23 +3959,22 @@ Lemma bsum_fold f l : bsum f l = fold_right (fun x acc => f (u_msg x) + acc) 0 l
 Proof. induction l as [|a t IH]; cbn; [reflexivity|]. rewrite IH. reflexivity. Qed.
 
 Theorem byte_ledger_reachable cfg fx ls c h ch :
-  cfg_rollback cfg = true -> fx_stage fx = true -> fx_chan_open fx = true ->
+  cfg_rollback cfg = true ->
   smallb_along cfg fx (init cfg) ls ->
   let s := fst (run cfg fx (init cfg) ls) in
   get_chan s c h = Some ch ->
   cs (ch_qos ch) = fold_right (fun x acc => msg_size s (u_msg x) mod two32 + acc) 0 (ch_unacked ch).
 Proof.
-  intros Hrb Hst Hco Hs s Hg.
-  pose proof (byte_ledger_reachable_partial cfg fx ls c h ch Hrb Hst Hco
-                (bytes_along_of_small cfg fx ls Hst Hco (init cfg) (RCI_init cfg) Hs) Hg) as Hl.
+  intros Hrb Hs s Hg.
+  pose proof (byte_ledger_reachable_partial cfg fx ls c h ch Hrb
+                (bytes_along_of_small cfg fx ls (init cfg) (RCI_init cfg) Hs) Hg) as Hl.
   rewrite Hl. apply bsum_fold.
 Qed.
 
 (* every message that an unsettled delivery, a queue or the persistent store refers to was allocated, and - if the heap
    holds it - has its header and all of its announced content: its size no longer changes *)
-Theorem references_complete_reachable cfg fx ls :
-  fx_stage fx = true -> fx_chan_open fx = true -> RCI (fst (run cfg fx (init cfg) ls)).
-Proof. intros Hst Hco. apply RCI_run; auto. apply RCI_init. Qed.
+Theorem references_complete_reachable cfg fx ls : RCI (fst (run cfg fx (init cfg) ls)).
+Proof. apply RCI_run. apply RCI_init. Qed.
 
 (* under a prefetch-size N > 0 the channel window accepts a delivery only while the unsettled bytes plus its own stay
    within N *)
@@ -3952,4 +4007,1918 @@ Lemma smallb_alongb_spec cfg fx ls : forall s, smallb_alongb cfg fx s ls = true 
 Proof.
   induction ls as [|l t IH]; intros s H; cbn [smallb_alongb smallb_along] in *; apply andb_prop in H; destruct H as [A B];
     (split; [apply smallbb_spec; exact A|auto]).
+Qed.
+
+(* ------------------------------------------------------------------ *)
+(* Part 6: the byte count of the consumer's own window (amqp-rabbit dialect); wf gives the size of a message *)
+Section YBytes.
+Variable wf : N -> N.
+Definition ycview (ch : channel) : list (string * N) := map (fun cm => (c_tag cm, cs (c_own cm))) (ch_consumers ch).
+(* the body bytes of the unsettled deliveries of a list that were made to the consumer tag t *)
+Definition ycnt (l : list unacked) (t : string) : N := bsum wf (filter (fun u => seqb (u_ctag u) t) l).
+Definition ykd (tag : string) (d : N) : string -> N := fun t => if seqb tag t then d else 0.
+Definition yw (x : unacked) : string -> N := ykd (u_ctag x) (wf (u_msg x)).
+Definition yk0 : string -> N := fun _ => 0.
+Definition yk1 (tag : string) : string -> N := fun t => if seqb tag t then 1 else 0.
+Definition ykadd (k k' : string -> N) : string -> N := fun t => k t + k' t.
+
+(* as cinv, with the bytes of each consumer's own window against the body bytes of its own unsettled deliveries *)
+Definition ycinv (k : string -> N) (ch : channel) : Prop :=
+  NoDup (map fst (ycview ch)) /\ ~ In ""%string (map fst (ycview ch)) /\
+  (forall u, In u (ch_unacked ch) -> u_ctag u <> ""%string -> In (u_ctag u) (map fst (ycview ch))) /\
+  (forall t n, In (t, n) (ycview ch) -> n = ycnt (ch_unacked ch) t + k t) /\
+  cs (ch_cqos ch) = 0.
+
+Lemma ycnt_nil t : ycnt [] t = 0. Proof. reflexivity. Qed.
+Lemma ycnt_cons a l t : ycnt (a :: l) t = yw a t + ycnt l t.
+Proof. unfold ycnt, yw, ykd. cbn [filter]. destruct (seqb (u_ctag a) t); cbn [bsum]; lia. Qed.
+Lemma ycnt_app l1 l2 t : ycnt (l1 ++ l2) t = ycnt l1 t + ycnt l2 t.
+Proof. induction l1 as [|a l IH]; cbn [app]; [rewrite ycnt_nil; lia|]. rewrite !ycnt_cons, IH. lia. Qed.
+Lemma ycnt_le l t : ycnt l t <= bsum wf l.
+Proof. induction l as [|a l IH]; [cbn; lia|]. rewrite ycnt_cons. unfold yw, ykd. cbn [bsum]. destruct (seqb _ _); lia. Qed.
+Lemma ycnt_zero l t : (forall u, In u l -> u_ctag u <> t) -> ycnt l t = 0.
+Proof.
+  induction l as [|a l IH]; intros H; [reflexivity|]. rewrite ycnt_cons, IH by (intros u Hu; apply H; right; exact Hu).
+  unfold yw, ykd. destruct (seqb (u_ctag a) t) eqn:E; [|reflexivity]. apply seqb_spec in E. exfalso. apply (H a); [left; reflexivity|exact E].
+Qed.
+Lemma yfilter_all_true {A} (p : A -> bool) l : (forall x, In x l -> p x = true) -> filter p l = l.
+Proof. induction l as [|a t IH]; intros H; cbn; auto. rewrite (H a (or_introl eq_refl)). f_equal. apply IH. intros x Hx. apply H. right. exact Hx. Qed.
+Lemma ycnt_del l u t : NoDup (map u_tag l) -> In u l ->
+  ycnt (filter (fun x => negb (u_tag x =? u_tag u)) l) t + yw u t = ycnt l t.
+Proof.
+  induction l as [|a r IH]; intros Hnd Hin; [destruct Hin|].
+  cbn in Hnd. inversion Hnd as [|? ? Hni Hnd']; subst. cbn [filter]. destruct (u_tag a =? u_tag u) eqn:E; cbn [negb].
+  - apply N.eqb_eq in E. assert (a = u).
+    { destruct Hin as [->|Hin]; auto. exfalso. apply Hni. rewrite E. apply in_map. exact Hin. }
+    subst a. rewrite yfilter_all_true, ycnt_cons; [lia|].
+    intros x Hx. apply Bool.negb_true_iff. apply N.eqb_neq. intros Ex. apply Hni. rewrite <- Ex. apply in_map. exact Hx.
+  - rewrite !ycnt_cons. destruct Hin as [->|Hin]; [rewrite N.eqb_refl in E; discriminate|]. rewrite <- (IH Hnd' Hin). lia.
+Qed.
+Lemma ycnt_orphan tag l t : t <> tag -> t <> ""%string -> ycnt (map (orphan tag) l) t = ycnt l t.
+Proof.
+  intros H1 H2. induction l as [|a r IH]; [reflexivity|]. cbn [map]. rewrite !ycnt_cons, IH. f_equal.
+  unfold yw, ykd, orphan. destruct (seqb (u_ctag a) tag) eqn:E; cbn [u_ctag u_msg]; [|reflexivity].
+  apply seqb_spec in E. rewrite E.
+  destruct (seqb "" t) eqn:E1; [apply seqb_spec in E1; congruence|]. destruct (seqb tag t) eqn:E2; [apply seqb_spec in E2; congruence|]. reflexivity.
+Qed.
+
+Lemma yfst_cview ch : map fst (ycview ch) = map c_tag (ch_consumers ch).
+Proof. unfold ycview. rewrite map_map. reflexivity. Qed.
+Lemma yin_cview ch cm : In cm (ch_consumers ch) -> In (c_tag cm, cs (c_own cm)) (ycview ch).
+Proof. intros H. unfold ycview. apply (in_map (fun cm => (c_tag cm, cs (c_own cm)))). exact H. Qed.
+
+Lemma ycinv_keep k ch ch' :
+  ch_unacked ch' = ch_unacked ch -> ycview ch' = ycview ch -> cs (ch_cqos ch') = cs (ch_cqos ch) -> ycinv k ch -> ycinv k ch'.
+Proof. unfold ycinv. intros -> -> ->. auto. Qed.
+Lemma ycinv_ext k k' ch : (forall t, k t = k' t) -> ycinv k ch -> ycinv k' ch.
+Proof. unfold ycinv. intros E (A & B & C & D & F). repeat split; auto. intros t n Hin. rewrite <- E. auto. Qed.
+Lemma ycinv_channel0 k : ycinv k channel0.
+Proof. unfold ycinv. cbn. repeat split; auto; try constructor; intros; contradiction. Qed.
+
+Lemma yconsume_msg_view cm : c_tag (fst (consume_msg cm)) = c_tag cm /\ c_own (fst (consume_msg cm)) = c_own cm.
+Proof. unfold consume_msg. destruct (c_status cm); [destruct (c_token cm)|..]; cbn; auto. Qed.
+
+Lemma ycview_map f l :
+  (forall cm, In cm l -> c_tag (f cm) = c_tag cm /\ cs (c_own (f cm)) = cs (c_own cm)) ->
+  map (fun cm => (c_tag cm, cs (c_own cm))) (map f l) = map (fun cm => (c_tag cm, cs (c_own cm))) l.
+Proof. intros H. rewrite map_map. apply map_ext_in. intros cm Hin. destruct (H cm Hin) as [-> ->]. reflexivity. Qed.
+Lemma ycview_upd_consumer ch tag f :
+  (forall cm, In cm (ch_consumers ch) -> seqb (c_tag cm) tag = true -> c_tag (f cm) = c_tag cm /\ cs (c_own (f cm)) = cs (c_own cm)) ->
+  ycview (upd_consumer ch tag f) = ycview ch.
+Proof.
+  intros H. unfold ycview, upd_consumer. cbn. apply ycview_map. intros cm Hin. destruct (seqb (c_tag cm) tag) eqn:E; auto.
+Qed.
+
+Lemma YNoDup_map_inj {A B} (f : A -> B) l x y : NoDup (map f l) -> In x l -> In y l -> f x = f y -> x = y.
+Proof.
+  induction l as [|a t IH]; intros Hnd Hx Hy E; [destruct Hx|]. cbn in Hnd. inversion Hnd as [|? ? Hni Hnd']; subst.
+  destruct Hx as [->|Hx]; destruct Hy as [->|Hy]; auto.
+  - exfalso. apply Hni. rewrite E. apply in_map. exact Hy.
+  - exfalso. apply Hni. rewrite <- E. apply in_map. exact Hx.
+Qed.
+
+(* primitives that keep every channel's unsettled list, consumer tags and own-window counts *)
+Section YVGen.
+Variable P : N -> N -> channel -> Prop.
+Hypothesis P_vkeep : forall c h ch ch',
+  ch_unacked ch' = ch_unacked ch -> ycview ch' = ycview ch -> cs (ch_cqos ch') = cs (ch_cqos ch) -> P c h ch -> P c h ch'.
+Hypothesis P_nodup : forall c h ch, P c h ch -> NoDup (map fst (ycview ch)).
+
+Ltac yvkeep := apply allch_upd_chan; [intros ch0 Hch0; eapply P_vkeep; [..|exact Hch0]; try reflexivity|].
+Ltac yvset Ech H := apply allch_set_chan; [eapply P_vkeep; [..|exact (H _ _ _ Ech)]; try reflexivity|].
+
+Lemma YV_wake s c h tag : allch P s -> allch P (fst (wake_consumer s c h tag)).
+Proof.
+  intros H. unfold wake_consumer. destruct (get_chan s c h) as [ch|] eqn:E; auto.
+  destruct (find_consumer ch tag) as [cm|] eqn:Ef; auto. destruct (consume_msg cm) as [cm' b] eqn:Ec. cbn [fst].
+  yvset E H; auto. apply ycview_upd_consumer. intros x Hx Ex.
+  apply find_consumer_in in Ef. destruct Ef as [Hin Et]. apply seqb_spec in Ex.
+  assert (x = cm).
+  { apply (YNoDup_map_inj c_tag (ch_consumers ch)); auto; [|congruence]. rewrite <- yfst_cview. eapply P_nodup. exact (H _ _ _ E). }
+  subst x. pose proof (yconsume_msg_view cm) as Hv. rewrite Ec in Hv. cbn [fst] in Hv. destruct Hv as [-> ->]. auto.
+Qed.
+
+Lemma YV_consumer_stop s c h tag : allch P s -> allch P (consumer_stop s c h tag).
+Proof.
+  intros H. unfold consumer_stop. destruct (get_chan s c h) as [ch|] eqn:E; auto.
+  destruct (find_consumer ch tag) as [cm|]; auto.
+  destruct (c_status cm); auto; (eapply allch_same_conns; [apply (proj2 (proj2 (proj2 conns_queue_ops)))|]);
+    (yvset E H; auto; apply ycview_upd_consumer; intros; cbn; auto).
+Qed.
+
+Lemma YV_wake_all s c h : allch P s -> allch P (wake_all_of_chan s c h).
+Proof.
+  intros H. unfold wake_all_of_chan. yvkeep; auto. unfold ycview. cbn. apply ycview_map. intros cm _.
+  destruct (yconsume_msg_view cm) as [-> ->]. auto.
+Qed.
+
+Lemma YV_wake_consumers cfg s c h : allch P s -> allch P (wake_consumers cfg s c h).
+Proof.
+  intros H. unfold wake_consumers. pose proof (YV_wake_all s c h H) as H1.
+  destruct (cfg_rabbit cfg); auto. destruct (get_conn _ c) as [cn|]; auto.
+  apply fold_left_preserves; auto. intros s0 x H0. destruct (fst x =? h); auto. apply YV_wake_all; auto.
+Qed.
+
+Lemma YV_chan_ackmsg s u : allch P s -> allch P (chan_ackmsg s u).
+Proof. intros H. unfold chan_ackmsg. destruct (origin_queue s u); repeat same_conns; auto. Qed.
+Lemma YV_chan_rejectmsg s u r : allch P s -> allch P (chan_rejectmsg s u r).
+Proof. intros H. unfold chan_rejectmsg. destruct (origin_queue s u); [destruct r|]; repeat same_conns; auto. Qed.
+
+Lemma YV_cancel_fold l : forall s evs, allch P s ->
+  allch P (fst (fold_left (fun acc x => let '(s, evs) := acc in let '(s', e) := consumer_cancel s x in (s', evs ++ e)) l (s, evs))).
+Proof. induction l as [|[[c h] tag] t IH]; intros s evs H; simpl; auto. apply IH. apply YV_consumer_stop; auto. Qed.
+
+Lemma YV_vhost_delete_queue b s qn iu ie : allch P s -> allch P (fst (fst (vhost_delete_queue b s qn iu ie))).
+Proof.
+  intros H. unfold vhost_delete_queue. destruct (get_queue s qn) as [qu|] eqn:Eq; auto.
+  destruct (_ || _).
+  - cbn [fst]. destruct b; [eapply allch_same_conns; [apply conns_set_queue|exact H]|exact H].
+  - pose proof (YV_cancel_fold (q_consumers qu) s [] H) as Hf.
+    destruct (fold_left _ (q_consumers qu) (s, [])) as [s1 e1]. cbn [fst] in *.
+    repeat (first [ assumption | match goal with |- allch _ (if ?b then _ else _) => destruct b end | same_conns ]).
+Qed.
+
+Lemma YV_add_confirm s c h t : allch P s -> allch P (add_confirm s c h t).
+Proof.
+  intros H. unfold add_confirm. destruct (get_chan s c h) as [ch|] eqn:E; auto. destruct (negb _); auto.
+  destruct (ch_status ch) eqn:Es; auto; destruct t as [[[? ?] ?]|]; auto; yvset E H; auto.
+Qed.
+
+Lemma YV_closing s c h : allch P s -> allch P (upd_chan s c h (fun ch => ch <| ch_status := ChClosing |>)).
+Proof. intros H. yvkeep; auto. Qed.
+Lemma YV_cur s c h : allch P s -> allch P (upd_chan s c h (fun ch => ch <| ch_cur := None |>)).
+Proof. intros H. yvkeep; auto. Qed.
+Lemma YV_tick s c h ch : get_chan s c h = Some ch -> allch P s ->
+  allch P (set_chan s c h (ch <| ch_ticker := false |>)) /\ allch P (set_chan s c h (ch <| ch_confirmq := [] |>)).
+Proof. intros E H. split; yvset E H; auto. Qed.
+
+Section YVSettle.
+Variables (c0 h0 : N).
+Hypothesis P_del0 : forall ch tag, P c0 h0 ch -> P c0 h0 (del_unacked ch tag).
+Hypothesis P_dec0 : forall ch t sz, P c0 h0 ch -> P c0 h0 (upd_consumer ch t (fun cm => cm <| c_own ::= fun w => qos_dec w sz |>)).
+
+Lemma YV_dec_qos cfg s u : allch P s -> allch P (dec_qos_and_consume_next cfg s c0 h0 u).
+Proof.
+  intros H. unfold dec_qos_and_consume_next. destruct (get_chan s c0 h0) as [ch|]; auto.
+  apply YV_wake_consumers.
+  assert (H1 : allch P (upd_chan s c0 h0 (fun ch => ch <| ch_qos ::= fun w => qos_dec w (msg_size s (u_msg u) mod two32) |>))) by (yvkeep; auto).
+  destruct (find_consumer ch (u_ctag u)).
+  - destruct (cfg_rabbit cfg).
+    + apply allch_upd_chan; auto.
+    + destruct (get_conn _ c0) eqn:Ec; auto. eapply allch_set_conn_qos; eauto.
+  - destruct (get_conn _ c0) eqn:Ec; auto. eapply allch_set_conn_qos; eauto.
+Qed.
+
+Lemma YV_handle_reject cfg s tag mult requeue cls mth : allch P s -> allch P (fst (handle_reject cfg s c0 h0 tag mult requeue cls mth)).
+Proof.
+  intros H. unfold handle_reject. destruct (get_chan s c0 h0) as [ch|]; auto.
+  destruct mult.
+  - cbn [fst]. apply fold_left_preserves; [intros; apply YV_dec_qos; auto|].
+    apply fold_left_preserves; auto. intros s0 a H0. apply YV_chan_rejectmsg. apply allch_upd_chan; auto.
+  - destruct (find _ _); cbn [fst]; auto. apply YV_dec_qos. apply YV_chan_rejectmsg. apply allch_upd_chan; auto.
+Qed.
+End YVSettle.
+End YVGen.
+
+(* ---- what each primitive does to one channel's consumer ledger ---- *)
+Definition yvmap (t0 : string) (g : N -> N) (v : list (string * N)) : list (string * N) :=
+  map (fun p => if seqb (fst p) t0 then (fst p, g (snd p)) else p) v.
+Lemma yfst_vmap t0 g v : map fst (yvmap t0 g v) = map fst v.
+Proof. unfold yvmap. rewrite map_map. apply map_ext. intros p. destruct (seqb (fst p) t0); reflexivity. Qed.
+Lemma yin_vmap t0 g v t n' : In (t, n') (yvmap t0 g v) -> exists n, In (t, n) v /\ n' = if seqb t t0 then g n else n.
+Proof.
+  unfold yvmap. intros H. apply in_map_iff in H. destruct H as ([t1 n1] & E & Hin). cbn [fst snd] in E.
+  exists n1. destruct (seqb t1 t0) eqn:Eb; injection E as E1 E2; rewrite <- E1, <- E2, Eb; auto.
+Qed.
+Lemma ycview_dec ch t0 sz :
+  ycview (upd_consumer ch t0 (fun cm => cm <| c_own ::= fun w => qos_dec w sz |>)) = yvmap t0 (fun n => if n <? sz then 0 else n - sz) (ycview ch).
+Proof.
+  unfold ycview, yvmap, upd_consumer. cbn. rewrite !map_map. apply map_ext. intros cm. cbn. destruct (seqb (c_tag cm) t0); reflexivity.
+Qed.
+Lemma ycview_setown ch t0 b :
+  ycview (upd_consumer ch t0 (fun cm => cm <| c_own := b |>)) = yvmap t0 (fun _ => cs b) (ycview ch).
+Proof.
+  unfold ycview, yvmap, upd_consumer. cbn. rewrite !map_map. apply map_ext. intros cm. cbn. destruct (seqb (c_tag cm) t0); reflexivity.
+Qed.
+
+Lemma ycinv_on_view k k' ch : (forall t, In t (map fst (ycview ch)) -> k t = k' t) -> ycinv k ch -> ycinv k' ch.
+Proof.
+  unfold ycinv. intros E (A & B & C & D & F). repeat split; auto. intros t n Hin. rewrite <- E; auto.
+  apply (in_map fst) in Hin. exact Hin.
+Qed.
+
+Lemma ycinv_del k ch u :
+  NoDup (map u_tag (ch_unacked ch)) -> In u (ch_unacked ch) -> ycinv k ch -> ycinv (ykadd k (yw u)) (del_unacked ch (u_tag u)).
+Proof.
+  intros Hnd Hin (A & B & C & D & F). unfold ycinv, del_unacked, ykadd. change (ycview (ch <| ch_unacked := _ |>)) with (ycview ch). cbn [ch_unacked ch_cqos set].
+  repeat split; auto.
+  - intros x Hx. apply filter_In in Hx. apply C. tauto.
+  - intros t n Ht. rewrite (D t n Ht). rewrite <- (ycnt_del (ch_unacked ch) u t Hnd Hin). cbn. lia.
+Qed.
+
+Lemma yseqb_sym a b : seqb a b = seqb b a. Proof. apply String.eqb_sym. Qed.
+Lemma yseqb_refl a : seqb a a = true. Proof. apply String.eqb_refl. Qed.
+
+Lemma ycinv_dec_consumer k ch t0 sz :
+  ycinv (ykadd k (ykd t0 sz)) ch -> ycinv k (upd_consumer ch t0 (fun cm => cm <| c_own ::= fun w => qos_dec w sz |>)).
+Proof.
+  intros (A & B & C & D & F). unfold ycinv. rewrite ycview_dec, yfst_vmap. change (ch_unacked (upd_consumer _ _ _)) with (ch_unacked ch).
+  change (ch_cqos (upd_consumer _ _ _)) with (ch_cqos ch). repeat split; auto.
+  intros t n' Hin. apply yin_vmap in Hin. destruct Hin as (n & Hin & ->). pose proof (D t n Hin) as Hn. unfold ykadd, ykd in Hn.
+  rewrite (yseqb_sym t0 t) in Hn. destruct (seqb t t0); [|lia].
+  destruct (n <? sz) eqn:E; [apply N.ltb_lt in E; lia|lia].
+Qed.
+
+Lemma ycinv_setown ch tag b d :
+  ycinv yk0 ch -> (forall n, In (tag, n) (ycview ch) -> cs b = n + d) -> ycinv (ykd tag d) (upd_consumer ch tag (fun cm => cm <| c_own := b |>)).
+Proof.
+  intros (A & B & C & D & F) Hb. unfold ycinv. rewrite ycview_setown, yfst_vmap. change (ch_unacked (upd_consumer _ _ _)) with (ch_unacked ch).
+  change (ch_cqos (upd_consumer _ _ _)) with (ch_cqos ch). repeat split; auto.
+  intros t n' Hin. apply yin_vmap in Hin. destruct Hin as (n & Hin & ->). pose proof (D t n Hin) as Hn. unfold yk0 in Hn. unfold ykd.
+  rewrite (yseqb_sym tag t). destruct (seqb t tag) eqn:E; [|lia]. apply seqb_spec in E. subst t. rewrite (Hb n Hin). lia.
+Qed.
+
+Lemma ycinv_append k ch x :
+  ycinv (ykadd k (yw x)) ch -> (u_ctag x = ""%string \/ In (u_ctag x) (map fst (ycview ch))) ->
+  ycinv k (ch <| ch_unacked ::= fun l => l ++ [x] |>).
+Proof.
+  intros (A & B & C & D & F) Hx. unfold ycinv. change (ycview (ch <| ch_unacked ::= _ |>)) with (ycview ch). cbn [ch_unacked ch_cqos set].
+  repeat split; auto.
+  - intros u Hu Hne. apply in_app_or in Hu. destruct Hu as [Hu|[<-|[]]]; [apply C; auto|]. destruct Hx as [Hx|Hx]; [contradiction|exact Hx].
+  - intros t n Ht. rewrite (D t n Ht). rewrite ycnt_app, ycnt_cons, ycnt_nil. unfold ykadd. lia.
+Qed.
+
+Lemma ycinv_append_get ch x : u_ctag x = ""%string -> ycinv yk0 ch -> ycinv yk0 (ch <| ch_unacked ::= fun l => l ++ [x] |>).
+Proof.
+  intros Ex H. apply ycinv_append; [|left; exact Ex]. eapply ycinv_on_view; [|exact H].
+  intros t Ht. unfold ykadd, yk0, yw, ykd. rewrite Ex. destruct (seqb "" t) eqn:E; [|reflexivity].
+  apply seqb_spec in E. subst t. destruct H as (_ & B & _). contradiction.
+Qed.
+
+Lemma ycinv_consume ch cm :
+  ycinv yk0 ch -> ~ In (c_tag cm) (map c_tag (ch_consumers ch)) -> c_tag cm <> ""%string -> cs (c_own cm) = 0 ->
+  ycinv yk0 (ch <| ch_consumers ::= fun l => l ++ [cm] |>).
+Proof.
+  intros (A & B & C & D & F) Hni Hne Hz. unfold ycinv.
+  assert (Ev : ycview (ch <| ch_consumers ::= fun l => l ++ [cm] |>) = ycview ch ++ [(c_tag cm, cs (c_own cm))]).
+  { unfold ycview. cbn. rewrite map_app. reflexivity. }
+  rewrite Ev, map_app. cbn [map fst ch_unacked ch_cqos set]. rewrite yfst_cview in *. repeat split; auto.
+  - apply NoDup_snoc; auto.
+  - intros X. apply in_app_or in X. destruct X as [X|[X|[]]]; [contradiction|]. apply Hne. exact X.
+  - intros u Hu Hn. apply in_or_app. left. apply C; auto.
+  - intros t n Ht. apply in_app_or in Ht. destruct Ht as [Ht|[Ht|[]]]; [apply D; auto|]. inversion Ht; subst. unfold yk0.
+    rewrite ycnt_zero; [lia|]. intros u Hu Eu. apply Hni. rewrite <- Eu. apply C; auto. rewrite Eu. exact Hne.
+Qed.
+
+Lemma ycview_filter ch tag :
+  ycview (ch <| ch_consumers ::= filter (fun cm => negb (seqb (c_tag cm) tag)) |>) = filter (fun p => negb (seqb (fst p) tag)) (ycview ch).
+Proof.
+  unfold ycview. cbn. induction (ch_consumers ch) as [|a l IH]; [reflexivity|]. cbn [filter map fst].
+  destruct (seqb (c_tag a) tag); cbn [negb map]; [exact IH|]. f_equal. exact IH.
+Qed.
+
+Lemma ycinv_cancel ch tag :
+  ycinv yk0 ch -> ycinv yk0 (ch <| ch_consumers ::= filter (fun cm => negb (seqb (c_tag cm) tag)) |> <| ch_unacked ::= map (orphan tag) |>).
+Proof.
+  intros (A & B & C & D & F). unfold ycinv.
+  change (ycview (ch <| ch_consumers ::= filter (fun cm => negb (seqb (c_tag cm) tag)) |> <| ch_unacked ::= map (orphan tag) |>))
+    with (ycview (ch <| ch_consumers ::= filter (fun cm => negb (seqb (c_tag cm) tag)) |>)).
+  rewrite ycview_filter. cbn [ch_unacked ch_cqos set]. repeat split; auto.
+  - apply NoDup_map_filter. exact A.
+  - intros X. apply in_map_iff in X. destruct X as (p & E & Hp). apply filter_In in Hp. apply B. rewrite <- E. apply in_map. tauto.
+  - intros u' Hu Hne. apply in_map_iff in Hu. destruct Hu as (u & <- & Hu). unfold orphan in *.
+    destruct (seqb (u_ctag u) tag) eqn:E; [cbn in Hne; contradiction|].
+    pose proof (C u Hu Hne) as Hin. apply in_map_iff in Hin. destruct Hin as (p & Ep & Hp). apply in_map_iff. exists p. split; auto.
+    apply filter_In. split; auto. rewrite Ep, E. reflexivity.
+  - intros t n Ht. apply filter_In in Ht. destruct Ht as [Ht Hb]. cbn [fst] in Hb. rewrite (D t n Ht). f_equal.
+    symmetry. apply ycnt_orphan.
+    + intros ->. rewrite yseqb_refl in Hb. discriminate.
+    + intros ->. apply B. apply (in_map fst) in Ht. exact Ht.
+Qed.
+
+Lemma ycinv_empty k ch : ch_consumers ch = [] -> ch_unacked ch = [] -> cs (ch_cqos ch) = 0 -> ycinv k ch.
+Proof. intros E1 E2 E3. unfold ycinv, ycview. rewrite E1, E2. cbn. repeat split; auto; try constructor; intros; contradiction. Qed.
+
+(* ---- the offset trick, per consumer tag ---- *)
+Definition YCLoff (c0 h0 : N) (k : string -> N) (c h : N) (ch : channel) : Prop :=
+  ycinv (if (c =? c0) && (h =? h0) then k else yk0) ch.
+Definition YCLP (c h : N) (ch : channel) : Prop := ycinv yk0 ch.
+Notation YCL := (allch YCLP).
+
+Lemma YCLoff_zero c0 h0 s : allch (YCLoff c0 h0 yk0) s <-> YCL s.
+Proof.
+  unfold allch, YCLoff, YCLP. split; intros H c h ch Hg; specialize (H c h ch Hg); destruct ((c =? c0) && (h =? h0)); auto.
+Qed.
+Lemma YCLoff_vkeep c0 h0 k : forall c h ch ch',
+  ch_unacked ch' = ch_unacked ch -> ycview ch' = ycview ch -> cs (ch_cqos ch') = cs (ch_cqos ch) -> YCLoff c0 h0 k c h ch -> YCLoff c0 h0 k c h ch'.
+Proof. unfold YCLoff. intros. eapply ycinv_keep; eauto. Qed.
+Lemma YCLoff_nodup c0 h0 k : forall c h ch, YCLoff c0 h0 k c h ch -> NoDup (map fst (ycview ch)).
+Proof. unfold YCLoff. intros c h ch H. exact (proj1 H). Qed.
+Lemma YCLP_vkeep : forall c h ch ch',
+  ch_unacked ch' = ch_unacked ch -> ycview ch' = ycview ch -> cs (ch_cqos ch') = cs (ch_cqos ch) -> YCLP c h ch -> YCLP c h ch'.
+Proof. unfold YCLP. intros. eapply ycinv_keep; eauto. Qed.
+Lemma YCLP_nodup : forall c h ch, YCLP c h ch -> NoDup (map fst (ycview ch)).
+Proof. unfold YCLP. intros c h ch H. exact (proj1 H). Qed.
+
+Lemma yat_other c0 h0 c h : (c =? c0) && (h =? h0) = true -> c = c0 /\ h = h0.
+Proof. intros Eb. apply andb_prop in Eb. destruct Eb as [E1 E2]. apply N.eqb_eq in E1, E2. auto. Qed.
+
+Lemma YCLoff_ext c0 h0 k k' s : (forall t, k t = k' t) -> allch (YCLoff c0 h0 k) s -> allch (YCLoff c0 h0 k') s.
+Proof.
+  intros E H c h ch Hg. pose proof (H _ _ _ Hg) as H1. unfold YCLoff in *. destruct ((c =? c0) && (h =? h0)); auto.
+  eapply ycinv_ext; eauto.
+Qed.
+Lemma YCLoff_none c0 h0 k k' s : get_chan s c0 h0 = None -> allch (YCLoff c0 h0 k) s -> allch (YCLoff c0 h0 k') s.
+Proof.
+  intros En H c h ch Hg. pose proof (H _ _ _ Hg) as H1. unfold YCLoff in *. destruct ((c =? c0) && (h =? h0)) eqn:Eb; auto.
+  apply yat_other in Eb. destruct Eb; subst. congruence.
+Qed.
+Lemma YCLoff_shift_at s c0 h0 ka kb f ch :
+  get_chan s c0 h0 = Some ch -> ycinv kb (f ch) -> allch (YCLoff c0 h0 ka) s -> allch (YCLoff c0 h0 kb) (upd_chan s c0 h0 f).
+Proof.
+  intros Ech Hf H c h ch' Hg. rewrite get_chan_upd_chan in Hg. unfold YCLoff. destruct ((c =? c0) && (h =? h0)) eqn:Eb.
+  - rewrite Ech in Hg. cbn in Hg. inversion Hg; subst. exact Hf.
+  - pose proof (H _ _ _ Hg) as H1. unfold YCLoff in H1. rewrite Eb in H1. exact H1.
+Qed.
+Lemma YCLoff_shift s c0 h0 ka kb f :
+  (forall ch, ycinv ka ch -> ycinv kb (f ch)) -> allch (YCLoff c0 h0 ka) s -> allch (YCLoff c0 h0 kb) (upd_chan s c0 h0 f).
+Proof.
+  intros Hf H. destruct (get_chan s c0 h0) as [ch|] eqn:Ech.
+  - eapply YCLoff_shift_at; eauto. apply Hf. pose proof (H _ _ _ Ech) as H1. unfold YCLoff in H1. rewrite !N.eqb_refl in H1. exact H1.
+  - unfold upd_chan. rewrite Ech. eapply YCLoff_none; eauto.
+Qed.
+
+Section YCKeep.
+Variables (c0 h0 : N) (k : string -> N).
+Definition YC_wake := YV_wake (YCLoff c0 h0 k) (YCLoff_vkeep c0 h0 k) (YCLoff_nodup c0 h0 k).
+Definition YC_wake_consumers := YV_wake_consumers (YCLoff c0 h0 k) (YCLoff_vkeep c0 h0 k).
+Definition YC_chan_ackmsg := YV_chan_ackmsg (YCLoff c0 h0 k).
+Definition YC_chan_rejectmsg := YV_chan_rejectmsg (YCLoff c0 h0 k).
+End YCKeep.
+
+(* removing the entry of one delivery puts its consumer one ahead *)
+Lemma YC_del s c0 h0 k u ch :
+  get_chan s c0 h0 = Some ch -> NoDup (map u_tag (ch_unacked ch)) -> In u (ch_unacked ch) ->
+  allch (YCLoff c0 h0 k) s -> allch (YCLoff c0 h0 (ykadd k (yw u))) (upd_chan s c0 h0 (fun ch => del_unacked ch (u_tag u))).
+Proof.
+  intros Ech Hnd Hin H. eapply YCLoff_shift_at; eauto. apply ycinv_del; auto.
+  pose proof (H _ _ _ Ech) as H1. unfold YCLoff in H1. rewrite !N.eqb_refl in H1. exact H1.
+Qed.
+
+Lemma yfind_consumer_none ch tag : find_consumer ch tag = None -> ~ In tag (map fst (ycview ch)).
+Proof.
+  unfold find_consumer. intros Hf Hin. rewrite yfst_cview in Hin. apply in_map_iff in Hin. destruct Hin as (cm & E & Hin).
+  pose proof (find_none _ _ Hf cm Hin) as Hn. cbn in Hn. rewrite E, yseqb_refl in Hn. discriminate.
+Qed.
+
+(* releasing the windows takes it one back *)
+Lemma YC_dec cfg s c0 h0 k u :
+  cfg_rabbit cfg = true -> msz s (u_msg u) = wf (u_msg u) ->
+  allch (YCLoff c0 h0 (ykadd k (yw u))) s -> allch (YCLoff c0 h0 k) (dec_qos_and_consume_next cfg s c0 h0 u).
+Proof.
+  intros Hrab Hsz H. unfold dec_qos_and_consume_next. destruct (get_chan s c0 h0) as [ch|] eqn:Ech; [|eapply YCLoff_none; eauto].
+  apply YC_wake_consumers. rewrite Hrab. change (msg_size s (u_msg u) mod two32) with (msz s (u_msg u)). rewrite Hsz.
+  set (f := fun ch : channel => ch <| ch_qos ::= fun w => qos_dec w (wf (u_msg u)) |>).
+  assert (H1 : allch (YCLoff c0 h0 (ykadd k (yw u))) (upd_chan s c0 h0 f)).
+  { apply allch_upd_chan; [|exact H]. intros ch1 Hc1. eapply YCLoff_vkeep; [..|exact Hc1]; reflexivity. }
+  destruct (find_consumer ch (u_ctag u)) eqn:Ef.
+  - apply (YCLoff_shift _ c0 h0 (ykadd k (yw u)) k); [|exact H1]. intros ch1. apply ycinv_dec_consumer.
+  - assert (H2 : allch (YCLoff c0 h0 k) (upd_chan s c0 h0 f)).
+    { eapply YCLoff_shift_at; eauto. pose proof (H _ _ _ Ech) as H0. unfold YCLoff in H0. rewrite !N.eqb_refl in H0. cbn [andb] in H0.
+      eapply ycinv_keep; [..|eapply ycinv_on_view; [|exact H0]]; try reflexivity.
+      intros t Ht. unfold ykadd, yw, ykd. destruct (seqb (u_ctag u) t) eqn:E; [|lia]. apply seqb_spec in E. subst t.
+      exfalso. exact (yfind_consumer_none _ _ Ef Ht). }
+    destruct (get_conn _ c0) eqn:Ec; auto. eapply allch_set_conn_qos; eauto.
+Qed.
+
+Section YCSettle.
+Variables (c0 h0 : N).
+Variable g : state -> unacked -> state.
+Hypothesis g_eq : forall s u, exists s1, s1 = upd_chan s c0 h0 (fun ch => del_unacked ch (u_tag u)) /\
+  (forall k, allch (YCLoff c0 h0 k) s1 -> allch (YCLoff c0 h0 k) (g s u)) /\ U (g s u) c0 h0 = U s1 c0 h0.
+
+Lemma YC_fold_del sel : forall s k,
+  NoDup (map u_tag sel) -> (forall u, In u sel -> In u (U s c0 h0)) -> NoDup (map u_tag (U s c0 h0)) ->
+  allch (YCLoff c0 h0 k) s -> allch (YCLoff c0 h0 (ykadd k (ycnt sel))) (fold_left g sel s).
+Proof.
+  induction sel as [|a t IH]; intros s k Hnd Hin Hu H; cbn [fold_left].
+  - eapply YCLoff_ext; [|exact H]. intros x. unfold ykadd. rewrite ycnt_nil. lia.
+  - cbn in Hnd. inversion Hnd as [|? ? Hni Hnd']; subst.
+    destruct (g_eq s a) as (s1 & Es1 & Hk & HU).
+    assert (Ha : In a (U s c0 h0)) by (apply Hin; left; reflexivity).
+    destruct (get_chan s c0 h0) as [ch|] eqn:Ech; [|unfold U in Ha; rewrite Ech in Ha; destruct Ha].
+    rewrite (U_some _ _ _ _ Ech) in *.
+    assert (H1 : allch (YCLoff c0 h0 (ykadd k (yw a))) (g s a)).
+    { apply Hk. subst s1. eapply YC_del; eauto. }
+    assert (HU1 : U (g s a) c0 h0 = filter (fun u => negb (u_tag u =? u_tag a)) (ch_unacked ch)).
+    { rewrite HU. subst s1. rewrite del_unacked_U. rewrite (U_some _ _ _ _ Ech). reflexivity. }
+    eapply YCLoff_ext; [|apply (IH (g s a) (ykadd k (yw a))); auto].
+    + intros x. unfold ykadd. rewrite ycnt_cons. lia.
+    + intros u Hu'. rewrite HU1. apply filter_In. split; [apply Hin; right; exact Hu'|].
+      apply Bool.negb_true_iff. apply N.eqb_neq. intros E. apply Hni. rewrite <- E. apply in_map. exact Hu'.
+    + rewrite HU1. apply NoDup_map_filter. exact Hu.
+Qed.
+End YCSettle.
+
+Lemma YC_fold_dec cfg c0 h0 sel : cfg_rabbit cfg = true -> forall s k,
+  SZ wf s -> allch (YCLoff c0 h0 (ykadd k (ycnt sel))) s ->
+  allch (YCLoff c0 h0 k) (fold_left (fun s u => dec_qos_and_consume_next cfg s c0 h0 u) sel s).
+Proof.
+  intros Hrab. induction sel as [|a t IH]; intros s k Hs H; cbn [fold_left].
+  - eapply YCLoff_ext; [|exact H]. intros x. unfold ykadd. rewrite ycnt_nil. lia.
+  - apply IH; [eapply SZ_szeq; [apply szeq_heap, heap_dec_qos|exact Hs]|]. apply YC_dec; auto. eapply YCLoff_ext; [|exact H]. intros x. unfold ykadd. rewrite ycnt_cons. lia.
+Qed.
+
+Theorem YCL_handle_ack cfg s c h tag mult :
+  cfg_rabbit cfg = true -> SZ wf s -> CI s -> YCL s -> YCL (fst (handle_ack cfg s c h tag mult)).
+Proof.
+  intros Hrab Hs Hci H. unfold handle_ack. destruct (get_chan s c h) as [ch|] eqn:Ech; auto.
+  pose proof (Hci _ _ _ Ech) as [Hnd _].
+  destruct mult.
+  - cbn [fst]. apply (YCLoff_zero c h). apply (YC_fold_dec cfg c h _ Hrab _ yk0).
+    { eapply SZ_szeq; [|exact Hs]. apply szeq_fold. intros s0 u. eapply szeq_trans; [apply szeq_upd_chan|apply szeq_chan_ackmsg]. }
+    apply (YC_fold_del c h (fun s u => chan_ackmsg (upd_chan s c h (fun ch => del_unacked ch (u_tag u))) u)).
+    + intros s0 u. eexists. split; [reflexivity|]. split; [intros k; apply YC_chan_ackmsg|apply U_chan_ackmsg].
+    + apply NoDup_map_filter. exact Hnd.
+    + intros u Hu. rewrite (U_some _ _ _ _ Ech). apply filter_In in Hu. tauto.
+    + rewrite (U_some _ _ _ _ Ech). exact Hnd.
+    + apply YCLoff_zero. exact H.
+  - destruct (find _ (ch_unacked ch)) as [u|] eqn:Ef; cbn [fst]; auto.
+    apply find_some in Ef. destruct Ef as [Hin Et]. apply N.eqb_eq in Et. subst tag.
+    apply (YCLoff_zero c h). apply YC_dec; auto.
+    { rewrite <- (Hs (u_msg u)). unfold msz. f_equal. exact (szeq_trans _ _ _ (szeq_upd_chan s c h _) (szeq_chan_ackmsg _ u) (u_msg u)). }
+    apply YC_chan_ackmsg.
+    eapply YC_del; eauto. apply YCLoff_zero. exact H.
+Qed.
+
+Theorem YCL_handle_reject cfg s c h tag mult requeue cls mth :
+  cfg_rabbit cfg = true -> SZ wf s -> CI s -> YCL s -> YCL (fst (handle_reject cfg s c h tag mult requeue cls mth)).
+Proof.
+  intros Hrab Hs Hci H. unfold handle_reject. destruct (get_chan s c h) as [ch|] eqn:Ech; auto.
+  pose proof (Hci _ _ _ Ech) as [Hnd _].
+  destruct mult.
+  - cbn [fst]. apply (YCLoff_zero c h). apply (YC_fold_dec cfg c h _ Hrab _ yk0).
+    { eapply SZ_szeq; [|exact Hs]. apply szeq_fold. intros s0 u. eapply szeq_trans; [apply szeq_upd_chan|apply szeq_chan_rejectmsg]. }
+    apply (YC_fold_del c h (fun s u => chan_rejectmsg (upd_chan s c h (fun ch => del_unacked ch (u_tag u))) u requeue)).
+    + intros s0 u. eexists. split; [reflexivity|]. split; [intros k; apply YC_chan_rejectmsg|apply U_chan_rejectmsg].
+    + apply NoDup_map_filter. apply NoDup_sort_desc. exact Hnd.
+    + intros u Hu. rewrite (U_some _ _ _ _ Ech). apply filter_In in Hu. apply sort_desc_perm. tauto.
+    + rewrite (U_some _ _ _ _ Ech). exact Hnd.
+    + apply YCLoff_zero. exact H.
+  - destruct (find _ (ch_unacked ch)) as [u|] eqn:Ef; cbn [fst]; auto.
+    apply find_some in Ef. destruct Ef as [Hin Et]. apply N.eqb_eq in Et. subst tag.
+    apply (YCLoff_zero c h). apply YC_dec; auto.
+    { rewrite <- (Hs (u_msg u)). unfold msz. f_equal. exact (szeq_trans _ _ _ (szeq_upd_chan s c h _) (szeq_chan_rejectmsg _ u requeue) (u_msg u)). }
+    apply YC_chan_rejectmsg.
+    eapply YC_del; eauto. apply YCLoff_zero. exact H.
+Qed.
+
+(* ---- deliveries: the consumer's own window is charged, then the entry is appended ---- *)
+Definition YCLoffT (c0 h0 : N) (k : string -> N) (tag : string) (c h : N) (ch : channel) : Prop :=
+  YCLoff c0 h0 k c h ch /\ (c = c0 -> h = h0 -> In tag (map fst (ycview ch))).
+Lemma YCLoffT_vkeep c0 h0 k tag : forall c h ch ch',
+  ch_unacked ch' = ch_unacked ch -> ycview ch' = ycview ch -> cs (ch_cqos ch') = cs (ch_cqos ch) -> YCLoffT c0 h0 k tag c h ch -> YCLoffT c0 h0 k tag c h ch'.
+Proof. unfold YCLoffT. intros c h ch ch' E1 E2 E3 [A B]. split; [eapply YCLoff_vkeep; eauto|]. rewrite E2. exact B. Qed.
+Lemma YCLoffT_to_CL c0 h0 k tag s : (forall t, k t = 0) -> allch (YCLoffT c0 h0 k tag) s -> YCL s.
+Proof.
+  intros Hk H c h ch Hg. destruct (H _ _ _ Hg) as [A _]. unfold YCLoff in A. unfold YCLP. destruct ((c =? c0) && (h =? h0)); auto.
+  eapply ycinv_ext; [|exact A]. intros t. rewrite Hk. reflexivity.
+Qed.
+
+(* the second window of a two-window reservation: charged once on success, untouched on refusal (with or without
+   the roll-back of the first) *)
+Lemma yreserve2_second rb w1 w2 size r ws' :
+  reserve rb [w1; w2] size = (r, ws') ->
+  exists a b, ws' = [a; b] /\ match r with Some _ => cs b = (cs w2 + size) mod two32 | None => b = w2 end.
+Proof.
+  intros H. cbn [reserve] in H. destruct (qos_inc w1 size) as [w1'|]; [|inversion H; subst; eauto].
+  destruct (qos_inc w2 size) as [w2'|] eqn:E2; inversion H; subst; eexists _, _; (split; [reflexivity|]); auto.
+  unfold qos_inc in E2. destruct (_ && _)%bool; inversion E2; subst. reflexivity.
+Qed.
+
+Lemma YC_store_windows cfg s c h tag a b d ch :
+  cfg_rabbit cfg = true -> get_chan s c h = Some ch -> In tag (map fst (ycview ch)) ->
+  (forall n, In (tag, n) (ycview ch) -> cs b = n + d) -> YCL s ->
+  allch (YCLoffT c h (ykd tag d) tag) (store_windows cfg s c h tag [a; b]).
+Proof.
+  intros Hrab Ech Hin Hb H. unfold store_windows. rewrite Hrab.
+  intros c' h' ch' Hg. rewrite !get_chan_upd_chan in Hg. destruct ((c' =? c) && (h' =? h)) eqn:Eb.
+  - apply yat_other in Eb. destruct Eb; subst. rewrite !N.eqb_refl, Ech in Hg. cbn in Hg. inversion Hg; subst. split.
+    + unfold YCLoff. rewrite !N.eqb_refl. cbn [andb]. apply ycinv_setown; [|exact Hb].
+      eapply ycinv_keep; [..|exact (H _ _ _ Ech)]; reflexivity.
+    + intros _ _. rewrite ycview_setown, yfst_vmap. exact Hin.
+  - split; [unfold YCLoff; rewrite Eb; exact (H _ _ _ Hg)|]. intros -> ->. rewrite !N.eqb_refl in Eb. discriminate.
+Qed.
+
+Lemma YC_append s c h x : allch (YCLoffT c h (yw x) (u_ctag x)) s -> YCL (upd_chan s c h (fun ch => ch <| ch_unacked ::= fun l => l ++ [x] |>)).
+Proof.
+  intros H c' h' ch' Hg. rewrite get_chan_upd_chan in Hg. destruct ((c' =? c) && (h' =? h)) eqn:Eb.
+  - apply yat_other in Eb. destruct Eb; subst. destruct (get_chan s c h) as [ch|] eqn:E; cbn in Hg; inversion Hg; subst.
+    destruct (H _ _ _ E) as [A B]. unfold YCLoff in A. rewrite !N.eqb_refl in A. cbn [andb] in A. unfold YCLP.
+    apply ycinv_append; [|right; apply B; auto]. eapply ycinv_ext; [|exact A]. intros t. unfold ykadd, yk0. lia.
+  - destruct (H _ _ _ Hg) as [A _]. unfold YCLoff in A. rewrite Eb in A. exact A.
+Qed.
+
+Definition YCL_wake := YV_wake YCLP YCLP_vkeep YCLP_nodup.
+Definition YCL_consumer_stop := YV_consumer_stop YCLP YCLP_vkeep.
+Definition YCL_wake_consumers := YV_wake_consumers YCLP YCLP_vkeep.
+
+Theorem YCL_consumer_turn cfg fx s c h tag :
+  cfg_rabbit cfg = true -> SZ wf s -> SmallBf wf s -> YCL s -> YCL (fst (consumer_turn cfg fx s c h tag)).
+Proof.
+  intros Hrab Hsz Hsm H. unfold consumer_turn.
+  destruct (get_chan s c h) as [ch|] eqn:Ech; auto.
+  destruct (find_consumer ch tag) as [cm|] eqn:Efc; auto.
+  destruct (negb (c_token cm)); auto.
+  set (s0 := set_chan s c h _).
+  assert (Ev : ycview (upd_consumer ch tag (fun cm => cm <| c_token := false |>)) = ycview ch)
+    by (apply ycview_upd_consumer; intros; cbn; auto).
+  assert (H0 : YCL s0).
+  { subst s0. apply allch_set_chan; auto. eapply YCLP_vkeep; [..|exact (H _ _ _ Ech)]; try reflexivity. exact Ev. }
+  assert (Ech0 : exists ch0, get_chan s0 c h = Some ch0 /\ ycview ch0 = ycview ch /\ ch_unacked ch0 = ch_unacked ch).
+  { subst s0. rewrite get_chan_set_chan. pose proof (get_chan_conn _ _ _ _ Ech) as Hc. destruct (get_conn s c); [|congruence].
+    rewrite !N.eqb_refl. cbn [andb]. eexists. split; [reflexivity|]. split; [exact Ev|reflexivity]. }
+  destruct Ech0 as (ch0 & Ech0 & Ev0 & Eu0).
+  assert (Ecn0 : exists cn0, get_conn s0 c = Some cn0).
+  { pose proof (get_chan_conn _ _ _ _ Ech0) as Hc. destruct (get_conn s0 c); [eauto|congruence]. }
+  destruct Ecn0 as (cn0 & Ecn0).
+  assert (Hsz0 : SZ wf s0) by (subst s0; eapply SZ_szeq; [apply szeq_heap, heap_set_chan'|exact Hsz]).
+  assert (Hq0 : forall q, get_queue s0 q = get_queue s q) by (intros q; subst s0; unfold get_queue; rewrite queues_set_chan; reflexivity).
+  clearbody s0. clear Ev.
+  apply find_consumer_in in Efc. destruct Efc as [Hcm Etag].
+  pose proof (H _ _ _ Ech) as (_ & _ & _ & Hd & _).
+  assert (Hown : cs (c_own cm) = ycnt (ch_unacked ch) tag).
+  { rewrite (Hd tag (cs (c_own cm))); [unfold yk0; lia|]. rewrite <- Etag. apply yin_cview. exact Hcm. }
+  assert (Hin0 : In tag (map fst (ycview ch0))).
+  { rewrite Ev0, yfst_cview, <- Etag. apply in_map. exact Hcm. }
+  assert (Hn0 : forall n, In (tag, n) (ycview ch0) -> n = cs (c_own cm)).
+  { intros n Hn. rewrite Ev0 in Hn. rewrite (Hd _ _ Hn), Hown. unfold yk0. lia. }
+  destruct (c_status cm); auto.
+  all: destruct (get_queue s0 (c_queue cm)) as [qu|] eqn:Eqq; auto.
+  all: destruct (negb (q_active qu)); auto.
+  all: destruct (q_ready qu) as [|u rest] eqn:Erd; auto.
+  all: destruct (c_noack cm) eqn:Ena.
+  (* no-ack: no window, no entry *)
+  all: try (cbn [fst];
+            match goal with |- context [wake_consumer ?st ?c0 ?h0 ?tag0] => destruct (wake_consumer st c0 h0 tag0) as [s9 b9] eqn:Ew;
+              apply fst_pair in Ew; cbn [fst]; subst s9; apply YCL_wake end;
+            repeat (first [ assumption | same_conns | match goal with |- allch _ (if ?b then _ else _) => destruct b end
+                          | apply allch_upd_chan; [intros; assumption|] ]); fail).
+  (* ack mode *)
+  all: unfold window_list; rewrite Ech0, Ecn0, Hrab.
+  all: change (msg_size s0 u mod two32) with (msz s0 u); rewrite (Hsz0 u).
+  all: assert (Hs1 : cs (c_own cm) + wf u < two32)
+         by (rewrite Hown; pose proof (ycnt_le (ch_unacked ch) tag); rewrite Hq0 in Eqq; pose proof (Hsm _ _ _ _ _ _ _ Ech Eqq Erd); lia).
+  all: destruct (reserve (cfg_rollback cfg) [ch_qos ch0; c_own cm] (wf u)) as [okr ws] eqn:Er.
+  all: destruct (yreserve2_second _ _ _ _ _ _ Er) as (a & b & -> & Hb).
+  all: destruct okr as [l|]; cbn [fst].
+  all: try (apply (YCLoffT_to_CL c h (ykd tag 0) tag); [intros t; unfold ykd; destruct (seqb tag t); reflexivity|];
+            eapply YC_store_windows; eauto; intros n Hn; rewrite (Hn0 n Hn), Hb; lia).
+  all: match goal with |- context [wake_consumer ?st ?c0 ?h0 ?tag0] => destruct (wake_consumer st c0 h0 tag0) as [s9 b9] eqn:Ew;
+         apply fst_pair in Ew; cbn [fst]; subst s9; apply YCL_wake end.
+  all: repeat same_conns.
+  all: apply YC_append.
+  all: apply allch_upd_chan; [intros; assumption|].
+  all: repeat same_conns.
+  all: eapply YC_store_windows; eauto; intros n Hn; rewrite (Hn0 n Hn), Hb; rewrite N.mod_small by exact Hs1; reflexivity.
+Qed.
+
+(* ---- channel.close: the consumers go first, then every unsettled delivery is requeued ---- *)
+Definition yclR (c0 h0 : N) (c h : N) (ch : channel) : Prop :=
+  if (c =? c0) && (h =? h0) then ch_consumers ch = [] /\ cs (ch_cqos ch) = 0 else YCLP c h ch.
+Lemma ycview_nil ch : ycview ch = [] <-> ch_consumers ch = [].
+Proof. unfold ycview. split; intros H; [eapply map_eq_nil; eauto|rewrite H; reflexivity]. Qed.
+Lemma yclR_vkeep c0 h0 : forall c h ch ch',
+  ch_unacked ch' = ch_unacked ch -> ycview ch' = ycview ch -> cs (ch_cqos ch') = cs (ch_cqos ch) -> yclR c0 h0 c h ch -> yclR c0 h0 c h ch'.
+Proof.
+  unfold yclR. intros c h ch ch' E1 E2 E3. destruct ((c =? c0) && (h =? h0)); [|apply YCLP_vkeep; auto].
+  intros [A B]. split; [|congruence]. apply ycview_nil. rewrite E2. apply ycview_nil. exact A.
+Qed.
+Lemma yclR_nodup c0 h0 : forall c h ch, yclR c0 h0 c h ch -> NoDup (map fst (ycview ch)).
+Proof.
+  unfold yclR. intros c h ch. destruct ((c =? c0) && (h =? h0)); [|apply YCLP_nodup].
+  intros [A _]. apply ycview_nil in A. rewrite A. constructor.
+Qed.
+
+Lemma YCL_channel_close cfg s c h : CI s -> BI s -> YCL s -> YCL (channel_close cfg s c h).
+Proof.
+  intros Hci Hbi H. destruct (get_chan s c h) as [ch|] eqn:Ech; [|unfold channel_close; rewrite Ech; exact H].
+  rewrite (channel_close_eq cfg s c h ch Ech). destruct (channel_close_shape cfg s c h ch Hci Ech) as (_ & Hsh).
+  assert (H3 : allch (yclR c h) (close_mid cfg s c h ch)).
+  { unfold close_mid.
+    set (s1 := fold_left (fun s cm => consumer_stop s c h (c_tag cm)) (ch_consumers ch) s).
+    assert (H1 : YCL s1) by (subst s1; apply fold_left_preserves; auto; intros; apply YCL_consumer_stop; auto).
+    clearbody s1.
+    assert (H2 : allch (yclR c h) (upd_chan s1 c h (fun ch => ch <| ch_consumers := [] |>))).
+    { intros c' h' ch' Hg. rewrite get_chan_upd_chan in Hg. unfold yclR. destruct ((c' =? c) && (h' =? h)) eqn:Eb; [|apply H1; auto].
+      apply yat_other in Eb. destruct Eb; subst. destruct (get_chan s1 c h) as [ch1|] eqn:E1; cbn in Hg; inversion Hg; subst.
+      split; [reflexivity|]. pose proof (H1 _ _ _ E1) as (_ & _ & _ & _ & F). exact F. }
+    destruct (0 <? h); auto.
+    apply (YV_handle_reject (yclR c h) (yclR_vkeep c h) c h); auto.
+    - intros ch0 tag. unfold yclR. rewrite !N.eqb_refl. cbn. auto.
+    - intros ch0 t sz. unfold yclR. rewrite !N.eqb_refl. cbn. intros [A B]. rewrite A. auto. }
+  set (s3 := close_mid cfg s c h ch) in *. clearbody s3.
+  intros c' h' ch' Hg. rewrite get_chan_upd_chan in Hg. destruct ((c' =? c) && (h' =? h)) eqn:Eb.
+  - apply yat_other in Eb. destruct Eb; subst. destruct (get_chan s3 c h) as [ch3|] eqn:E3; cbn in Hg; inversion Hg; subst.
+    pose proof (H3 _ _ _ E3) as Hr. unfold yclR in Hr. rewrite !N.eqb_refl in Hr. destruct Hr as [A B].
+    destruct (Hsh _ eq_refl) as (_ & U1 & U2). apply ycinv_empty; cbn; auto.
+    destruct (0 <? h) eqn:E0; [auto|]. rewrite U2 by reflexivity. apply N_ltb_0 in E0. exact (proj1 (Hbi _ _ _ Ech (or_intror E0))).
+  - pose proof (H3 _ _ _ Hg) as Hr. unfold yclR in Hr. rewrite Eb in Hr. exact Hr.
+Qed.
+
+Lemma yeff_tag_nonempty s t : eff_tag s t <> ""%string.
+Proof.
+  unfold eff_tag. destruct (seqb t "") eqn:E.
+  - unfold gen_tag. cbn [String.append]. discriminate.
+  - intros X. rewrite X in E. cbn in E. discriminate.
+Qed.
+
+Lemma ycview_flow ch a f :
+  ycview (ch <| ch_flow := a |> <| ch_consumers ::= map f |>) = map (fun cm => (c_tag cm, cs (c_own cm))) (map f (ch_consumers ch)).
+Proof. reflexivity. Qed.
+
+Ltac ycvkeep := apply allch_upd_chan; [intros ch0 Hch0; eapply YCLP_vkeep; [..|exact Hch0]; try reflexivity|].
+Ltac ycvset Ech H := apply allch_set_chan; [eapply YCLP_vkeep; [..|exact (H _ _ _ Ech)]; try reflexivity|].
+
+Theorem YCL_handle_method cfg fx s c h m :
+  cfg_rabbit cfg = true -> fx_closeok_releases fx = true -> SZ wf s -> CI s -> BI s -> YCL s -> YCL (fst (fst (handle_method cfg fx s c h m))).
+Proof.
+  intros Hrab Hcr Hsz Hci Hbi H. unfold handle_method.
+  destruct (get_chan s c h) as [ch|] eqn:Hch; [|exact H].
+  destruct m; unfold ok, refuse.
+  - (* MChannelOpen *)
+    destruct (ch_status ch) eqn:Es; cbn [fst]; auto.
+    + ycvset Hch H. auto.
+    + ycvset Hch H. auto.
+    + destruct (fx_reopen_resets fx); [|ycvset Hch H; auto].
+      apply allch_set_chan; auto. destruct (Hbi _ _ _ Hch (or_introl Es)) as [A B]. apply ycinv_empty; cbn; auto.
+  - cbn [fst]. apply YCL_channel_close; auto.
+  - cbn [fst]. rewrite Hcr. apply YCL_channel_close; auto.
+  - (* MChannelFlow *)
+    cbn [fst]. destruct (Bool.eqb _ _); auto.
+    destruct a; (ycvset Hch H; auto; rewrite ycview_flow; apply ycview_map; intros cm _).
+    + destruct (c_status cm); try (split; reflexivity);
+        destruct (yconsume_msg_view (cm <| c_status := CStarted |>)) as [E1 E2]; rewrite E1, E2; split; reflexivity.
+    + destruct (c_status cm); split; reflexivity.
+  - destruct (extype_of type); [|exact H].
+    repeat match goal with |- context [if ?b then _ else _] => destruct b end; cbn [fst]; auto.
+    all: repeat match goal with |- context [match ?x with _ => _ end] => destruct x end; cbn [fst]; auto.
+    all: try (same_conns; auto).
+  - destruct (fx_not_impl fx); exact H.
+  - destruct (seqb name ""); [exact H|].
+    destruct (queue_found s name) as [qu|].
+    + repeat match goal with |- context [if ?b then _ else _] => destruct b end; cbn [fst]; auto.
+    + destruct passive; [destruct nowait; exact H|]. cbn [fst]. repeat same_conns. auto.
+  - destruct (alookup _ _ _); [|exact H]. destruct (seqb ex ""); [exact H|].
+    destruct (queue_found s q); [|exact H]. destruct (locked _ _); [exact H|]. destruct (bad_xmatch _); [exact H|]. destruct (extype_eqb _ ExTopic && bad_pattern _)%bool; [exact H|]. cbn [fst]. same_conns. auto.
+  - destruct (alookup _ _ _); [|exact H]. destruct (queue_found s q); [|exact H]. destruct (locked _ _); [exact H|]. destruct (bad_xmatch _); [exact H|]. destruct (extype_eqb _ ExTopic && bad_pattern _)%bool; [exact H|]. cbn [fst]. same_conns. auto.
+  - destruct (queue_found s q) as [qu|]; [|exact H]. destruct (locked _ _); [exact H|]. cbn [fst].
+    repeat (first [assumption | same_conns | match goal with |- allch _ (if ?b then _ else _) => destruct b end]).
+  - destruct (queue_found s q); [|exact H]. destruct (locked _ _); [exact H|].
+    pose proof (YV_vhost_delete_queue YCLP YCLP_vkeep (negb (fx_delete_checks_first fx)) s q ifunused ifempty H) as Hd.
+    destruct (vhost_delete_queue _ s q ifunused ifempty) as [[s1 e1] r1]. cbn [fst] in *. destruct r1; exact Hd.
+  - (* MQos: Update keeps the counts *)
+    cbn [fst]. apply YCL_wake_consumers. rewrite Hrab. destruct glob; (ycvset Hch H; auto).
+  - destruct imm; [exact H|]. destruct (alookup _ _ _); [|exact H].
+    destruct (ch_confirm ch); cbn [fst]; (ycvset Hch H; repeat same_conns; auto).
+  - (* MConsume *)
+    destruct (queue_found s q) as [qu|]; [|exact H].
+    destruct (fx_excl_owner fx && locked qu c); [exact H|].
+    destruct (find_consumer ch _) eqn:Ef; [exact H|].
+    destruct (_ && _)%bool; cbn [fst].
+    + same_conns. auto.
+    + apply allch_set_chan; [|destruct (seqb tag ""%string); repeat same_conns; auto].
+      pose proof (H _ _ _ Hch) as Hc. apply ycinv_consume; auto.
+      * cbn. rewrite <- yfst_cview. apply yfind_consumer_none. exact Ef.
+      * cbn. apply yeff_tag_nonempty.
+      * cbn. exact (proj2 (proj2 (proj2 (proj2 Hc)))).
+  - (* MCancel *)
+    destruct (find_consumer ch tag); [|exact H]. cbn [fst].
+    apply allch_upd_chan2; [intros ch0 Hc0; apply ycinv_cancel; exact Hc0|]. apply YCL_consumer_stop. exact H.
+  - (* MGet *)
+    destruct (queue_found s q) as [qu|]; [|exact H].
+    destruct (fx_excl_owner fx && locked qu c); [exact H|].
+    destruct (q_ready qu) as [|u rest]; [exact H|].
+    match goal with |- context [if noack then (Some [], []) else ?r] => destruct (if noack then (Some [], []) else r) as [okr ws] end.
+    set (s1 := match ws with [w1; w2] => _ | _ => s end).
+    assert (H1 : YCL s1).
+    { subst s1. destruct ws as [|w1 [|w2 [|]]]; auto.
+      destruct (get_conn _ c) eqn:Ec.
+      - eapply allch_set_conn_qos; eauto. ycvset Hch H. auto.
+      - ycvset Hch H. auto. }
+    clearbody s1.
+    destruct okr; cbn [fst]; [|exact H1].
+    same_conns.
+    set (s3 := upd_queue s1 q _). assert (H3 : YCL s3) by (subst s3; same_conns; auto). clearbody s3.
+    destruct noack.
+    all: repeat (first [ assumption | same_conns | match goal with |- allch _ (if ?b then _ else _) => destruct b end ]).
+    all: first [ ycvkeep; assumption
+               | apply allch_upd_chan; [intros ch0 Hc0; apply ycinv_append_get; [reflexivity|exact Hc0]|]; ycvkeep; assumption ].
+  - pose proof (YCL_handle_ack cfg s c h tag mult Hrab Hsz Hci H) as Ha.
+    destruct (handle_ack cfg s c h tag mult) as [s1 e1]. exact Ha.
+  - pose proof (YCL_handle_reject cfg s c h tag mult requeue 60 120 Hrab Hsz Hci H) as Ha.
+    destruct (handle_reject cfg s c h tag mult requeue 60 120) as [s1 e1]. exact Ha.
+  - pose proof (YCL_handle_reject cfg s c h tag false requeue 60 90 Hrab Hsz Hci H) as Ha.
+    destruct (handle_reject cfg s c h tag false requeue 60 90) as [s1 e1]. exact Ha.
+  - exact H.
+  - cbn [fst]. ycvset Hch H. auto.
+  - destruct (fx_not_impl fx); exact H.
+  - exact H.
+  - exact H.
+  - destruct good; [cbn [fst]; apply allch_set_stage; exact H|exact H].
+  - destruct within; [cbn [fst]; apply allch_set_stage; exact H|exact H].
+  - destruct vhost_ok; [cbn [fst]; apply allch_set_stage; exact H|exact H].
+Qed.
+
+
+End YBytes.
+
+(* ---- with the sizes of the state itself: every label ---- *)
+Definition YB (s : state) : Prop := allch (YCLP (msz s)) s.
+
+Lemma ycnt_ext_in wf wf' l t : (forall x, In x l -> wf (u_msg x) = wf' (u_msg x)) -> ycnt wf l t = ycnt wf' l t.
+Proof. intros H. unfold ycnt. apply bsum_ext_in. intros x Hx. apply filter_In in Hx. apply H. tauto. Qed.
+Lemma ycinv_wf_ext wf wf' k ch : (forall x, In x (ch_unacked ch) -> wf (u_msg x) = wf' (u_msg x)) -> ycinv wf k ch -> ycinv wf' k ch.
+Proof.
+  unfold ycinv. intros E (A & B & C & D & F). repeat split; auto. intros t n Hin. rewrite <- (ycnt_ext_in wf wf' _ t E). auto.
+Qed.
+Lemma YB_rebase wf s' :
+  (forall c h ch x, get_chan s' c h = Some ch -> In x (ch_unacked ch) -> wf (u_msg x) = msz s' (u_msg x)) ->
+  allch (YCLP wf) s' -> YB s'.
+Proof. intros E H c h ch Hg. apply (ycinv_wf_ext wf); [intros x Hx; eapply E; eauto|exact (H _ _ _ Hg)]. Qed.
+Lemma YB_lift s s' : szeq s s' -> allch (YCLP (msz s)) s' -> YB s'.
+Proof. intros E. apply YB_rebase. intros c h ch x _ _. unfold msz. rewrite E. reflexivity. Qed.
+
+Theorem YB_handle_method cfg fx s c h m :
+  cfg_rabbit cfg = true -> fx_closeok_releases fx = true -> CI s -> BI s -> UC s -> YB s -> YB (fst (fst (handle_method cfg fx s c h m))).
+Proof.
+  intros Hrab Hcr Hci Hbi Huc H.
+  pose proof (YCL_handle_method (msz s) cfg fx s c h m Hrab Hcr (SZ_self s) Hci Hbi H) as Hf.
+  destruct (is_publish m) eqn:Ep; [|eapply YB_lift; [apply szeq_handle_method; exact Ep|exact Hf]].
+  destruct m; try discriminate Ep.
+  destruct (publish_frame cfg fx s c h ex key mand imm) as [Hsz HU]. cbv zeta in Hsz, HU.
+  apply (YB_rebase (msz s)); [|exact Hf]. intros c' h' ch' x Hg Hx.
+  assert (Hx' : In x (U s c' h')) by (rewrite <- HU; unfold U; rewrite Hg; exact Hx).
+  apply U_in in Hx'. destruct Hx' as (ch0 & Eg0 & Hx0). destruct (Huc _ _ _ _ Eg0 Hx0) as [Hlt _].
+  unfold msz. rewrite Hsz; [reflexivity|lia].
+Qed.
+
+Lemma YB_body s u F m :
+  get_msg s u = Some m ->
+  (forall c h ch x, get_chan s c h = Some ch -> In x (ch_unacked ch) -> u_msg x = u -> m_size (F m) = m_size m) ->
+  YB s -> YB (upd_msg s u F).
+Proof.
+  intros Em HF H. apply (YB_rebase (msz s)); [|eapply allch_same_conns; [apply conns_upd_msg|exact H]].
+  intros c h ch x Hg Hx. rewrite (get_chan_same_conns s _ c h (conns_upd_msg s u F)) in Hg. unfold msz. f_equal.
+  unfold upd_msg. rewrite Em. unfold msg_size, get_msg in *. cbn. rewrite (alookup_aset N.eqb Neqb_spec).
+  destruct (u_msg x =? u) eqn:E; [|reflexivity]. apply N.eqb_eq in E. rewrite E, Em. symmetry. eapply HF; eauto.
+Qed.
+
+Definition CBYB (s : state) : Prop := CB s /\ YB s.
+
+Section YBStep.
+Variables (cfg : config) (fx : fixes).
+Hypothesis Hrab : cfg_rabbit cfg = true.
+Hypothesis Hst : fx_stage fx = true.
+Hypothesis Hco : fx_chan_open fx = true.
+Hypothesis Hcr : fx_closeok_releases fx = true.
+
+(* one step: the byte count of every consumer's own window equals the body bytes of that consumer's unsettled deliveries *)
+Theorem YB_step s l : CB s -> UC s -> SmallB s -> YB s -> YB (fst (step cfg fx s l)).
+Proof.
+  intros Hcb Huc Hsm H.
+  assert (X : CBYB (fst (step cfg fx s l))); [|exact (proj2 X)].
+  apply (D_step cfg fx CBYB).
+  - intros s0 s' E Esz [A B]. split; [eapply CB_conns; eauto|]. eapply YB_lift; [exact Esz|eapply allch_same_conns; eauto].
+  - intros s0 c h [A B]. split; [apply CB_chan_close; auto|]. destruct A as [A1 A2].
+    eapply YB_lift; [apply szeq_channel_close|apply YCL_channel_close; auto].
+  - intros b s0 qn iu ie [A B]. split; [apply CB_del; auto|].
+    eapply YB_lift; [apply szeq_heap, heap_vhost_delete_queue|apply (YV_vhost_delete_queue _ (YCLP_vkeep (msz s0))); exact B].
+  - intros s0 c [A B]. split; [apply CB_delconn; auto|]. eapply YB_lift; [apply szeq_heap; reflexivity|apply allch_del_conn; exact B].
+  - intros s0 c h [A B]. split; [apply CB_closing; auto|]. eapply YB_lift; [apply szeq_upd_chan|apply (YV_closing _ (YCLP_vkeep (msz s0))); exact B].
+  - intros s0 c h [A B]. split; [apply CB_ensure; auto|].
+    eapply YB_lift; [apply szeq_heap, heap_ensure_chan|apply allch_ensure; auto; intros ? ?; apply ycinv_channel0].
+  - intros s0 c h [A B]. split; [apply CB_cur; auto|]. eapply YB_lift; [apply szeq_upd_chan|apply (YV_cur _ (YCLP_vkeep (msz s0))); exact B].
+  - intros s0 c h t [A B]. split; [apply CB_add_confirm; auto|].
+    eapply YB_lift; [apply szeq_heap, heap_add_confirm|apply (YV_add_confirm _ (YCLP_vkeep (msz s0))); exact B].
+  - intros s0 c h tag [A B]. split; [apply CB_wake; auto|]. eapply YB_lift; [apply szeq_heap, heap_wake_consumer|apply YCL_wake; exact B].
+  - intros s0 c st En [A B]. split; [apply CB_newconn; auto|].
+    eapply YB_lift; [apply szeq_heap; reflexivity|apply allch_newconn; auto; intros ?; apply ycinv_empty; reflexivity].
+  - intros s0. split; [apply CB_restart|apply allch_restart].
+  - intros s0 c h ch E [A B]. destruct (CB_tick s0 c h ch E A) as [T1 T2]. destruct (YV_tick _ (YCLP_vkeep (msz s0)) s0 c h ch E B) as [T3 T4].
+    split; (split; [assumption|]); (eapply YB_lift; [apply szeq_heap, heap_set_chan'|assumption]).
+  - intros c h m Hg [[A B] C]. apply (cguard_guard _ _ _ _ _ Hst Hco) in Hg.
+    split; [split; [apply CI_handle_method; auto|apply BI_handle_method; auto]|].
+    apply YB_handle_method; auto. apply UC_ensure; auto.
+  - intros c h tag. destruct Hcb as [A B]. split; [split; [apply CI_consumer_turn; auto|apply BI_consumer_turn; auto]|].
+    eapply YB_lift; [apply szeq_heap, heap_consumer_turn|apply YCL_consumer_turn; auto; apply SZ_self].
+  - intros c h ch u m len Ech Ecur Em Elt [A B]. split; [eapply CB_conns; [apply conns_upd_msg|exact A]|].
+    eapply YB_body; eauto. intros c' h' ch' x Hg Hx Ex. cbn.
+    destruct (UC_ensure s c h Huc _ _ _ _ Hg Hx) as [_ Hc]. rewrite Ex in Hc. specialize (Hc _ Em).
+    apply N.ltb_ge in Elt. lia.
+  - split; auto.
+Qed.
+
+Theorem YB_run ls : forall s, CB s -> RCI s -> YB s -> smallb_along cfg fx s ls -> YB (fst (run cfg fx s ls)).
+Proof.
+  induction ls as [|l t IH]; intros s Hcb Hr H Hs; cbn [run]; auto.
+  destruct Hs as [Hs Ht]. pose proof (YB_step s l Hcb (RCI_UC s Hr) Hs H) as H1. pose proof (CB_step cfg fx Hst Hco Hcr s l Hcb) as C1.
+  pose proof (RCI_step cfg fx s l Hr) as R1.
+  destruct (step cfg fx s l) as [s1 e1]. cbn [fst] in *. specialize (IH s1 C1 R1 H1 Ht).
+  destruct (run cfg fx s1 t) as [s2 e2]. exact IH.
+Qed.
+End YBStep.
+
+Lemma YB_init cfg : YB (init cfg).
+Proof. intros c h ch Hg. unfold get_chan, get_conn in Hg. cbn in Hg. discriminate. Qed.
+
+Lemma smallb_along_last cfg fx ls : forall s, smallb_along cfg fx s ls -> SmallB (fst (run cfg fx s ls)).
+Proof.
+  induction ls as [|l t IH]; intros s Hs; cbn [run]; [exact (proj1 Hs)|].
+  destruct Hs as [_ Ht]. specialize (IH _ Ht). destruct (step cfg fx s l) as [s1 e1]. cbn [fst] in *.
+  destruct (run cfg fx s1 t) as [s2 e2]. exact IH.
+Qed.
+
+Theorem consumer_byte_ledger_reachable cfg fx ls c h ch cm :
+  cfg_rabbit cfg = true -> fx_stage fx = true -> fx_chan_open fx = true -> fx_closeok_releases fx = true ->
+  smallb_along cfg fx (init cfg) ls ->
+  let s := fst (run cfg fx (init cfg) ls) in
+  get_chan s c h = Some ch -> In cm (ch_consumers ch) ->
+  cs (c_own cm) = fold_right (fun x acc => msg_size s (u_msg x) mod two32 + acc) 0
+                    (filter (fun u => seqb (u_ctag u) (c_tag cm)) (ch_unacked ch)).
+Proof.
+  intros Hrab Hst Hco Hcr Hs s Hg Hin.
+  pose proof (YB_run cfg fx Hrab Hst Hco Hcr ls (init cfg) (CB_init cfg) (RCI_init cfg) (YB_init cfg) Hs _ _ _ Hg) as (_ & _ & _ & D & _).
+  rewrite (D _ _ (yin_cview ch cm Hin)). unfold yk0, ycnt. rewrite N.add_0_r. apply bsum_fold.
+Qed.
+
+(* under a per-consumer prefetch-size N > 0 the consumer's window accepts a delivery only while its own unsettled
+   bytes plus the delivery's stay within N *)
+Theorem consumer_delivery_only_below_size_limit wf ch cm size w' :
+  ycinv wf yk0 ch -> In cm (ch_consumers ch) -> ycnt wf (ch_unacked ch) (c_tag cm) + size < two32 ->
+  qos_inc (c_own cm) size = Some w' -> ps (c_own cm) <> 0 ->
+  ycnt wf (ch_unacked ch) (c_tag cm) + size <= ps (c_own cm) /\ cs w' = ycnt wf (ch_unacked ch) (c_tag cm) + size.
+Proof.
+  intros (_ & _ & _ & D & _) Hin Hsm Hi Hp. pose proof (D _ _ (yin_cview ch cm Hin)) as Hl. unfold yk0 in Hl. rewrite N.add_0_r in Hl.
+  unfold qos_inc in Hi.
+  destruct (_ && ((ps (c_own cm) =? 0) || ((cs (c_own cm) + size) mod two32 <=? ps (c_own cm)))) eqn:E; [|discriminate].
+  inversion Hi; subst. cbn. apply andb_prop in E. destruct E as [_ E].
+  rewrite N.mod_small in * by (rewrite Hl; exact Hsm).
+  apply orb_prop in E. destruct E as [E|E]; [apply N.eqb_eq in E; contradiction|]. apply N.leb_le in E. rewrite Hl in *. split; [exact E|reflexivity].
+Qed.
+
+(* a delivery a consumer turn makes is the head of the consumer's queue, and both of its windows accepted that
+   message's size *)
+Theorem ack_turn_charges_sized cfg fx s c h tag ch cm d r ex k :
+  get_chan s c h = Some ch -> find_consumer ch tag = Some cm -> c_noack cm = false ->
+  In (c, h, SDeliver tag d r ex k) (snd (consumer_turn cfg fx s c h tag)) ->
+  exists qu u rest cn w1 w2, get_queue s (c_queue cm) = Some qu /\ q_ready qu = u :: rest /\ get_conn s c = Some cn /\
+    qos_inc (ch_qos ch) (msz s u) = Some w1 /\
+    qos_inc (if cfg_rabbit cfg then c_own cm else cn_qos cn) (msz s u) = Some w2.
+Proof.
+  intros Ech Efc Ena. unfold consumer_turn. rewrite Ech, Efc.
+  destruct (negb (c_token cm)); [intros []|].
+  destruct (get_chan_parts _ _ _ _ Ech) as (cn & Ec & _).
+  set (s0 := set_chan s c h _).
+  assert (G0 : get_chan s0 c h = Some (upd_consumer ch tag (fun cm => cm <| c_token := false |>))).
+  { subst s0. rewrite get_chan_set_chan. rewrite Ec. rewrite !N.eqb_refl. reflexivity. }
+  assert (G1 : exists cn0, get_conn s0 c = Some cn0 /\ cn_qos cn0 = cn_qos cn).
+  { subst s0. rewrite get_conn_set_chan, Ec, N.eqb_refl. eexists. split; reflexivity. }
+  destruct G1 as (cn0 & Ecn & Eq).
+  assert (Hq0 : forall q, get_queue s0 q = get_queue s q) by (intros q; subst s0; unfold get_queue; rewrite queues_set_chan; reflexivity).
+  assert (Hz0 : forall x, msz s0 x = msz s x) by (intros x; subst s0; unfold msz; rewrite (msg_size_same_heap _ _ x (heap_set_chan' s c h _)); reflexivity).
+  clearbody s0.
+  destruct (c_status cm); try (intros []).
+  all: destruct (get_queue s0 (c_queue cm)) as [qu|] eqn:Eqq; [|intros []].
+  all: destruct (negb (q_active qu)); [intros []|].
+  all: destruct (q_ready qu) as [|u rest] eqn:Erd; [intros []|].
+  all: rewrite Ena.
+  all: unfold window_list; rewrite G0, Ecn.
+  all: change (msg_size s0 u mod two32) with (msz s0 u); rewrite (Hz0 u).
+  all: match goal with |- context [reserve ?rb ?ws ?sz] => destruct (reserve rb ws sz) as [okr ws'] eqn:Er end.
+  all: destruct okr as [l|]; [|intros []].
+  all: intros _; rewrite Hq0 in Eqq; exists qu, u, rest, cn.
+  all: destruct (cfg_rabbit cfg); apply reserve2_success in Er; destruct Er as (w1' & w2' & Hi1 & Hi2); cbn [ch_qos upd_consumer] in Hi1;
+       rewrite ?Eq in Hi2; eauto 10.
+Qed.
+
+Theorem consumer_delivery_size_bounded_reachable cfg fx ls c h tag ch cm d r ex k :
+  cfg_rabbit cfg = true -> fx_stage fx = true -> fx_chan_open fx = true -> fx_closeok_releases fx = true ->
+  smallb_along cfg fx (init cfg) ls ->
+  let s := fst (run cfg fx (init cfg) ls) in
+  get_chan s c h = Some ch -> find_consumer ch tag = Some cm -> c_noack cm = false -> ps (c_own cm) <> 0 ->
+  In (c, h, SDeliver tag d r ex k) (snd (consumer_turn cfg fx s c h tag)) ->
+  exists qu u rest, get_queue s (c_queue cm) = Some qu /\ q_ready qu = u :: rest /\
+    fold_right (fun x acc => msg_size s (u_msg x) mod two32 + acc) 0 (filter (fun u => seqb (u_ctag u) (c_tag cm)) (ch_unacked ch))
+    + msg_size s u mod two32 <= ps (c_own cm).
+Proof.
+  intros Hrab Hst Hco Hcr Hs s Ech Efc Ena Hp Hev. subst s. set (s := fst (run cfg fx (init cfg) ls)) in *.
+  destruct (ack_turn_charges_sized cfg fx s c h tag ch cm d r ex k Ech Efc Ena Hev) as (qu & u & rest & cn & w1 & w2 & Eq & Er & _ & _ & Hi).
+  rewrite Hrab in Hi. exists qu, u, rest. split; [exact Eq|]. split; [exact Er|].
+  pose proof (YB_run cfg fx Hrab Hst Hco Hcr ls (init cfg) (CB_init cfg) (RCI_init cfg) (YB_init cfg) Hs _ _ _ Ech) as Hc.
+  pose proof (smallb_along_last cfg fx ls _ Hs _ _ _ _ _ _ _ Ech Eq Er) as Hsm. fold s in Hsm.
+  apply find_consumer_in in Efc. destruct Efc as [Hin _].
+  assert (Hsm' : ycnt (msz s) (ch_unacked ch) (c_tag cm) + msz s u < two32) by (pose proof (ycnt_le (msz s) (ch_unacked ch) (c_tag cm)); lia).
+  destruct (consumer_delivery_only_below_size_limit (msz s) ch cm (msz s u) w2 Hc Hin Hsm' Hi Hp) as [Hle _].
+  unfold ycnt in Hle. rewrite bsum_fold in Hle. exact Hle.
+Qed.
+
+(* ------------------------------------------------------------------ *)
+(* Part 7: the byte count of the connection-wide window (amqp-0-9-1 dialect); wf gives the size of a message *)
+Section ZBytes.
+Variable wf : N -> N.
+Definition ztot (cn : conn) : N := bsum wf (chan_unacked_all cn).
+Definition znl (k : N) (cn : conn) : Prop := cs (cn_qos cn) = ztot cn + k.
+(* connection c0 is k ahead while its channel h0 exists *)
+Definition ZNLoff (c0 h0 : N) (k : N) (c : N) (cn : conn) : Prop := znl (if (c =? c0) && has_chan h0 cn then k else 0) cn.
+Definition ZNLP (c : N) (cn : conn) : Prop := znl 0 cn.
+Notation ZNL := (allcn ZNLP).
+
+Definition zulen (chans : list (N * channel)) : N := bsum wf (flat_map (fun kh : N * channel => ch_unacked (snd kh)) chans).
+Lemma zulen_aset chans h ch' :
+  zulen (aset N.eqb h ch' chans) + match alookup N.eqb h chans with Some ch => bsum wf (ch_unacked ch) | None => 0 end
+  = zulen chans + bsum wf (ch_unacked ch').
+Proof.
+  unfold zulen. induction chans as [|[k v] t IH]; cbn [aset alookup flat_map snd].
+  - rewrite !bsum_app. cbn. lia.
+  - destruct (h =? k); cbn [flat_map snd]; rewrite !bsum_app; lia.
+Qed.
+Lemma ztot_aset cn h ch' ch : alookup N.eqb h (cn_chans cn) = Some ch ->
+  ztot (cn <| cn_chans := aset N.eqb h ch' (cn_chans cn) |>) + bsum wf (ch_unacked ch) = ztot cn + bsum wf (ch_unacked ch').
+Proof.
+  intros E. unfold ztot, chan_unacked_all. cbn [cn_chans set]. pose proof (zulen_aset (cn_chans cn) h ch') as Hl. rewrite E in Hl.
+  unfold zulen in Hl. exact Hl.
+Qed.
+Lemma zhas_chan_aset cn h ch' ch h0 : alookup N.eqb h (cn_chans cn) = Some ch ->
+  has_chan h0 (cn <| cn_chans := aset N.eqb h ch' (cn_chans cn) |>) = has_chan h0 cn.
+Proof.
+  intros E. unfold has_chan. cbn. rewrite (alookup_aset N.eqb Neqb_spec). destruct (h0 =? h) eqn:E1; [|reflexivity].
+  apply N.eqb_eq in E1. subst. rewrite E. reflexivity.
+Qed.
+
+Lemma zget_conn_set_chan s c h ch c' :
+  get_conn (set_chan s c h ch) c' =
+  match get_conn s c with
+  | Some cn => if c' =? c then Some (cn <| cn_chans := aset N.eqb h ch (cn_chans cn) |>) else get_conn s c'
+  | None => get_conn s c'
+  end.
+Proof.
+  unfold set_chan. destruct (get_conn s c) as [cn|] eqn:Ec; [|reflexivity].
+  unfold get_conn. cbn. rewrite (alookup_aset N.eqb Neqb_spec). reflexivity.
+Qed.
+Lemma zget_conn_set_conn s c cn' c' :
+  get_conn (s <| conns := aset N.eqb c cn' (conns s) |>) c' = if c' =? c then Some cn' else get_conn s c'.
+Proof. unfold get_conn. cbn. rewrite (alookup_aset N.eqb Neqb_spec). reflexivity. Qed.
+Lemma zget_chan_parts s c h ch : get_chan s c h = Some ch -> exists cn, get_conn s c = Some cn /\ alookup N.eqb h (cn_chans cn) = Some ch.
+Proof. unfold get_chan. destruct (get_conn s c) as [cn|]; [eauto|discriminate]. Qed.
+Lemma zget_chan_none_has s c h cn : get_chan s c h = None -> get_conn s c = Some cn -> has_chan h cn = false.
+Proof. unfold get_chan, has_chan. intros H E. rewrite E in H. rewrite H. reflexivity. Qed.
+
+Lemma zallcn_same_conns (Q : N -> conn -> Prop) s s' : conns s' = conns s -> allcn Q s -> allcn Q s'.
+Proof. unfold allcn, get_conn. intros E H c cn Hg. apply H. rewrite <- E. exact Hg. Qed.
+Lemma zallcn_del_conn (Q : N -> conn -> Prop) s c : allcn Q s -> allcn Q (s <| conns := adel N.eqb c (conns s) |>).
+Proof.
+  intros H c' cn Hg. unfold get_conn in Hg. cbn in Hg. rewrite (alookup_adel N.eqb Neqb_spec) in Hg.
+  destruct (c' =? c); [discriminate|]. apply H. exact Hg.
+Qed.
+Lemma zallcn_restart (Q : N -> conn -> Prop) cfg s : allcn Q (fst (restart cfg s)).
+Proof. unfold restart. cbn [fst]. intros c cn Hg. unfold get_conn in Hg. cbn in Hg. discriminate. Qed.
+
+Ltac znsame := first
+  [ eapply zallcn_same_conns; [first
+      [ apply conns_set_queue | apply conns_upd_queue | apply conns_upd_msg
+      | apply (proj1 conns_queue_ops) | apply (proj1 (proj2 conns_queue_ops))
+      | apply (proj1 (proj2 (proj2 conns_queue_ops))) | apply (proj2 (proj2 (proj2 conns_queue_ops))) ] | ]
+  | match goal with |- allcn _ (@set _ _ _ _ _ ?s) => apply (zallcn_same_conns _ s); [reflexivity|] end ].
+
+(* primitives that keep, for every connection, the total of unsettled deliveries, the window count and the set of channels *)
+Section ZNGen.
+Variable Q : N -> conn -> Prop.
+Hypothesis Q_keep : forall c cn cn', ztot cn' = ztot cn -> cs (cn_qos cn') = cs (cn_qos cn) ->
+  (forall h, has_chan h cn' = has_chan h cn) -> Q c cn -> Q c cn'.
+
+Lemma ZN_set_keep s c h ch ch' :
+  get_chan s c h = Some ch -> bsum wf (ch_unacked ch') = bsum wf (ch_unacked ch) -> allcn Q s -> allcn Q (set_chan s c h ch').
+Proof.
+  intros Ech El H c' cn' Hg. rewrite zget_conn_set_chan in Hg. destruct (zget_chan_parts _ _ _ _ Ech) as (cn & Ec & Eh). rewrite Ec in Hg.
+  destruct (c' =? c) eqn:E1; [|apply H; auto]. apply N.eqb_eq in E1. subst. inversion Hg; subst.
+  eapply Q_keep; [..|exact (H _ _ Ec)].
+  - pose proof (ztot_aset cn h ch' ch Eh). lia.
+  - reflexivity.
+  - intros h1. eapply zhas_chan_aset; eauto.
+Qed.
+Lemma ZN_upd_keep s c h f : (forall ch, bsum wf (ch_unacked (f ch)) = bsum wf (ch_unacked ch)) -> allcn Q s -> allcn Q (upd_chan s c h f).
+Proof. intros Hf H. unfold upd_chan. destruct (get_chan s c h) as [ch|] eqn:E; auto. eapply ZN_set_keep; eauto. Qed.
+Lemma ZN_conn_keep s c cn g : get_conn s c = Some cn -> cs (g (cn_qos cn)) = cs (cn_qos cn) -> allcn Q s ->
+  allcn Q (s <| conns := aset N.eqb c (cn <| cn_qos ::= g |>) (conns s) |>).
+Proof.
+  intros Ec Eg H c' cn' Hg. rewrite zget_conn_set_conn in Hg. destruct (c' =? c) eqn:E1; [|apply H; auto].
+  apply N.eqb_eq in E1. subst. inversion Hg; subst. eapply Q_keep; [..|exact (H _ _ Ec)]; auto.
+Qed.
+Lemma ZN_set_stage s c st : allcn Q s -> allcn Q (set_stage s c st).
+Proof.
+  intros H. unfold set_stage. destruct (get_conn s c) as [cn|] eqn:Ec; auto.
+  intros c' cn' Hg. rewrite zget_conn_set_conn in Hg. destruct (c' =? c) eqn:E1; [|apply H; auto].
+  apply N.eqb_eq in E1. subst. inversion Hg; subst. eapply Q_keep; [..|exact (H _ _ Ec)]; auto.
+Qed.
+
+Ltac znkeep := apply ZN_upd_keep; [intros; reflexivity|].
+Ltac znset Ech := eapply ZN_set_keep; [exact Ech|reflexivity|].
+
+Lemma ZN_wake s c h tag : allcn Q s -> allcn Q (fst (wake_consumer s c h tag)).
+Proof.
+  intros H. unfold wake_consumer. destruct (get_chan s c h) as [ch|] eqn:E; auto.
+  destruct (find_consumer ch tag) as [cm|]; auto. destruct (consume_msg cm) as [cm' b]. cbn [fst]. znset E. exact H.
+Qed.
+Lemma ZN_consumer_stop s c h tag : allcn Q s -> allcn Q (consumer_stop s c h tag).
+Proof.
+  intros H. unfold consumer_stop. destruct (get_chan s c h) as [ch|] eqn:E; auto.
+  destruct (find_consumer ch tag) as [cm|]; auto.
+  destruct (c_status cm); auto; (eapply zallcn_same_conns; [apply (proj2 (proj2 (proj2 conns_queue_ops)))|]); (znset E; exact H).
+Qed.
+Lemma ZN_wake_all s c h : allcn Q s -> allcn Q (wake_all_of_chan s c h).
+Proof. intros H. unfold wake_all_of_chan. znkeep. exact H. Qed.
+Lemma ZN_wake_consumers cfg s c h : allcn Q s -> allcn Q (wake_consumers cfg s c h).
+Proof.
+  intros H. unfold wake_consumers. pose proof (ZN_wake_all s c h H) as H1.
+  destruct (cfg_rabbit cfg); auto. destruct (get_conn _ c) as [cn|]; auto.
+  apply fold_left_preserves; auto. intros s0 x H0. destruct (fst x =? h); auto. apply ZN_wake_all; auto.
+Qed.
+Lemma ZN_chan_ackmsg s u : allcn Q s -> allcn Q (chan_ackmsg s u).
+Proof. intros H. unfold chan_ackmsg. destruct (origin_queue s u); repeat znsame; auto. Qed.
+Lemma ZN_chan_rejectmsg s u r : allcn Q s -> allcn Q (chan_rejectmsg s u r).
+Proof. intros H. unfold chan_rejectmsg. destruct (origin_queue s u); [destruct r|]; repeat znsame; auto. Qed.
+Lemma ZN_cancel_fold l : forall s evs, allcn Q s ->
+  allcn Q (fst (fold_left (fun acc x => let '(s, evs) := acc in let '(s', e) := consumer_cancel s x in (s', evs ++ e)) l (s, evs))).
+Proof. induction l as [|[[c h] tag] t IH]; intros s evs H; simpl; auto. apply IH. apply ZN_consumer_stop; auto. Qed.
+Lemma ZN_vhost_delete_queue b s qn iu ie : allcn Q s -> allcn Q (fst (fst (vhost_delete_queue b s qn iu ie))).
+Proof.
+  intros H. unfold vhost_delete_queue. destruct (get_queue s qn) as [qu|] eqn:Eq; auto.
+  destruct (_ || _).
+  - cbn [fst]. destruct b; [eapply zallcn_same_conns; [apply conns_set_queue|exact H]|exact H].
+  - pose proof (ZN_cancel_fold (q_consumers qu) s [] H) as Hf.
+    destruct (fold_left _ (q_consumers qu) (s, [])) as [s1 e1]. cbn [fst] in *.
+    repeat (first [ assumption | match goal with |- allcn _ (if ?b then _ else _) => destruct b end | znsame ]).
+Qed.
+Lemma ZN_add_confirm s c h t : allcn Q s -> allcn Q (add_confirm s c h t).
+Proof.
+  intros H. unfold add_confirm. destruct (get_chan s c h) as [ch|] eqn:E; auto. destruct (negb _); auto.
+  destruct (ch_status ch) eqn:Es; auto; destruct t as [[[? ?] ?]|]; auto; (znset E; exact H).
+Qed.
+Lemma ZN_closing s c h : allcn Q s -> allcn Q (upd_chan s c h (fun ch => ch <| ch_status := ChClosing |>)).
+Proof. intros H. znkeep. exact H. Qed.
+Lemma ZN_cur s c h : allcn Q s -> allcn Q (upd_chan s c h (fun ch => ch <| ch_cur := None |>)).
+Proof. intros H. znkeep. exact H. Qed.
+Lemma ZN_tick s c h ch : get_chan s c h = Some ch -> allcn Q s ->
+  allcn Q (set_chan s c h (ch <| ch_ticker := false |>)) /\ allcn Q (set_chan s c h (ch <| ch_confirmq := [] |>)).
+Proof. intros E H. split; (znset E; exact H). Qed.
+End ZNGen.
+
+Lemma ZNLoff_keep c0 h0 k : forall c cn cn', ztot cn' = ztot cn -> cs (cn_qos cn') = cs (cn_qos cn) ->
+  (forall h, has_chan h cn' = has_chan h cn) -> ZNLoff c0 h0 k c cn -> ZNLoff c0 h0 k c cn'.
+Proof. unfold ZNLoff, znl. intros c cn cn' E1 E2 E3. rewrite E1, E2, E3. auto. Qed.
+Lemma ZNLP_keep : forall c cn cn', ztot cn' = ztot cn -> cs (cn_qos cn') = cs (cn_qos cn) ->
+  (forall h, has_chan h cn' = has_chan h cn) -> ZNLP c cn -> ZNLP c cn'.
+Proof. unfold ZNLP, znl. intros c cn cn' E1 E2 _. rewrite E1, E2. auto. Qed.
+Lemma ZNLoff_zero c0 h0 s : allcn (ZNLoff c0 h0 0) s <-> ZNL s.
+Proof.
+  unfold allcn, ZNLoff, ZNLP. split; intros H c cn Hg; specialize (H c cn Hg); destruct ((c =? c0) && has_chan h0 cn); auto.
+Qed.
+Lemma ZNLoff_none c0 h0 k k' s : get_chan s c0 h0 = None -> allcn (ZNLoff c0 h0 k) s -> allcn (ZNLoff c0 h0 k') s.
+Proof.
+  intros En H c cn Hg. pose proof (H _ _ Hg) as H1. unfold ZNLoff in *. destruct (c =? c0) eqn:E1; [|exact H1].
+  apply N.eqb_eq in E1. subst. rewrite (zget_chan_none_has _ _ _ _ En Hg) in *. exact H1.
+Qed.
+
+(* an update of channel (c0,h0) that changes the number of its unsettled deliveries moves the connection's offset *)
+Lemma ZN_upd_shift s c0 h0 ka kb f ch :
+  get_chan s c0 h0 = Some ch ->
+  bsum wf (ch_unacked (f ch)) + kb = bsum wf (ch_unacked ch) + ka ->
+  allcn (ZNLoff c0 h0 ka) s -> allcn (ZNLoff c0 h0 kb) (upd_chan s c0 h0 f).
+Proof.
+  intros Ech El H c cn' Hg. unfold upd_chan in Hg. rewrite Ech in Hg. rewrite get_conn_set_chan in Hg.
+  destruct (get_chan_parts _ _ _ _ Ech) as (cn & Ec & Eh). rewrite Ec in Hg.
+  destruct (c =? c0) eqn:E1.
+  - apply N.eqb_eq in E1. subst. inversion Hg; subst. pose proof (H _ _ Ec) as H1. unfold ZNLoff, znl in *. rewrite N.eqb_refl in *.
+    rewrite (has_chan_aset cn h0 (f ch) ch h0 Eh). assert (Hh : has_chan h0 cn = true) by (unfold has_chan; rewrite Eh; reflexivity).
+    rewrite Hh in *. cbn [andb] in *. pose proof (ztot_aset cn h0 (f ch) ch Eh). cbn [cn_qos set] in *. change (cn_qos (cn <| cn_chans := _ |>)) with (cn_qos cn). lia.
+  - pose proof (H _ _ Hg) as H1. unfold ZNLoff in *. rewrite E1 in *. exact H1.
+Qed.
+
+Lemma ZN_conn_shift s c0 h0 ka kb cn g :
+  get_conn s c0 = Some cn -> has_chan h0 cn = true ->
+  (cs (cn_qos cn) = ztot cn + ka -> cs (g (cn_qos cn)) = ztot cn + kb) ->
+  allcn (ZNLoff c0 h0 ka) s -> allcn (ZNLoff c0 h0 kb) (s <| conns := aset N.eqb c0 (cn <| cn_qos ::= g |>) (conns s) |>).
+Proof.
+  intros Ec Hh Hg H c cn' Hgc. rewrite get_conn_set_conn in Hgc. destruct (c =? c0) eqn:E1.
+  - apply N.eqb_eq in E1. subst. inversion Hgc; subst. pose proof (H _ _ Ec) as H1. unfold ZNLoff, znl in *. rewrite N.eqb_refl in *.
+    change (has_chan h0 (cn <| cn_qos ::= g |>)) with (has_chan h0 cn). rewrite Hh in *. cbn [andb] in *.
+    change (ztot (cn <| cn_qos ::= g |>)) with (ztot cn). cbn [cn_qos set]. apply Hg. exact H1.
+  - pose proof (H _ _ Hgc) as H1. unfold ZNLoff in *. rewrite E1 in *. exact H1.
+Qed.
+
+Section ZNKeep.
+Variables (c0 h0 : N) (k : N).
+Definition ZNO_wake_consumers := ZN_wake_consumers (ZNLoff c0 h0 k) (ZNLoff_keep c0 h0 k).
+Definition ZNO_chan_ackmsg := ZN_chan_ackmsg (ZNLoff c0 h0 k).
+Definition ZNO_chan_rejectmsg := ZN_chan_rejectmsg (ZNLoff c0 h0 k).
+Definition ZNO_upd_keep := ZN_upd_keep (ZNLoff c0 h0 k) (ZNLoff_keep c0 h0 k).
+End ZNKeep.
+
+Lemma ZN_del s c0 h0 k u ch :
+  get_chan s c0 h0 = Some ch -> NoDup (map u_tag (ch_unacked ch)) -> In u (ch_unacked ch) ->
+  allcn (ZNLoff c0 h0 k) s -> allcn (ZNLoff c0 h0 (k + wf (u_msg u))) (upd_chan s c0 h0 (fun ch => del_unacked ch (u_tag u))).
+Proof.
+  intros Ech Hnd Hin H. eapply ZN_upd_shift; eauto. unfold del_unacked. cbn [ch_unacked set].
+  pose proof (bsum_del wf (ch_unacked ch) u Hnd Hin) as Hl. lia.
+Qed.
+
+Lemma ZN_dec cfg s c0 h0 k u :
+  cfg_rabbit cfg = false -> msz s (u_msg u) = wf (u_msg u) ->
+  allcn (ZNLoff c0 h0 (k + wf (u_msg u))) s -> allcn (ZNLoff c0 h0 k) (dec_qos_and_consume_next cfg s c0 h0 u).
+Proof.
+  intros Hrab Hsz H. unfold dec_qos_and_consume_next. destruct (get_chan s c0 h0) as [ch|] eqn:Ech; [|eapply ZNLoff_none; eauto].
+  apply ZNO_wake_consumers. rewrite Hrab. change (msg_size s (u_msg u) mod two32) with (msz s (u_msg u)). rewrite Hsz.
+  set (f := fun ch : channel => ch <| ch_qos ::= fun w => qos_dec w (wf (u_msg u)) |>).
+  assert (H1 : allcn (ZNLoff c0 h0 (k + wf (u_msg u))) (upd_chan s c0 h0 f)) by (apply ZNO_upd_keep; [intros; reflexivity|exact H]).
+  assert (E1 : get_chan (upd_chan s c0 h0 f) c0 h0 = Some (f ch)) by (rewrite get_chan_upd_chan, !N.eqb_refl, Ech; reflexivity).
+  assert (X : allcn (ZNLoff c0 h0 k)
+                (match get_conn (upd_chan s c0 h0 f) c0 with
+                 | Some cn => upd_chan s c0 h0 f <| conns := aset N.eqb c0 (cn <| cn_qos ::= fun w => qos_dec w (wf (u_msg u)) |>) (conns (upd_chan s c0 h0 f)) |>
+                 | None => upd_chan s c0 h0 f end)).
+  { destruct (get_conn (upd_chan s c0 h0 f) c0) as [cn|] eqn:Ec; [|pose proof (get_chan_conn _ _ _ _ E1); congruence].
+    eapply ZN_conn_shift; eauto; [eapply get_chan_has; eauto|].
+    intros Hc. cbn. rewrite Hc. destruct (ztot cn + (k + wf (u_msg u)) <? wf (u_msg u)) eqn:E; [apply N.ltb_lt in E; lia|lia]. }
+  destruct (find_consumer ch (u_ctag u)); exact X.
+Qed.
+
+Section ZNSettle.
+Variables (c0 h0 : N).
+Variable g : state -> unacked -> state.
+Hypothesis g_eq : forall s u, exists s1, s1 = upd_chan s c0 h0 (fun ch => del_unacked ch (u_tag u)) /\
+  (forall k, allcn (ZNLoff c0 h0 k) s1 -> allcn (ZNLoff c0 h0 k) (g s u)) /\ U (g s u) c0 h0 = U s1 c0 h0.
+
+Lemma ZN_fold_del sel : forall s k,
+  NoDup (map u_tag sel) -> (forall u, In u sel -> In u (U s c0 h0)) -> NoDup (map u_tag (U s c0 h0)) ->
+  allcn (ZNLoff c0 h0 k) s -> allcn (ZNLoff c0 h0 (k + bsum wf sel)) (fold_left g sel s).
+Proof.
+  induction sel as [|a t IH]; intros s k Hnd Hin Hu H; cbn [fold_left bsum].
+  - rewrite N.add_0_r. exact H.
+  - cbn in Hnd. inversion Hnd as [|? ? Hni Hnd']; subst.
+    destruct (g_eq s a) as (s1 & Es1 & Hk & HU).
+    assert (Ha : In a (U s c0 h0)) by (apply Hin; left; reflexivity).
+    destruct (get_chan s c0 h0) as [ch|] eqn:Ech; [|unfold U in Ha; rewrite Ech in Ha; destruct Ha].
+    rewrite (U_some _ _ _ _ Ech) in *.
+    assert (H1 : allcn (ZNLoff c0 h0 (k + wf (u_msg a))) (g s a)).
+    { apply Hk. subst s1. eapply ZN_del; eauto. }
+    assert (HU1 : U (g s a) c0 h0 = filter (fun u => negb (u_tag u =? u_tag a)) (ch_unacked ch)).
+    { rewrite HU. subst s1. rewrite del_unacked_U. rewrite (U_some _ _ _ _ Ech). reflexivity. }
+    replace (k + (wf (u_msg a) + bsum wf t)) with ((k + wf (u_msg a)) + bsum wf t) by lia.
+    apply IH; auto.
+    + intros u Hu'. rewrite HU1. apply filter_In. split; [apply Hin; right; exact Hu'|].
+      apply Bool.negb_true_iff. apply N.eqb_neq. intros E. apply Hni. rewrite <- E. apply in_map. exact Hu'.
+    + rewrite HU1. apply NoDup_map_filter. exact Hu.
+Qed.
+End ZNSettle.
+
+Lemma ZN_fold_dec cfg c0 h0 sel : cfg_rabbit cfg = false -> forall s k,
+  SZ wf s -> allcn (ZNLoff c0 h0 (k + bsum wf sel)) s ->
+  allcn (ZNLoff c0 h0 k) (fold_left (fun s u => dec_qos_and_consume_next cfg s c0 h0 u) sel s).
+Proof.
+  intros Hrab. induction sel as [|a t IH]; intros s k Hs H; cbn [fold_left bsum] in *.
+  - rewrite N.add_0_r in H. exact H.
+  - apply IH; [eapply SZ_szeq; [apply szeq_heap, heap_dec_qos|exact Hs]|]. apply ZN_dec; auto.
+    replace (k + bsum wf t + wf (u_msg a)) with (k + (wf (u_msg a) + bsum wf t)) by lia. exact H.
+Qed.
+
+Theorem ZNL_handle_ack cfg s c h tag mult :
+  cfg_rabbit cfg = false -> SZ wf s -> CI s -> ZNL s -> ZNL (fst (handle_ack cfg s c h tag mult)).
+Proof.
+  intros Hrab Hs Hci H. unfold handle_ack. destruct (get_chan s c h) as [ch|] eqn:Ech; auto.
+  pose proof (Hci _ _ _ Ech) as [Hnd _].
+  destruct mult.
+  - cbn [fst]. apply (ZNLoff_zero c h). apply (ZN_fold_dec cfg c h _ Hrab _ 0).
+    + eapply SZ_szeq; [|exact Hs]. apply szeq_fold. intros s0 u. eapply szeq_trans; [apply szeq_upd_chan|apply szeq_chan_ackmsg].
+    + apply (ZN_fold_del c h (fun s u => chan_ackmsg (upd_chan s c h (fun ch => del_unacked ch (u_tag u))) u)).
+      * intros s0 u. eexists. split; [reflexivity|]. split; [intros k; apply ZNO_chan_ackmsg|apply U_chan_ackmsg].
+      * apply NoDup_map_filter. exact Hnd.
+      * intros u Hu. rewrite (U_some _ _ _ _ Ech). apply filter_In in Hu. tauto.
+      * rewrite (U_some _ _ _ _ Ech). exact Hnd.
+      * apply ZNLoff_zero. exact H.
+  - destruct (find _ (ch_unacked ch)) as [u|] eqn:Ef; cbn [fst]; auto.
+    apply find_some in Ef. destruct Ef as [Hin Et]. apply N.eqb_eq in Et. subst tag.
+    apply (ZNLoff_zero c h). apply ZN_dec; auto.
+    + rewrite <- (Hs (u_msg u)). unfold msz. f_equal. exact (szeq_trans _ _ _ (szeq_upd_chan s c h _) (szeq_chan_ackmsg _ u) (u_msg u)).
+    + apply ZNO_chan_ackmsg. rewrite N.add_0_l. replace (wf (u_msg u)) with (0 + wf (u_msg u)) by lia.
+      eapply ZN_del; eauto. apply ZNLoff_zero. exact H.
+Qed.
+
+Theorem ZNL_handle_reject cfg s c h tag mult requeue cls mth :
+  cfg_rabbit cfg = false -> SZ wf s -> CI s -> ZNL s -> ZNL (fst (handle_reject cfg s c h tag mult requeue cls mth)).
+Proof.
+  intros Hrab Hs Hci H. unfold handle_reject. destruct (get_chan s c h) as [ch|] eqn:Ech; auto.
+  pose proof (Hci _ _ _ Ech) as [Hnd _].
+  destruct mult.
+  - cbn [fst]. apply (ZNLoff_zero c h). apply (ZN_fold_dec cfg c h _ Hrab _ 0).
+    + eapply SZ_szeq; [|exact Hs]. apply szeq_fold. intros s0 u. eapply szeq_trans; [apply szeq_upd_chan|apply szeq_chan_rejectmsg].
+    + apply (ZN_fold_del c h (fun s u => chan_rejectmsg (upd_chan s c h (fun ch => del_unacked ch (u_tag u))) u requeue)).
+      * intros s0 u. eexists. split; [reflexivity|]. split; [intros k; apply ZNO_chan_rejectmsg|apply U_chan_rejectmsg].
+      * apply NoDup_map_filter. apply NoDup_sort_desc. exact Hnd.
+      * intros u Hu. rewrite (U_some _ _ _ _ Ech). apply filter_In in Hu. apply sort_desc_perm. tauto.
+      * rewrite (U_some _ _ _ _ Ech). exact Hnd.
+      * apply ZNLoff_zero. exact H.
+  - destruct (find _ (ch_unacked ch)) as [u|] eqn:Ef; cbn [fst]; auto.
+    apply find_some in Ef. destruct Ef as [Hin Et]. apply N.eqb_eq in Et. subst tag.
+    apply (ZNLoff_zero c h). apply ZN_dec; auto.
+    + rewrite <- (Hs (u_msg u)). unfold msz. f_equal. exact (szeq_trans _ _ _ (szeq_upd_chan s c h _) (szeq_chan_rejectmsg _ u requeue) (u_msg u)).
+    + apply ZNO_chan_rejectmsg. rewrite N.add_0_l. replace (wf (u_msg u)) with (0 + wf (u_msg u)) by lia.
+      eapply ZN_del; eauto. apply ZNLoff_zero. exact H.
+Qed.
+
+(* ---- deliveries ---- *)
+Lemma ZN_charge s c h a b d ch cn :
+  get_chan s c h = Some ch -> get_conn s c = Some cn -> cs b = cs (cn_qos cn) + d -> ZNL s ->
+  allcn (ZNLoff c h d)
+    (match get_conn (upd_chan s c h (fun ch => ch <| ch_qos := a |>)) c with
+     | Some cn => upd_chan s c h (fun ch => ch <| ch_qos := a |>) <| conns := aset N.eqb c (cn <| cn_qos := b |>) (conns (upd_chan s c h (fun ch => ch <| ch_qos := a |>))) |>
+     | None => upd_chan s c h (fun ch => ch <| ch_qos := a |>) end).
+Proof.
+  intros Ech Ec Hb H.
+  set (s1 := upd_chan s c h (fun ch => ch <| ch_qos := a |>)).
+  assert (H1 : allcn (ZNLoff c h 0) s1) by (subst s1; apply ZNO_upd_keep; [intros; reflexivity|apply ZNLoff_zero; exact H]).
+  assert (E1 : get_chan s1 c h = Some (ch <| ch_qos := a |>)) by (subst s1; rewrite get_chan_upd_chan, !N.eqb_refl, Ech; reflexivity).
+  assert (Eq : forall cn1, get_conn s1 c = Some cn1 -> cn_qos cn1 = cn_qos cn).
+  { subst s1. unfold upd_chan. rewrite Ech. intros cn1 Hg. rewrite get_conn_set_chan, Ec, N.eqb_refl in Hg. inversion Hg; subst. reflexivity. }
+  clearbody s1.
+  destruct (get_conn s1 c) as [cn1|] eqn:Ec1; [|pose proof (get_chan_conn _ _ _ _ E1); congruence].
+  apply (ZN_conn_shift s1 c h 0 d cn1 (fun _ => b)); auto; [eapply get_chan_has; eauto|].
+  intros Hc. rewrite Hb, <- (Eq _ eq_refl), Hc. lia.
+Qed.
+
+Lemma ZN_store_windows cfg s c h tag a b d ch cn :
+  cfg_rabbit cfg = false -> get_chan s c h = Some ch -> get_conn s c = Some cn -> cs b = cs (cn_qos cn) + d -> ZNL s ->
+  allcn (ZNLoff c h d) (store_windows cfg s c h tag [a; b]).
+Proof. intros Hrab Ech Ec Hb H. unfold store_windows. rewrite Hrab. eapply ZN_charge; eauto. Qed.
+
+Lemma ZN_append s c h x : allcn (ZNLoff c h (wf (u_msg x))) s -> ZNL (upd_chan s c h (fun ch => ch <| ch_unacked ::= fun l => l ++ [x] |>)).
+Proof.
+  intros H. apply (ZNLoff_zero c h). destruct (get_chan s c h) as [ch|] eqn:Ech.
+  - eapply ZN_upd_shift; eauto. cbn [ch_unacked set]. rewrite bsum_app. cbn [bsum]. lia.
+  - unfold upd_chan. rewrite Ech. eapply ZNLoff_none; eauto.
+Qed.
+
+Definition ZNL_wake := ZN_wake ZNLP ZNLP_keep.
+Definition ZNL_consumer_stop := ZN_consumer_stop ZNLP ZNLP_keep.
+Definition ZNL_wake_consumers := ZN_wake_consumers ZNLP ZNLP_keep.
+
+Definition SmallCBf (s : state) : Prop :=
+  forall c cn q qu u rest, get_conn s c = Some cn -> get_queue s q = Some qu -> q_ready qu = u :: rest -> ztot cn + wf u < two32.
+
+Theorem ZNL_consumer_turn cfg fx s c h tag :
+  cfg_rabbit cfg = false -> SZ wf s -> SmallCBf s -> ZNL s -> ZNL (fst (consumer_turn cfg fx s c h tag)).
+Proof.
+  intros Hrab Hsz Hsm H. unfold consumer_turn.
+  destruct (get_chan s c h) as [ch|] eqn:Ech; auto.
+  destruct (find_consumer ch tag) as [cm|] eqn:Efc; auto.
+  destruct (negb (c_token cm)); auto.
+  destruct (get_chan_parts _ _ _ _ Ech) as (cn & Ec & Eh).
+  set (s0 := set_chan s c h _).
+  assert (H0 : ZNL s0) by (subst s0; eapply (ZN_set_keep ZNLP ZNLP_keep); eauto).
+  assert (Ech0 : exists ch0, get_chan s0 c h = Some ch0).
+  { subst s0. rewrite get_chan_set_chan. rewrite Ec. rewrite !N.eqb_refl. cbn. eauto. }
+  destruct Ech0 as (ch0 & Ech0).
+  assert (Ecn0 : exists cn0, get_conn s0 c = Some cn0 /\ ztot cn0 = ztot cn).
+  { subst s0. rewrite get_conn_set_chan, Ec, N.eqb_refl. eexists. split; [reflexivity|].
+    pose proof (ztot_aset cn h (upd_consumer ch tag (fun cm => cm <| c_token := false |>)) ch Eh) as X.
+    change (ch_unacked (upd_consumer ch tag _)) with (ch_unacked ch) in X. lia. }
+  destruct Ecn0 as (cn0 & Ecn0 & Et0).
+  assert (Hsz0 : SZ wf s0) by (subst s0; eapply SZ_szeq; [apply szeq_heap, heap_set_chan'|exact Hsz]).
+  assert (Hq0 : forall q, get_queue s0 q = get_queue s q) by (intros q; subst s0; unfold get_queue; rewrite queues_set_chan; reflexivity).
+  clearbody s0.
+  destruct (c_status cm); auto.
+  all: destruct (get_queue s0 (c_queue cm)) as [qu|] eqn:Eqq; auto.
+  all: destruct (negb (q_active qu)); auto.
+  all: destruct (q_ready qu) as [|u rest] eqn:Erd; auto.
+  all: destruct (c_noack cm) eqn:Ena.
+  all: try (cbn [fst];
+            match goal with |- context [wake_consumer ?st ?c0 ?h0 ?tag0] => destruct (wake_consumer st c0 h0 tag0) as [s9 b9] eqn:Ew;
+              apply fst_pair in Ew; cbn [fst]; subst s9; apply ZNL_wake end;
+            repeat (first [ assumption | znsame | match goal with |- allcn _ (if ?b then _ else _) => destruct b end
+                          | apply (ZN_upd_keep ZNLP ZNLP_keep); [intros; reflexivity|] ]); fail).
+  all: unfold window_list; rewrite Ech0, Ecn0, Hrab.
+  all: change (msg_size s0 u mod two32) with (msz s0 u); rewrite (Hsz0 u).
+  all: assert (Hs1 : cs (cn_qos cn0) + wf u < two32)
+         by (pose proof (H0 _ _ Ecn0) as Hl; unfold ZNLP, znl in Hl; rewrite Hq0 in Eqq; pose proof (Hsm _ _ _ _ _ _ Ec Eqq Erd); lia).
+  all: destruct (reserve (cfg_rollback cfg) [ch_qos ch0; cn_qos cn0] (wf u)) as [okr ws] eqn:Er.
+  all: destruct (yreserve2_second _ _ _ _ _ _ Er) as (a & b & -> & Hb).
+  all: destruct okr as [l|]; cbn [fst].
+  all: try (apply (ZNLoff_zero c h); eapply ZN_store_windows; eauto; rewrite Hb; lia).
+  all: match goal with |- context [wake_consumer ?st ?c0 ?h0 ?tag0] => destruct (wake_consumer st c0 h0 tag0) as [s9 b9] eqn:Ew;
+         apply fst_pair in Ew; cbn [fst]; subst s9; apply ZNL_wake end.
+  all: repeat znsame.
+  all: apply ZN_append.
+  all: apply ZNO_upd_keep; [intros; reflexivity|].
+  all: repeat znsame.
+  all: eapply ZN_store_windows; eauto; rewrite Hb; rewrite N.mod_small by exact Hs1; reflexivity.
+Qed.
+
+Lemma ZNL_channel_close cfg s c h : cfg_rabbit cfg = false -> SZ wf s -> CI s -> ZNL s -> ZNL (channel_close cfg s c h).
+Proof.
+  intros Hrab Hs Hci H. unfold channel_close. destruct (get_chan s c h) as [ch|] eqn:Ech; auto.
+  apply (ZN_upd_keep ZNLP ZNLP_keep); [intros; reflexivity|].
+  set (s2 := upd_chan (fold_left (fun s cm => consumer_stop s c h (c_tag cm)) (ch_consumers ch) s) c h (fun ch => ch <| ch_consumers := [] |>)).
+  assert (H2 : ZNL s2).
+  { subst s2. apply (ZN_upd_keep ZNLP ZNLP_keep); [intros; reflexivity|]. apply fold_left_preserves; auto. intros; apply ZNL_consumer_stop; auto. }
+  assert (C2 : CI s2).
+  { subst s2. apply allch_upd_chan; [intros ch0 Hc0; eapply chinvp_set; [..|exact Hc0]; reflexivity|].
+    apply fold_left_preserves; auto. intros; apply CI_consumer_stop; auto. }
+  assert (S2 : SZ wf s2).
+  { subst s2. eapply SZ_szeq; [|exact Hs]. eapply szeq_trans; [|apply szeq_upd_chan].
+    apply szeq_fold. intros s0 cm. apply szeq_heap, heap_consumer_stop. }
+  clearbody s2. destruct (0 <? h); auto. apply ZNL_handle_reject; auto.
+Qed.
+
+Ltac znlkeep := apply (ZN_upd_keep ZNLP ZNLP_keep); [intros; reflexivity|].
+Ltac znlset Ech := eapply (ZN_set_keep ZNLP ZNLP_keep); [first [exact Ech|erewrite get_chan_same_conns; [exact Ech|reflexivity]]|reflexivity|].
+
+Theorem ZNL_handle_method cfg fx s c h m :
+  cfg_rabbit cfg = false -> fx_closeok_releases fx = true -> SZ wf s -> CI s -> BI s -> SmallCBf s -> ZNL s -> ZNL (fst (fst (handle_method cfg fx s c h m))).
+Proof.
+  intros Hrab Hcr Hs Hci Hbi Hsm H. unfold handle_method.
+  destruct (get_chan s c h) as [ch|] eqn:Hch; [|exact H].
+  destruct m; unfold ok, refuse.
+  - (* MChannelOpen *)
+    destruct (ch_status ch) eqn:Es; cbn [fst]; auto.
+    + znlset Hch. exact H.
+    + znlset Hch. exact H.
+    + destruct (fx_reopen_resets fx); [|znlset Hch; exact H].
+      eapply (ZN_set_keep ZNLP ZNLP_keep); [exact Hch| |exact H]. destruct (Hbi _ _ _ Hch (or_introl Es)) as [A B]. rewrite A. reflexivity.
+  - cbn [fst]. apply ZNL_channel_close; auto.
+  - cbn [fst]. rewrite Hcr. apply ZNL_channel_close; auto.
+  - cbn [fst]. destruct (Bool.eqb _ _); auto. destruct a; (znlset Hch; exact H).
+  - destruct (extype_of type); [|exact H].
+    repeat match goal with |- context [if ?b then _ else _] => destruct b end; cbn [fst]; auto.
+    all: repeat match goal with |- context [match ?x with _ => _ end] => destruct x end; cbn [fst]; auto.
+    all: try (znsame; auto).
+  - destruct (fx_not_impl fx); exact H.
+  - destruct (seqb name ""); [exact H|].
+    destruct (queue_found s name) as [qu|].
+    + repeat match goal with |- context [if ?b then _ else _] => destruct b end; cbn [fst]; auto.
+    + destruct passive; [destruct nowait; exact H|]. cbn [fst]. repeat znsame. auto.
+  - destruct (alookup _ _ _); [|exact H]. destruct (seqb ex ""); [exact H|].
+    destruct (queue_found s q); [|exact H]. destruct (locked _ _); [exact H|]. destruct (bad_xmatch _); [exact H|]. destruct (extype_eqb _ ExTopic && bad_pattern _)%bool; [exact H|]. cbn [fst]. znsame. auto.
+  - destruct (alookup _ _ _); [|exact H]. destruct (queue_found s q); [|exact H]. destruct (locked _ _); [exact H|]. destruct (bad_xmatch _); [exact H|]. destruct (extype_eqb _ ExTopic && bad_pattern _)%bool; [exact H|]. cbn [fst]. znsame. auto.
+  - destruct (queue_found s q) as [qu|]; [|exact H]. destruct (locked _ _); [exact H|]. cbn [fst].
+    repeat (first [assumption | znsame | match goal with |- allcn _ (if ?b then _ else _) => destruct b end]).
+  - destruct (queue_found s q); [|exact H]. destruct (locked _ _); [exact H|].
+    pose proof (ZN_vhost_delete_queue ZNLP ZNLP_keep (negb (fx_delete_checks_first fx)) s q ifunused ifempty H) as Hd.
+    destruct (vhost_delete_queue _ s q ifunused ifempty) as [[s1 e1] r1]. cbn [fst] in *. destruct r1; exact Hd.
+  - (* MQos: Update keeps the counts *)
+    cbn [fst]. apply ZNL_wake_consumers. rewrite Hrab. destruct glob; [|znlset Hch; exact H].
+    destruct (get_conn s c) eqn:Ec; auto. eapply (ZN_conn_keep ZNLP ZNLP_keep); eauto.
+  - destruct imm; [exact H|]. destruct (alookup _ _ _); [|exact H].
+    destruct (ch_confirm ch); cbn [fst]; (znlset Hch; repeat znsame; exact H).
+  - (* MConsume *)
+    destruct (queue_found s q) as [qu|]; [|exact H].
+    destruct (fx_excl_owner fx && locked qu c); [exact H|].
+    destruct (find_consumer ch _); [exact H|].
+    destruct (_ && _)%bool; cbn [fst].
+    + znsame. auto.
+    + destruct (seqb tag ""%string); (znlset Hch; repeat znsame; auto).
+  - (* MCancel *)
+    destruct (find_consumer ch tag); [|exact H]. cbn [fst].
+    apply (ZN_upd_keep ZNLP ZNLP_keep); [intros; cbn; apply bsum_orphan|]. znlkeep. apply ZNL_consumer_stop. exact H.
+  - (* MGet *)
+    destruct (queue_found s q) as [qu|] eqn:Eqf; [|exact H]. apply queue_found_get in Eqf.
+    destruct (fx_excl_owner fx && locked qu c); [exact H|].
+    destruct (q_ready qu) as [|u rest] eqn:Erd; [exact H|].
+    destruct noack.
+    + cbn [fst]. repeat (first [ assumption | znsame | match goal with |- allcn _ (if ?b then _ else _) => destruct b end | znlkeep ]).
+    + destruct (zget_chan_parts _ _ _ _ Hch) as (cn & Ec & _). rewrite Ec.
+      change (msg_size s u mod two32) with (msz s u). rewrite (Hs u).
+      destruct (reserve (cfg_rollback cfg) [ch_qos ch; cn_qos cn] (wf u)) as [okr ws] eqn:Er.
+      destruct (yreserve2_second _ _ _ _ _ _ Er) as (a & b & -> & Hb).
+      assert (Hs1 : cs (cn_qos cn) + wf u < two32).
+      { pose proof (H _ _ Ec) as Hl. pose proof (Hsm _ _ _ _ _ _ Ec Eqf Erd) as Hs0. unfold ZNLP, znl in *. lia. }
+      assert (H1 : allcn (ZNLoff c h (match okr with Some _ => wf u | None => 0 end))
+                     (match get_conn (set_chan s c h (ch <| ch_qos := a |>)) c with
+                      | Some cn => set_chan s c h (ch <| ch_qos := a |>) <| conns := aset N.eqb c (cn <| cn_qos := b |>) (conns (set_chan s c h (ch <| ch_qos := a |>))) |>
+                      | None => set_chan s c h (ch <| ch_qos := a |>) end)).
+      { pose proof (ZN_charge s c h a b (match okr with Some _ => wf u | None => 0 end) ch cn Hch Ec) as X.
+        unfold upd_chan in X. rewrite Hch in X. apply X; auto. destruct okr; [rewrite Hb, N.mod_small by exact Hs1; reflexivity|rewrite Hb; lia]. }
+      match goal with H1 : allcn _ ?st |- _ => set (s1 := st) in * end. clearbody s1.
+      destruct okr; cbn [fst]; [|apply (ZNLoff_zero c h); exact H1].
+      znsame. znsame.
+      apply ZN_append. repeat znsame. apply ZNO_upd_keep; [intros; reflexivity|]. znsame. exact H1.
+  - pose proof (ZNL_handle_ack cfg s c h tag mult Hrab Hs Hci H) as Ha.
+    destruct (handle_ack cfg s c h tag mult) as [s1 e1]. exact Ha.
+  - pose proof (ZNL_handle_reject cfg s c h tag mult requeue 60 120 Hrab Hs Hci H) as Ha.
+    destruct (handle_reject cfg s c h tag mult requeue 60 120) as [s1 e1]. exact Ha.
+  - pose proof (ZNL_handle_reject cfg s c h tag false requeue 60 90 Hrab Hs Hci H) as Ha.
+    destruct (handle_reject cfg s c h tag false requeue 60 90) as [s1 e1]. exact Ha.
+  - exact H.
+  - cbn [fst]. znlset Hch. exact H.
+  - destruct (fx_not_impl fx); exact H.
+  - exact H.
+  - exact H.
+  - destruct good; [cbn [fst]; apply (ZN_set_stage ZNLP ZNLP_keep); exact H|exact H].
+  - destruct within; [cbn [fst]; apply (ZN_set_stage ZNLP ZNLP_keep); exact H|exact H].
+  - destruct vhost_ok; [cbn [fst]; apply (ZN_set_stage ZNLP ZNLP_keep); exact H|exact H].
+Qed.
+
+
+End ZBytes.
+
+(* ---- the channel numbers of a connection are distinct (every label): so every entry of chan_unacked_all is the
+   unsettled delivery of a channel that get_chan finds ---- *)
+Definition KD (c : N) (cn : conn) : Prop := NoDup (map fst (cn_chans cn)).
+
+Lemma in_keys_aset {V} k (v : V) l x : In x (map fst (aset N.eqb k v l)) -> k = x \/ In x (map fst l).
+Proof.
+  induction l as [|[k0 v0] t IH]; cbn; [tauto|]. destruct (k =? k0) eqn:E; cbn.
+  - apply N.eqb_eq in E. subst. tauto.
+  - intros [H|H]; [tauto|]. destruct (IH H); tauto.
+Qed.
+Lemma NoDup_keys_aset {V} k (v : V) l : NoDup (map fst l) -> NoDup (map fst (aset N.eqb k v l)).
+Proof.
+  induction l as [|[k0 v0] t IH]; cbn; intros H; [constructor; [tauto|constructor]|].
+  inversion H as [|? ? Hni Hnd]; subst. destruct (k =? k0) eqn:E; cbn.
+  - apply N.eqb_eq in E. subst. constructor; auto.
+  - constructor; auto. intros Hin. apply in_keys_aset in Hin. destruct Hin as [<-|Hin]; [rewrite N.eqb_refl in E; discriminate|contradiction].
+Qed.
+
+Section KGen.
+Variable Q : N -> conn -> Prop.
+Hypothesis K_chan : forall c cn h ch', Q c cn -> Q c (cn <| cn_chans := aset N.eqb h ch' (cn_chans cn) |>).
+Hypothesis K_qos : forall c cn g, Q c cn -> Q c (cn <| cn_qos ::= g |>).
+Hypothesis K_stage : forall c cn st, Q c cn -> Q c (cn <| cn_stage := st |>).
+
+Lemma K_set_chan s c h ch : allcn Q s -> allcn Q (set_chan s c h ch).
+Proof.
+  intros H c' cn' Hg. rewrite get_conn_set_chan in Hg. destruct (get_conn s c) as [cn|] eqn:Ec; [|apply H; auto].
+  destruct (c' =? c) eqn:E1; [|apply H; auto]. apply N.eqb_eq in E1. subst. inversion Hg; subst. apply K_chan. apply H. exact Ec.
+Qed.
+Lemma K_upd_chan s c h f : allcn Q s -> allcn Q (upd_chan s c h f).
+Proof. intros H. unfold upd_chan. destruct (get_chan s c h); auto. apply K_set_chan. exact H. Qed.
+Lemma K_conn_qos s c cn g : get_conn s c = Some cn -> allcn Q s -> allcn Q (s <| conns := aset N.eqb c (cn <| cn_qos ::= g |>) (conns s) |>).
+Proof.
+  intros Ec H c' cn' Hg. rewrite get_conn_set_conn in Hg. destruct (c' =? c) eqn:E1; [|apply H; auto].
+  apply N.eqb_eq in E1. subst. inversion Hg; subst. apply K_qos. apply H. exact Ec.
+Qed.
+Lemma K_set_stage s c st : allcn Q s -> allcn Q (set_stage s c st).
+Proof.
+  intros H. unfold set_stage. destruct (get_conn s c) as [cn|] eqn:Ec; auto.
+  intros c' cn' Hg. rewrite get_conn_set_conn in Hg. destruct (c' =? c) eqn:E1; [|apply H; auto].
+  apply N.eqb_eq in E1. subst. inversion Hg; subst. apply K_stage. apply H. exact Ec.
+Qed.
+
+Ltac kk := repeat first
+  [ assumption | nsame
+  | match goal with |- allcn _ (if ?b then _ else _) => destruct b end
+  | apply K_upd_chan | apply K_set_chan | apply K_set_stage
+  | match goal with |- allcn _ (match get_conn ?st ?c with _ => _ end) => let E := fresh "Ec" in destruct (get_conn st c) eqn:E; [eapply K_conn_qos; [exact E|]|] end ].
+
+Lemma K_wake s c h tag : allcn Q s -> allcn Q (fst (wake_consumer s c h tag)).
+Proof.
+  intros H. unfold wake_consumer. destruct (get_chan s c h) as [ch|]; auto.
+  destruct (find_consumer ch tag) as [cm|]; auto. destruct (consume_msg cm) as [cm' b]. cbn [fst]. kk.
+Qed.
+Lemma K_consumer_stop s c h tag : allcn Q s -> allcn Q (consumer_stop s c h tag).
+Proof.
+  intros H. unfold consumer_stop. destruct (get_chan s c h) as [ch|]; auto. destruct (find_consumer ch tag) as [cm|]; auto.
+  destruct (c_status cm); auto; (eapply allcn_same_conns; [apply (proj2 (proj2 (proj2 conns_queue_ops)))|]); kk.
+Qed.
+Lemma K_wake_consumers cfg s c h : allcn Q s -> allcn Q (wake_consumers cfg s c h).
+Proof.
+  intros H. unfold wake_consumers, wake_all_of_chan. assert (H1 : allcn Q (upd_chan s c h (fun ch => ch <| ch_consumers ::= map (fun cm => fst (consume_msg cm)) |>))) by kk.
+  destruct (cfg_rabbit cfg); auto. destruct (get_conn _ c) as [cn|]; auto.
+  apply fold_left_preserves; auto. intros s0 x H0. destruct (fst x =? h); auto. kk.
+Qed.
+Lemma K_dec_qos cfg s c h u : allcn Q s -> allcn Q (dec_qos_and_consume_next cfg s c h u).
+Proof.
+  intros H. unfold dec_qos_and_consume_next. destruct (get_chan s c h) as [ch|]; auto. apply K_wake_consumers.
+  destruct (find_consumer ch (u_ctag u)); [destruct (cfg_rabbit cfg)|]; kk.
+Qed.
+Lemma K_chan_ackmsg s u : allcn Q s -> allcn Q (chan_ackmsg s u).
+Proof. intros H. unfold chan_ackmsg. destruct (origin_queue s u); repeat nsame; auto. Qed.
+Lemma K_chan_rejectmsg s u r : allcn Q s -> allcn Q (chan_rejectmsg s u r).
+Proof. intros H. unfold chan_rejectmsg. destruct (origin_queue s u); [destruct r|]; repeat nsame; auto. Qed.
+Lemma K_handle_reject cfg s c h tag mult requeue cls mth : allcn Q s -> allcn Q (fst (handle_reject cfg s c h tag mult requeue cls mth)).
+Proof.
+  intros H. unfold handle_reject. destruct (get_chan s c h) as [ch|]; auto. destruct mult.
+  - cbn [fst]. apply fold_left_preserves; [intros; apply K_dec_qos; auto|].
+    apply fold_left_preserves; auto. intros s0 a H0. apply K_chan_rejectmsg. kk.
+  - destruct (find _ _); cbn [fst]; auto. apply K_dec_qos. apply K_chan_rejectmsg. kk.
+Qed.
+Lemma K_handle_ack cfg s c h tag mult : allcn Q s -> allcn Q (fst (handle_ack cfg s c h tag mult)).
+Proof.
+  intros H. unfold handle_ack. destruct (get_chan s c h) as [ch|]; auto. destruct mult.
+  - cbn [fst]. apply fold_left_preserves; [intros; apply K_dec_qos; auto|].
+    apply fold_left_preserves; auto. intros s0 a H0. apply K_chan_ackmsg. kk.
+  - destruct (find _ _); cbn [fst]; auto. apply K_dec_qos. apply K_chan_ackmsg. kk.
+Qed.
+Lemma K_channel_close cfg s c h : allcn Q s -> allcn Q (channel_close cfg s c h).
+Proof.
+  intros H. unfold channel_close. destruct (get_chan s c h) as [ch|]; auto. apply K_upd_chan.
+  assert (H2 : allcn Q (upd_chan (fold_left (fun s cm => consumer_stop s c h (c_tag cm)) (ch_consumers ch) s) c h (fun ch => ch <| ch_consumers := [] |>))).
+  { apply K_upd_chan. apply fold_left_preserves; auto. intros; apply K_consumer_stop; auto. }
+  destruct (0 <? h); auto. apply K_handle_reject; auto.
+Qed.
+Lemma K_cancel_fold l : forall s evs, allcn Q s ->
+  allcn Q (fst (fold_left (fun acc x => let '(s, evs) := acc in let '(s', e) := consumer_cancel s x in (s', evs ++ e)) l (s, evs))).
+Proof. induction l as [|[[c h] tag] t IH]; intros s evs H; simpl; auto. apply IH. apply K_consumer_stop; auto. Qed.
+Lemma K_vhost_delete_queue b s qn iu ie : allcn Q s -> allcn Q (fst (fst (vhost_delete_queue b s qn iu ie))).
+Proof.
+  intros H. unfold vhost_delete_queue. destruct (get_queue s qn) as [qu|]; auto. destruct (_ || _).
+  - cbn [fst]. destruct b; [eapply allcn_same_conns; [apply conns_set_queue|exact H]|exact H].
+  - pose proof (K_cancel_fold (q_consumers qu) s [] H) as Hf.
+    destruct (fold_left _ (q_consumers qu) (s, [])) as [s1 e1]. cbn [fst] in *.
+    eapply allcn_same_conns; [|exact Hf]. destruct (q_durable qu); reflexivity.
+Qed.
+Lemma K_add_confirm s c h t : allcn Q s -> allcn Q (add_confirm s c h t).
+Proof.
+  intros H. unfold add_confirm. destruct (get_chan s c h) as [ch|]; auto. destruct (negb _); auto.
+  destruct (ch_status ch); auto; destruct t as [[[? ?] ?]|]; auto; kk.
+Qed.
+Lemma K_store_windows cfg s c h tag ws : allcn Q s -> allcn Q (store_windows cfg s c h tag ws).
+Proof. intros H. unfold store_windows. destruct ws as [|w1 [|w2 [|]]]; auto. destruct (cfg_rabbit cfg); kk. Qed.
+
+Lemma K_consumer_turn cfg fx s c h tag : allcn Q s -> allcn Q (fst (consumer_turn cfg fx s c h tag)).
+Proof.
+  intros H. unfold consumer_turn.
+  destruct (get_chan s c h) as [ch|]; auto. destruct (find_consumer ch tag) as [cm|]; auto. destruct (negb (c_token cm)); auto.
+  set (s0 := set_chan s c h _). assert (H0 : allcn Q s0) by (subst s0; kk). clearbody s0.
+  destruct (c_status cm); auto.
+  all: destruct (get_queue s0 (c_queue cm)) as [qu|]; auto.
+  all: destruct (negb (q_active qu)); auto.
+  all: destruct (q_ready qu) as [|u rest]; auto.
+  all: match goal with |- context [if c_noack ?cm0 then (Some [], []) else ?r] => destruct (if c_noack cm0 then (Some [], []) else r) as [okr ws] end.
+  all: set (s1 := if c_noack cm then s0 else store_windows cfg s0 c h tag ws).
+  all: assert (H1 : allcn Q s1) by (subst s1; destruct (c_noack cm); auto; apply K_store_windows; auto).
+  all: clearbody s1.
+  all: destruct okr; cbn [fst]; auto.
+  all: match goal with |- context [wake_consumer ?st ?c0 ?h0 ?tag0] => destruct (wake_consumer st c0 h0 tag0) as [s9 b9] eqn:Ew;
+         apply fst_pair in Ew; cbn [fst]; subst s9; apply K_wake end.
+  all: kk.
+Qed.
+
+Lemma K_handle_method cfg fx s c h m : allcn Q s -> allcn Q (fst (fst (handle_method cfg fx s c h m))).
+Proof.
+  intros H. unfold handle_method. destruct (get_chan s c h) as [ch|] eqn:Hch; [|exact H].
+  destruct m; unfold ok, refuse.
+  - destruct (ch_status ch); cbn [fst]; auto; kk.
+  - cbn [fst]. apply K_channel_close; auto.
+  - cbn [fst]. destruct (fx_closeok_releases fx); [apply K_channel_close; auto|kk].
+  - cbn [fst]. destruct (Bool.eqb _ _); auto. destruct a; kk.
+  - destruct (extype_of type); [|exact H].
+    repeat match goal with |- context [if ?b then _ else _] => destruct b end; cbn [fst]; auto.
+    all: repeat match goal with |- context [match ?x with _ => _ end] => destruct x end; cbn [fst]; auto.
+    all: try (nsame; auto).
+  - destruct (fx_not_impl fx); exact H.
+  - destruct (seqb name ""); [exact H|].
+    destruct (queue_found s name) as [qu|].
+    + repeat match goal with |- context [if ?b then _ else _] => destruct b end; cbn [fst]; auto.
+    + destruct passive; [destruct nowait; exact H|]. cbn [fst]. repeat nsame. auto.
+  - destruct (alookup _ _ _); [|exact H]. destruct (seqb ex ""); [exact H|].
+    destruct (queue_found s q); [|exact H]. destruct (locked _ _); [exact H|]. destruct (bad_xmatch _); [exact H|]. destruct (extype_eqb _ ExTopic && bad_pattern _)%bool; [exact H|]. cbn [fst]. nsame. auto.
+  - destruct (alookup _ _ _); [|exact H]. destruct (queue_found s q); [|exact H]. destruct (locked _ _); [exact H|]. destruct (bad_xmatch _); [exact H|]. destruct (extype_eqb _ ExTopic && bad_pattern _)%bool; [exact H|]. cbn [fst]. nsame. auto.
+  - destruct (queue_found s q) as [qu|]; [|exact H]. destruct (locked _ _); [exact H|]. cbn [fst].
+    eapply allcn_same_conns; [|exact H]. destruct (q_durable qu); reflexivity.
+  - destruct (queue_found s q); [|exact H]. destruct (locked _ _); [exact H|].
+    pose proof (K_vhost_delete_queue (negb (fx_delete_checks_first fx)) s q ifunused ifempty H) as Hd.
+    destruct (vhost_delete_queue _ s q ifunused ifempty) as [[s1 e1] r1]. cbn [fst] in *. destruct r1; exact Hd.
+  - cbn [fst]. apply K_wake_consumers. destruct (cfg_rabbit cfg); [destruct glob; kk|]. destruct glob; kk.
+  - destruct imm; [exact H|]. destruct (alookup _ _ _); [|exact H]. destruct (ch_confirm ch); cbn [fst]; kk.
+  - destruct (queue_found s q) as [qu|]; [|exact H].
+    destruct (fx_excl_owner fx && locked qu c); [exact H|]. destruct (find_consumer ch _); [exact H|].
+    destruct (_ && _)%bool; cbn [fst]; [nsame; auto|]. apply K_set_chan. destruct (seqb tag ""%string); repeat nsame; auto.
+  - destruct (find_consumer ch tag); [|exact H]. cbn [fst]. apply K_upd_chan. apply K_upd_chan. apply K_consumer_stop. exact H.
+  - destruct (queue_found s q) as [qu|]; [|exact H].
+    destruct (fx_excl_owner fx && locked qu c); [exact H|].
+    destruct (q_ready qu) as [|u rest]; [exact H|].
+    match goal with |- context [if noack then (Some [], []) else ?r] => destruct (if noack then (Some [], []) else r) as [okr ws] end.
+    set (s1 := match ws with [w1; w2] => _ | _ => s end).
+    assert (H1 : allcn Q s1) by (subst s1; destruct ws as [|w1 [|w2 [|]]]; auto; kk).
+    clearbody s1. destruct okr; cbn [fst]; [|exact H1]. destruct noack; kk.
+  - pose proof (K_handle_ack cfg s c h tag mult H) as Ha. destruct (handle_ack cfg s c h tag mult) as [s1 e1]. exact Ha.
+  - pose proof (K_handle_reject cfg s c h tag mult requeue 60 120 H) as Ha. destruct (handle_reject cfg s c h tag mult requeue 60 120) as [s1 e1]. exact Ha.
+  - pose proof (K_handle_reject cfg s c h tag false requeue 60 90 H) as Ha. destruct (handle_reject cfg s c h tag false requeue 60 90) as [s1 e1]. exact Ha.
+  - exact H.
+  - cbn [fst]. kk.
+  - destruct (fx_not_impl fx); exact H.
+  - exact H.
+  - exact H.
+  - destruct good; [cbn [fst]; kk|exact H].
+  - destruct within; [cbn [fst]; kk|exact H].
+  - destruct vhost_ok; [cbn [fst]; kk|exact H].
+Qed.
+
+Hypothesis K_new : forall c st, Q c {| cn_chans := [(0, channel0 <| ch_status := ChNew |>)]; cn_qos := qos0; cn_stage := st |}.
+
+Theorem K_step cfg fx s l : allcn Q s -> allcn Q (fst (step cfg fx s l)).
+Proof.
+  intros H. apply (D_step cfg fx (allcn Q)); auto.
+  - intros s0 s' E _ H0. eapply allcn_same_conns; eauto.
+  - intros. apply K_channel_close; auto.
+  - intros. apply K_vhost_delete_queue; auto.
+  - intros. apply allcn_del_conn; auto.
+  - intros. apply K_upd_chan; auto.
+  - intros s0 c h H0. unfold ensure_chan. destruct (get_conn s0 c) as [cn|] eqn:Ec; auto. destruct (alookup _ _ _); auto.
+    intros c' cn' Hg. rewrite get_conn_set_conn in Hg. destruct (c' =? c) eqn:E1; [|apply H0; auto].
+    apply N.eqb_eq in E1. subst. inversion Hg; subst. apply K_chan. apply H0. exact Ec.
+  - intros. apply K_upd_chan; auto.
+  - intros. apply K_add_confirm; auto.
+  - intros. apply K_wake; auto.
+  - intros s0 c st _ H0 c' cn' Hg. rewrite get_conn_set_conn in Hg. destruct (c' =? c) eqn:E1; [|apply H0; auto].
+    apply N.eqb_eq in E1. subst. inversion Hg; subst. apply K_new.
+  - intros. apply allcn_restart.
+  - intros s0 c h ch _ H0. split; apply K_set_chan; auto.
+  - intros. apply K_handle_method; auto.
+  - intros. apply K_consumer_turn; auto.
+  - intros c h ch u m len _ _ _ _ H0. eapply allcn_same_conns; [apply conns_upd_msg|exact H0].
+Qed.
+End KGen.
+
+Theorem KD_step cfg fx s l : allcn KD s -> allcn KD (fst (step cfg fx s l)).
+Proof.
+  apply K_step; unfold KD; cbn; intros.
+  - apply NoDup_keys_aset. assumption.
+  - assumption.
+  - assumption.
+  - constructor; [tauto|constructor].
+Qed.
+Theorem KD_run cfg fx ls : forall s, allcn KD s -> allcn KD (fst (run cfg fx s ls)).
+Proof.
+  induction ls as [|l t IH]; intros s H; simpl; auto.
+  pose proof (KD_step cfg fx s l H) as H1. destruct (step cfg fx s l) as [s1 e1]. cbn [fst] in H1.
+  specialize (IH s1 H1). destruct (run cfg fx s1 t) as [s2 e2]. exact IH.
+Qed.
+Lemma KD_init cfg : allcn KD (init cfg).
+Proof. intros c cn Hg. unfold get_conn in Hg. cbn in Hg. discriminate. Qed.
+
+(* an entry of chan_unacked_all belongs to a channel that get_chan finds *)
+Lemma chan_unacked_all_visible s c cn x : get_conn s c = Some cn -> KD c cn -> In x (chan_unacked_all cn) ->
+  exists h ch, get_chan s c h = Some ch /\ In x (ch_unacked ch).
+Proof.
+  intros Ec Hk Hx. unfold chan_unacked_all in Hx. apply in_flat_map in Hx. destruct Hx as ([h ch] & Hin & Hx). cbn in Hx.
+  exists h, ch. split; [|exact Hx]. unfold get_chan. rewrite Ec. unfold KD in Hk. clear Ec.
+  induction (cn_chans cn) as [|[k v] t IH]; [destruct Hin|]. cbn in Hk. inversion Hk as [|? ? Hni Hnd]; subst. cbn.
+  destruct Hin as [E|Hin].
+  - inversion E; subst. rewrite N.eqb_refl. reflexivity.
+  - destruct (h =? k) eqn:E1; [|apply IH; auto]. apply N.eqb_eq in E1. subst. exfalso. apply Hni. apply (in_map fst) in Hin. exact Hin.
+Qed.
+
+(* ---- the connection window's bytes, with the sizes of the state itself: every label ---- *)
+Definition ZB (s : state) : Prop := allcn (ZNLP (msz s)) s.
+Definition SmallCB (s : state) : Prop := SmallCBf (msz s) s.
+
+Lemma znl_wf_ext wf wf' k cn : (forall x, In x (chan_unacked_all cn) -> wf (u_msg x) = wf' (u_msg x)) -> znl wf k cn -> znl wf' k cn.
+Proof. unfold znl, ztot. intros E H. rewrite <- (bsum_ext_in wf wf' _ E). exact H. Qed.
+Lemma ZB_rebase wf s' :
+  (forall c cn x, get_conn s' c = Some cn -> In x (chan_unacked_all cn) -> wf (u_msg x) = msz s' (u_msg x)) ->
+  allcn (ZNLP wf) s' -> ZB s'.
+Proof. intros E H c cn Hg. apply (znl_wf_ext wf); [intros x Hx; eapply E; eauto|exact (H _ _ Hg)]. Qed.
+Lemma ZB_lift s s' : szeq s s' -> allcn (ZNLP (msz s)) s' -> ZB s'.
+Proof. intros E. apply ZB_rebase. intros c cn x _ _. unfold msz. rewrite E. reflexivity. Qed.
+
+Theorem ZB_handle_method cfg fx s c h m :
+  cfg_rabbit cfg = false -> fx_closeok_releases fx = true -> CI s -> BI s -> UC s -> allcn KD s -> SmallCB s -> ZB s ->
+  ZB (fst (fst (handle_method cfg fx s c h m))).
+Proof.
+  intros Hrab Hcr Hci Hbi Huc Hkd Hsm H.
+  pose proof (ZNL_handle_method (msz s) cfg fx s c h m Hrab Hcr (SZ_self s) Hci Hbi Hsm H) as Hf.
+  destruct (is_publish m) eqn:Ep; [|eapply ZB_lift; [apply szeq_handle_method; exact Ep|exact Hf]].
+  destruct m; try discriminate Ep.
+  pose proof (K_handle_method KD (fun c cn h ch' Hq => NoDup_keys_aset h ch' _ Hq) (fun _ _ _ Hq => Hq) (fun _ _ _ Hq => Hq)
+                cfg fx s c h (MPublish ex key mand imm) Hkd) as Hkd'.
+  destruct (publish_frame cfg fx s c h ex key mand imm) as [Hsz HU]. cbv zeta in Hsz, HU.
+  apply (ZB_rebase (msz s)); [|exact Hf]. intros c' cn' x Hg Hx.
+  destruct (chan_unacked_all_visible _ _ _ _ Hg (Hkd' _ _ Hg) Hx) as (h' & ch' & Hgc & Hxc).
+  assert (Hx' : In x (U s c' h')) by (rewrite <- HU; unfold U; rewrite Hgc; exact Hxc).
+  apply U_in in Hx'. destruct Hx' as (ch0 & Eg0 & Hx0). destruct (Huc _ _ _ _ Eg0 Hx0) as [Hlt _].
+  unfold msz. rewrite Hsz; [reflexivity|lia].
+Qed.
+
+Lemma ZB_body s u F m :
+  get_msg s u = Some m -> allcn KD s ->
+  (forall c h ch x, get_chan s c h = Some ch -> In x (ch_unacked ch) -> u_msg x = u -> m_size (F m) = m_size m) ->
+  ZB s -> ZB (upd_msg s u F).
+Proof.
+  intros Em Hkd HF H. apply (ZB_rebase (msz s)); [|eapply allcn_same_conns; [apply conns_upd_msg|exact H]].
+  intros c cn x Hg Hx. assert (Hg0 : get_conn s c = Some cn) by (unfold get_conn in *; rewrite conns_upd_msg in Hg; exact Hg).
+  destruct (chan_unacked_all_visible _ _ _ _ Hg0 (Hkd _ _ Hg0) Hx) as (h & ch & Hgc & Hxc).
+  unfold msz. f_equal. unfold upd_msg. rewrite Em. unfold msg_size, get_msg in *. cbn. rewrite (alookup_aset N.eqb Neqb_spec).
+  destruct (u_msg x =? u) eqn:E; [|reflexivity]. apply N.eqb_eq in E. rewrite E, Em. symmetry. eapply HF; eauto.
+Qed.
+
+Lemma ZNL_ensure wf s c h : allcn (ZNLP wf) s -> allcn (ZNLP wf) (ensure_chan s c h).
+Proof.
+  intros H. unfold ensure_chan. destruct (get_conn s c) as [cn|] eqn:Ec; auto.
+  destruct (alookup N.eqb h (cn_chans cn)) eqn:Eh; auto.
+  intros c' cn' Hg. rewrite get_conn_set_conn in Hg. destruct (c' =? c) eqn:E1; [|apply H; auto].
+  apply N.eqb_eq in E1. subst. inversion Hg; subst. pose proof (H _ _ Ec) as H1. unfold ZNLP, znl, ztot, chan_unacked_all in *. cbn [cn_qos cn_chans set].
+  pose proof (zulen_aset wf (cn_chans cn) h channel0) as Hl. rewrite Eh in Hl. unfold zulen in Hl. cbn in Hl. lia.
+Qed.
+Lemma SmallCB_ensure s c h : SmallCB s -> SmallCB (ensure_chan s c h).
+Proof.
+  intros H c' cn' q qu u rest Hg Hq Hr. destruct (heap_ensure_chan s c h) as [Eh _].
+  assert (E : forall x, msz (ensure_chan s c h) x = msz s x) by (intros x; unfold msz; rewrite (msg_size_same_heap _ _ x Eh); reflexivity).
+  unfold ztot. rewrite (bsum_ext_in _ (msz s)) by (intros; apply E). rewrite E.
+  unfold get_queue in Hq. rewrite queues_ensure_chan in Hq.
+  unfold ensure_chan in Hg. destruct (get_conn s c) as [cn|] eqn:Ec; [|exact (H _ _ _ _ _ _ Hg Hq Hr)].
+  destruct (alookup N.eqb h (cn_chans cn)) eqn:Eha; [exact (H _ _ _ _ _ _ Hg Hq Hr)|].
+  rewrite get_conn_set_conn in Hg. destruct (c' =? c) eqn:E1; [|exact (H _ _ _ _ _ _ Hg Hq Hr)].
+  apply N.eqb_eq in E1. subst. inversion Hg; subst. pose proof (H _ _ _ _ _ _ Ec Hq Hr) as H1. unfold ztot, chan_unacked_all in *. cbn [cn_chans set].
+  pose proof (zulen_aset (msz s) (cn_chans cn) h channel0) as Hl. rewrite Eha in Hl. unfold zulen in Hl. cbn in Hl. lia.
+Qed.
+
+Definition CBZB (s : state) : Prop := CB s /\ ZB s.
+
+Section ZBStep.
+Variables (cfg : config) (fx : fixes).
+Hypothesis Hrab : cfg_rabbit cfg = false.
+Hypothesis Hst : fx_stage fx = true.
+Hypothesis Hco : fx_chan_open fx = true.
+Hypothesis Hcr : fx_closeok_releases fx = true.
+
+(* one step: the byte count of every connection-wide window equals the body bytes of the connection's unsettled deliveries *)
+Theorem ZB_step s l : CB s -> UC s -> allcn KD s -> SmallCB s -> ZB s -> ZB (fst (step cfg fx s l)).
+Proof.
+  intros Hcb Huc Hkd Hsm H.
+  assert (X : CBZB (fst (step cfg fx s l))); [|exact (proj2 X)].
+  apply (D_step cfg fx CBZB).
+  - intros s0 s' E Esz [A B]. split; [eapply CB_conns; eauto|]. eapply ZB_lift; [exact Esz|eapply allcn_same_conns; eauto].
+  - intros s0 c h [A B]. split; [apply CB_chan_close; auto|]. destruct A as [A1 A2].
+    eapply ZB_lift; [apply szeq_channel_close|apply ZNL_channel_close; auto; apply SZ_self].
+  - intros b s0 qn iu ie [A B]. split; [apply CB_del; auto|].
+    eapply ZB_lift; [apply szeq_heap, heap_vhost_delete_queue|apply (ZN_vhost_delete_queue _ _ (ZNLP_keep (msz s0))); exact B].
+  - intros s0 c [A B]. split; [apply CB_delconn; auto|]. eapply ZB_lift; [apply szeq_heap; reflexivity|apply allcn_del_conn; exact B].
+  - intros s0 c h [A B]. split; [apply CB_closing; auto|]. eapply ZB_lift; [apply szeq_upd_chan|apply (ZN_closing _ _ (ZNLP_keep (msz s0))); exact B].
+  - intros s0 c h [A B]. split; [apply CB_ensure; auto|]. eapply ZB_lift; [apply szeq_heap, heap_ensure_chan|apply ZNL_ensure; exact B].
+  - intros s0 c h [A B]. split; [apply CB_cur; auto|]. eapply ZB_lift; [apply szeq_upd_chan|apply (ZN_cur _ _ (ZNLP_keep (msz s0))); exact B].
+  - intros s0 c h t [A B]. split; [apply CB_add_confirm; auto|].
+    eapply ZB_lift; [apply szeq_heap, heap_add_confirm|apply (ZN_add_confirm _ _ (ZNLP_keep (msz s0))); exact B].
+  - intros s0 c h tag [A B]. split; [apply CB_wake; auto|]. eapply ZB_lift; [apply szeq_heap, heap_wake_consumer|apply ZNL_wake; exact B].
+  - intros s0 c st En [A B]. split; [apply CB_newconn; auto|]. eapply ZB_lift; [apply szeq_heap; reflexivity|].
+    intros c' cn' Hg. rewrite get_conn_set_conn in Hg. destruct (c' =? c); [|apply B; auto]. inversion Hg; subst. reflexivity.
+  - intros s0. split; [apply CB_restart|apply allcn_restart].
+  - intros s0 c h ch E [A B]. destruct (CB_tick s0 c h ch E A) as [T1 T2]. destruct (ZN_tick _ _ (ZNLP_keep (msz s0)) s0 c h ch E B) as [T3 T4].
+    split; (split; [assumption|]); (eapply ZB_lift; [apply szeq_heap, heap_set_chan'|assumption]).
+  - intros c h m Hg [[A B] C]. apply (cguard_guard _ _ _ _ _ Hst Hco) in Hg.
+    split; [split; [apply CI_handle_method; auto|apply BI_handle_method; auto]|].
+    apply ZB_handle_method; auto; [apply UC_ensure; auto| |apply SmallCB_ensure; auto].
+
+    intros c' cn' Hg'. unfold ensure_chan in Hg'. destruct (get_conn s c) as [cn|] eqn:Ec; [|exact (Hkd _ _ Hg')].
+    destruct (alookup N.eqb h (cn_chans cn)) eqn:Eh; [exact (Hkd _ _ Hg')|].
+    rewrite get_conn_set_conn in Hg'. destruct (c' =? c) eqn:E1; [|exact (Hkd _ _ Hg')].
+    apply N.eqb_eq in E1. subst. inversion Hg'; subst. unfold KD. cbn. apply NoDup_keys_aset. exact (Hkd _ _ Ec).
+  - intros c h tag. destruct Hcb as [A B]. split; [split; [apply CI_consumer_turn; auto|apply BI_consumer_turn; auto]|].
+    eapply ZB_lift; [apply szeq_heap, heap_consumer_turn|apply ZNL_consumer_turn; auto; apply SZ_self].
+  - intros c h ch u m len Ech Ecur Em Elt [A B]. split; [eapply CB_conns; [apply conns_upd_msg|exact A]|].
+    eapply ZB_body; eauto.
+    + intros c' cn' Hg'. unfold ensure_chan in Hg'. destruct (get_conn s c) as [cn|] eqn:Ec; [|exact (Hkd _ _ Hg')].
+      destruct (alookup N.eqb h (cn_chans cn)) eqn:Eh; [exact (Hkd _ _ Hg')|].
+      rewrite get_conn_set_conn in Hg'. destruct (c' =? c) eqn:E1; [|exact (Hkd _ _ Hg')].
+      apply N.eqb_eq in E1. subst. inversion Hg'; subst. unfold KD. cbn. apply NoDup_keys_aset. exact (Hkd _ _ Ec).
+    + intros c' h' ch' x Hg Hx Ex. cbn.
+      destruct (UC_ensure s c h Huc _ _ _ _ Hg Hx) as [_ Hc]. rewrite Ex in Hc. specialize (Hc _ Em).
+      apply N.ltb_ge in Elt. lia.
+  - split; auto.
+Qed.
+
+Fixpoint smallcb_along (s : state) (ls : list label) : Prop :=
+  SmallCB s /\ match ls with [] => True | l :: t => smallcb_along (fst (step cfg fx s l)) t end.
+
+Theorem ZB_run ls : forall s, CB s -> RCI s -> allcn KD s -> ZB s -> smallcb_along s ls -> ZB (fst (run cfg fx s ls)).
+Proof.
+  induction ls as [|l t IH]; intros s Hcb Hr Hk H Hs; cbn [run]; auto.
+  destruct Hs as [Hs Ht]. pose proof (ZB_step s l Hcb (RCI_UC s Hr) Hk Hs H) as H1. pose proof (CB_step cfg fx Hst Hco Hcr s l Hcb) as C1.
+  pose proof (RCI_step cfg fx s l Hr) as R1. pose proof (KD_step cfg fx s l Hk) as K1.
+  destruct (step cfg fx s l) as [s1 e1]. cbn [fst] in *. specialize (IH s1 C1 R1 K1 H1 Ht).
+  destruct (run cfg fx s1 t) as [s2 e2]. exact IH.
+Qed.
+Lemma smallcb_along_last ls : forall s, smallcb_along s ls -> SmallCB (fst (run cfg fx s ls)).
+Proof.
+  induction ls as [|l t IH]; intros s Hs; cbn [run]; [exact (proj1 Hs)|].
+  destruct Hs as [_ Ht]. specialize (IH _ Ht). destruct (step cfg fx s l) as [s1 e1]. cbn [fst] in *.
+  destruct (run cfg fx s1 t) as [s2 e2]. exact IH.
+Qed.
+End ZBStep.
+
+Lemma ZB_init cfg : ZB (init cfg).
+Proof. intros c cn Hg. unfold get_conn in Hg. cbn in Hg. discriminate. Qed.
+
+Theorem conn_byte_ledger_reachable cfg fx ls c cn :
+  cfg_rabbit cfg = false -> fx_stage fx = true -> fx_chan_open fx = true -> fx_closeok_releases fx = true ->
+  smallcb_along cfg fx (init cfg) ls ->
+  let s := fst (run cfg fx (init cfg) ls) in
+  get_conn s c = Some cn ->
+  cs (cn_qos cn) = fold_right (fun x acc => msg_size s (u_msg x) mod two32 + acc) 0 (chan_unacked_all cn).
+Proof.
+  intros Hrab Hst Hco Hcr Hs s Hg.
+  pose proof (ZB_run cfg fx Hrab Hst Hco Hcr ls (init cfg) (CB_init cfg) (RCI_init cfg) (KD_init cfg) (ZB_init cfg) Hs _ _ Hg) as Hl.
+  unfold ZNLP, znl, ztot in Hl. rewrite N.add_0_r in Hl. rewrite Hl. apply bsum_fold.
+Qed.
+
+Theorem conn_delivery_only_below_size_limit wf cn size w' :
+  znl wf 0 cn -> ztot wf cn + size < two32 -> qos_inc (cn_qos cn) size = Some w' -> ps (cn_qos cn) <> 0 ->
+  ztot wf cn + size <= ps (cn_qos cn) /\ cs w' = ztot wf cn + size.
+Proof.
+  intros Hl Hsm Hi Hp. unfold znl in Hl. rewrite N.add_0_r in Hl. unfold qos_inc in Hi.
+  destruct (_ && ((ps (cn_qos cn) =? 0) || ((cs (cn_qos cn) + size) mod two32 <=? ps (cn_qos cn)))) eqn:E; [|discriminate].
+  inversion Hi; subst. cbn. apply andb_prop in E. destruct E as [_ E].
+  rewrite N.mod_small in * by (rewrite Hl; exact Hsm).
+  apply orb_prop in E. destruct E as [E|E]; [apply N.eqb_eq in E; contradiction|]. apply N.leb_le in E. rewrite Hl in *. split; [exact E|reflexivity].
+Qed.
+
+Theorem conn_delivery_size_bounded_reachable cfg fx ls c h tag ch cm cn d r ex k :
+  cfg_rabbit cfg = false -> fx_stage fx = true -> fx_chan_open fx = true -> fx_closeok_releases fx = true ->
+  smallcb_along cfg fx (init cfg) ls ->
+  let s := fst (run cfg fx (init cfg) ls) in
+  get_chan s c h = Some ch -> get_conn s c = Some cn -> find_consumer ch tag = Some cm -> c_noack cm = false -> ps (cn_qos cn) <> 0 ->
+  In (c, h, SDeliver tag d r ex k) (snd (consumer_turn cfg fx s c h tag)) ->
+  exists qu u rest, get_queue s (c_queue cm) = Some qu /\ q_ready qu = u :: rest /\
+    fold_right (fun x acc => msg_size s (u_msg x) mod two32 + acc) 0 (chan_unacked_all cn) + msg_size s u mod two32 <= ps (cn_qos cn).
+Proof.
+  intros Hrab Hst Hco Hcr Hs s Ech Ec Efc Ena Hp Hev. subst s. set (s := fst (run cfg fx (init cfg) ls)) in *.
+  destruct (ack_turn_charges_sized cfg fx s c h tag ch cm d r ex k Ech Efc Ena Hev) as (qu & u & rest & cn1 & w1 & w2 & Eq & Er & Ec1 & _ & Hi).
+  rewrite Ec in Ec1. inversion Ec1; subst cn1. rewrite Hrab in Hi. exists qu, u, rest. split; [exact Eq|]. split; [exact Er|].
+  pose proof (ZB_run cfg fx Hrab Hst Hco Hcr ls (init cfg) (CB_init cfg) (RCI_init cfg) (KD_init cfg) (ZB_init cfg) Hs _ _ Ec) as Hc.
+  pose proof (smallcb_along_last cfg fx ls _ Hs _ _ _ _ _ _ Ec Eq Er) as Hsm. fold s in Hsm, Hc.
+  destruct (conn_delivery_only_below_size_limit (msz s) cn (msz s u) w2 Hc Hsm Hi Hp) as [Hle _].
+  unfold ztot in Hle. rewrite bsum_fold in Hle. exact Hle.
+Qed.
+
+(* basic.get (with ack) hands out the head of the queue, and both windows accepted that message's size *)
+Theorem get_charges_sized cfg fx s c h q ch cn dt r ex k mc :
+  get_chan s c h = Some ch -> get_conn s c = Some cn ->
+  In (c, h, SGetOk dt r ex k mc) (snd (fst (handle_method cfg fx s c h (MGet q false)))) ->
+  exists qu u rest w1 w2, get_queue s q = Some qu /\ q_ready qu = u :: rest /\
+    qos_inc (ch_qos ch) (msz s u) = Some w1 /\ qos_inc (cn_qos cn) (msz s u) = Some w2.
+Proof.
+  intros Ech Ec. unfold handle_method. rewrite Ech. unfold ok, refuse.
+  destruct (queue_found s q) as [qu|] eqn:Eqf; [|intros []]. apply queue_found_get in Eqf.
+  destruct (fx_excl_owner fx && locked qu c); [intros []|].
+  destruct (q_ready qu) as [|u rest] eqn:Erd; [cbn; intros [X|[]]; inversion X|].
+  rewrite Ec. cbv beta iota zeta. change (msg_size s u mod two32) with (msz s u).
+  destruct (reserve (cfg_rollback cfg) [ch_qos ch; cn_qos cn] (msz s u)) as [okr ws] eqn:Er.
+  destruct okr as [l|]; [|cbn; intros [X|[]]; inversion X].
+  apply reserve2_success in Er. destruct Er as (w1 & w2 & A & B). intros _. exists qu, u, rest, w1, w2. auto.
+Qed.
+
+Theorem conn_get_size_bounded_reachable cfg fx ls c h q ch cn dt r ex k mc :
+  cfg_rabbit cfg = false -> fx_stage fx = true -> fx_chan_open fx = true -> fx_closeok_releases fx = true ->
+  smallcb_along cfg fx (init cfg) ls ->
+  let s := fst (run cfg fx (init cfg) ls) in
+  get_chan s c h = Some ch -> get_conn s c = Some cn -> ps (cn_qos cn) <> 0 ->
+  In (c, h, SGetOk dt r ex k mc) (snd (fst (handle_method cfg fx s c h (MGet q false)))) ->
+  exists qu u rest, get_queue s q = Some qu /\ q_ready qu = u :: rest /\
+    fold_right (fun x acc => msg_size s (u_msg x) mod two32 + acc) 0 (chan_unacked_all cn) + msg_size s u mod two32 <= ps (cn_qos cn).
+Proof.
+  intros Hrab Hst Hco Hcr Hs s Ech Ec Hp Hev. subst s. set (s := fst (run cfg fx (init cfg) ls)) in *.
+  destruct (get_charges_sized cfg fx s c h q ch cn dt r ex k mc Ech Ec Hev) as (qu & u & rest & w1 & w2 & Eq & Er & _ & Hi).
+  exists qu, u, rest. split; [exact Eq|]. split; [exact Er|].
+  pose proof (ZB_run cfg fx Hrab Hst Hco Hcr ls (init cfg) (CB_init cfg) (RCI_init cfg) (KD_init cfg) (ZB_init cfg) Hs _ _ Ec) as Hc.
+  pose proof (smallcb_along_last cfg fx ls _ Hs _ _ _ _ _ _ Ec Eq Er) as Hsm. fold s in Hsm, Hc.
+  destruct (conn_delivery_only_below_size_limit (msz s) cn (msz s u) w2 Hc Hsm Hi Hp) as [Hle _].
+  unfold ztot in Hle. rewrite bsum_fold in Hle. exact Hle.
+Qed.
+
+Definition smallcbb (s : state) : bool :=
+  forallb (fun kc : N * conn =>
+    forallb (fun kq : string * queue => match q_ready (snd kq) with [] => true | u :: _ => ztot (msz s) (snd kc) + msz s u <? two32 end) (queues s))
+    (conns s).
+Lemma smallcbb_spec s : smallcbb s = true -> SmallCB s.
+Proof.
+  intros H c cn q qu u rest Hg Hq Hr. unfold get_conn in Hg. apply (alookup_in N.eqb Neqb_spec) in Hg.
+  unfold get_queue in Hq. apply (alookup_in seqb seqb_spec) in Hq.
+  unfold smallcbb in H. rewrite forallb_forall in H. specialize (H _ Hg). cbn in H.
+  rewrite forallb_forall in H. specialize (H _ Hq). cbn in H. rewrite Hr in H. apply N.ltb_lt in H. exact H.
+Qed.
+Fixpoint smallcb_alongb (cfg : config) (fx : fixes) (s : state) (ls : list label) : bool :=
+  smallcbb s && match ls with [] => true | l :: t => smallcb_alongb cfg fx (fst (step cfg fx s l)) t end.
+Lemma smallcb_alongb_spec cfg fx ls : forall s, smallcb_alongb cfg fx s ls = true -> smallcb_along cfg fx s ls.
+Proof.
+  induction ls as [|l t IH]; intros s H; cbn [smallcb_alongb smallcb_along] in *; apply andb_prop in H; destruct H as [A B];
+    (split; [apply smallcbb_spec; exact A|auto]).
 Qed.
